@@ -3,10 +3,14 @@ import EaselModel.Msafile.Stockholm
 import EaselModel.Msafile.WriteStockholm
 import EaselModel.Msafile.WriteLemmas
 import EaselModel.Msafile.StockholmLemmas
+import EaselModel.Msafile.StoGrInv
 /-! Stockholm / Pfam: reading what `esl_msafile_stockholm_Write` wrote gives the alignment back (C03).
 
-This file covers alignments WITHOUT optional annotation (names and aligned rows only), in one block (Pfam) or in
-200-column blocks (Stockholm). -/
+Covered (`StoAnn`): names and aligned rows in one block (Pfam) or in 200-column blocks (Stockholm); comments; `#=GF` parsed
+(`ID AC DE AU`, cut-offs) and unparsed; `#=GC` parsed (`SS_cons SA_cons PP_cons RF MM`) and unparsed; `#=GR` `SS SA PP` and
+unparsed (hypothesis `grOrderOk` on the order of first mention); `#=GS` `AC DE` and unparsed (hypothesis `gsOrderOk`).  Not
+covered: weights (`#=GS … WT`).  The per-sequence array invariants are in `StoGrInv.lean` (the `#=GS` arrays reuse them:
+`gsMsa`). -/
 namespace EaselModel.Msafile
 
 /-! ## the writer's output for an alignment without annotation -/
@@ -67,6 +71,32 @@ def comOk (c : Bytes) : Prop :=
 def gfTagOk (t : Bytes) : Prop :=
   nameOk t ∧ (10 : UInt8) ∉ t ∧ t ≠ bID ∧ t ≠ bAC ∧ t ≠ bDE ∧ t ≠ bAU ∧ t ≠ bGA ∧ t ≠ bNC ∧ t ≠ bTC
 
+/-- an unparsed `#=GC` tag: a token, and none of the five tags the reader parses -/
+def gcTagOk (t : Bytes) : Prop :=
+  nameOk t ∧ (10 : UInt8) ∉ t ∧ t ≠ bSScons ∧ t ≠ bSAcons ∧ t ≠ bPPcons ∧ t ≠ bRF ∧ t ≠ bMM
+
+/-- an unparsed `#=GR` tag: a token, and none of the three tags the reader parses -/
+def grTagOk (t : Bytes) : Prop := nameOk t ∧ (10 : UInt8) ∉ t ∧ t ≠ bSS ∧ t ≠ bSA ∧ t ≠ bPP
+
+/-- the reader numbers the unparsed `#=GR` tags in the order it meets them: that is the order of `m.gr` when, wherever a tag
+    annotates sequence `i`, every tag in front of it in `m.gr` annotates some sequence `≤ i` -/
+def grOrderOk (m : Msa) : Prop :=
+  ∀ t, t < m.gr.length → ∀ t', t' < t → ∀ i, i < m.nseq → (grVal m (3 + t) i).isSome = true →
+    ∃ i', i' < i + 1 ∧ (grVal m (3 + t') i').isSome = true
+
+/-- the `#=GS` annotation seen as `#=GR`-like arrays of kinds 0 (`AC`: `sqacc`), 1 (`DE`: `sqdesc`), `3 + t` (unparsed tag `t`) -/
+def gsMsa (m : Msa) : Msa := { names := m.names, ss := m.sqacc, sa := m.sqdesc, gr := m.gs }
+
+/-- an unparsed `#=GS` tag: a token, and none of the three tags the reader parses -/
+def gsTagOk (t : Bytes) : Prop := nameOk t ∧ (10 : UInt8) ∉ t ∧ t ≠ bWT ∧ t ≠ bAC ∧ t ≠ bDE
+
+/-- `#=GS` lines stand in front of the first block, kind by kind, and the reader numbers the sequences in the order it meets
+    their names: that is the order of the rows when the first kind that is written at all is written for EVERY sequence
+    (known finding C03:stockholm:first-mention-order: without this the alignment comes back in another order) -/
+def gsOrderOk (m : Msa) : Prop :=
+  ∀ q, q < 3 + m.gs.length → (∀ q', q' < q → ∀ i', i' < m.nseq → grVal (gsMsa m) q' i' = none) →
+    (∃ i, i < m.nseq ∧ (grVal (gsMsa m) q i).isSome = true) → ∀ i, i < m.nseq → (grVal (gsMsa m) q i).isSome = true
+
 /-- `msa->alloc_ncomment` after `n` calls of `esl_msa_AddComment` -/
 def comAllocN : Nat → Nat
   | 0 => 0
@@ -111,18 +141,28 @@ theorem cutsetOf_eq (m : Msa) :
   cases o0 <;> cases o1 <;> cases o2 <;> cases o3 <;> cases o4 <;> cases o5 <;> rfl
 
 /-- the annotation covered here: the five `#=GC` consensus lines and the whole header section (comment lines, `#=GF ID, AC,
-    DE, AU`, the cut-offs `GA NC TC` with finite values, unparsed `#=GF` tags); nothing per sequence, no unparsed `#=GC`,
-    no weights -/
+    DE, AU`, the cut-offs `GA NC TC` with finite values, unparsed `#=GF` tags), unparsed `#=GC` tags (pairwise distinct
+    tokens other than the five parsed tags, one non-blank character per column); per sequence: `#=GR SS SA PP` and unparsed
+    `#=GR` tags (`per_ok … gr_col`), `#=GS AC DE` and unparsed `#=GS` tags (`gs_tag_ok … gs_val`); no weights.
+    An optional array that is present has one entry per sequence and at least one of them set (an all-absent array is not
+    written, hence not read back) -/
 structure StoAnn (m : Msa) : Prop where
   hasw : m.hasw = false
-  sqacc : m.sqacc = none
-  sqdesc : m.sqdesc = none
-  ss : m.ss = none
-  sa : m.sa = none
-  pp : m.pp = none
-  gs : m.gs = []
-  gc : m.gc = []
-  gr : m.gr = []
+  gs_tag_ok : ∀ t ∈ m.gs, gsTagOk t.1 ∧ t.2.length = m.nseq
+  gs_nodup : (m.gs.map (·.1)).Nodup
+  gs_ne : ∀ t, t < m.gs.length → ∃ i, i < m.nseq ∧ (grVal (gsMsa m) (3 + t) i).isSome = true
+  gs_per_ok : ∀ q, q < 3 → ∀ l, (perF (gsMsa m)).getD q none = some l →
+    l.length = m.nseq ∧ ∃ i, i < m.nseq ∧ (l.getD i none).isSome = true
+  gs_order : gsOrderOk m
+  gs_val : ∀ q i s, grVal (gsMsa m) q i = some s → (q = 0 → gfTokOk s) ∧ (q ≠ 0 → gfTextOk s) ∧ (3 ≤ q → s ≠ [])
+  per_ok : ∀ q, q < 3 → ∀ l, (perF m).getD q none = some l → l.length = m.nseq ∧ ∃ i, i < m.nseq ∧ (l.getD i none).isSome = true
+  gr_tag_ok : ∀ t ∈ m.gr, grTagOk t.1 ∧ t.2.length = m.nseq
+  gr_nodup : (m.gr.map (·.1)).Nodup
+  gr_ne : ∀ t, t < m.gr.length → ∃ i, i < m.nseq ∧ (grVal m (3 + t) i).isSome = true
+  gr_order : grOrderOk m
+  gr_col : ∀ q i s, grVal m q i = some s → colTextOk m.alen s
+  gc_ok : ∀ t ∈ m.gc, gcTagOk t.1 ∧ colTextOk m.alen t.2
+  gc_nodup : (m.gc.map (·.1)).Nodup
   cons_ok : ∀ k s, (consF m).getD k none = some s → colTextOk m.alen s
   name_ok : ∀ v, m.name = some v → gfTokOk v
   acc_ok : ∀ v, m.acc = some v → gfTokOk v
@@ -132,9 +172,49 @@ structure StoAnn (m : Msa) : Prop where
   com_ok : ∀ c ∈ m.comments, comOk c
   gf_ok : ∀ t ∈ m.gf, gfTagOk t.1 ∧ gfTextOk t.2
 
+theorem grVal_plain {m : Msa} (h1 : m.ss = none) (h2 : m.sa = none) (h3 : m.pp = none) (h4 : m.gr = []) (q i : Nat) :
+    grVal m q i = none := by
+  unfold grVal perF
+  rw [h1, h2, h3, h4]
+  split
+  · rename_i hq
+    rcases q with _ | _ | _ | _
+    · rfl
+    · rfl
+    · rfl
+    · omega
+  · rfl
+
 theorem StoPlain.ann {m : Msa} (h : StoPlain m) : StoAnn m :=
-  { hasw := h.hasw, sqacc := h.sqacc, sqdesc := h.sqdesc, ss := h.ss, sa := h.sa, pp := h.pp
-    gs := h.gs, gc := h.gc, gr := h.gr
+  { hasw := h.hasw
+    gs_tag_ok := fun t ht => by rw [h.gs] at ht; cases ht
+    gs_nodup := by rw [h.gs]; exact List.nodup_nil
+    gs_ne := fun t ht => by rw [h.gs] at ht; simp at ht
+    gs_per_ok := fun q hq l hl => by
+      unfold perF gsMsa at hl; simp only [h.sqacc, h.sqdesc] at hl
+      rcases q with _ | _ | _ | _
+      · cases hl
+      · cases hl
+      · cases hl
+      · omega
+    gs_order := fun q _ _ hex => by
+      obtain ⟨i, _, hv⟩ := hex
+      rw [grVal_plain (m := gsMsa m) h.sqacc h.sqdesc rfl h.gs] at hv; cases hv
+    gs_val := fun q i s hs => by rw [grVal_plain (m := gsMsa m) h.sqacc h.sqdesc rfl h.gs] at hs; cases hs
+    per_ok := fun q hq l hl => by
+      unfold perF at hl; rw [h.ss, h.sa, h.pp] at hl
+      rcases q with _ | _ | _ | _
+      · cases hl
+      · cases hl
+      · cases hl
+      · omega
+    gr_tag_ok := fun t ht => by rw [h.gr] at ht; cases ht
+    gr_nodup := by rw [h.gr]; exact List.nodup_nil
+    gr_ne := fun t ht => by rw [h.gr] at ht; simp at ht
+    gr_order := fun t ht => by rw [h.gr] at ht; simp at ht
+    gr_col := fun q i s hs => by rw [grVal_plain h.ss h.sa h.pp h.gr] at hs; cases hs
+    gc_ok := fun t ht => by rw [h.gc] at ht; cases ht
+    gc_nodup := by rw [h.gc]; exact List.nodup_nil
     cons_ok := fun k s hs => by
       have : (consF m).getD k none = none := by
         unfold consF; rw [h.ssCons, h.saCons, h.ppCons, h.rf, h.mm]
@@ -176,11 +256,79 @@ def stoW (m : Msa) (cpl pos : Nat) : Nat := if m.alen - pos > cpl then cpl else 
 def gcSlotLines (m : Msa) (pos w g : Nat) : List Bytes :=
   optLine ((consF m).getD g none) (fun s => gcLine (stoLayout m) (consTag.getD g []) s pos w)
 
-/-- one block: the blank line in front of a later block, the rows, the `#=GC` lines -/
+/-- the unparsed `#=GC` lines of the block `[pos, pos+w)` -/
+def gcOtherLines (m : Msa) (pos w : Nat) : List Bytes := m.gc.map (fun t => gcLine (stoLayout m) t.1 t.2 pos w)
+
+/-- the tag of `#=GR` kind `q` -/
+def grTagOf (m : Msa) (q : Nat) : Bytes := if q < 3 then [bSS, bSA, bPP].getD q [] else (m.gr.getD (q - 3) ([], [])).1
+
+/-- the `#=GR SS / SA / PP` line (kind `q < 3`) of sequence `i` in the block `[pos, pos+w)`, if the sequence carries it -/
+def grSlotLines (m : Msa) (pos w i q : Nat) : List Bytes :=
+  optLine (grVal m q i) (fun s => grLine (stoLayout m) m i (grTagOf m q) s pos w)
+
+/-- the unparsed `#=GR` lines of sequence `i` for the tags in `l` -/
+def grOtherLines (m : Msa) (pos w i : Nat) (l : List (Bytes × List (Option Bytes))) : List Bytes :=
+  l.flatMap (fun t => optLine (t.2.getD i none) (fun s => grLine (stoLayout m) m i t.1 s pos w))
+
+/-- the lines of sequence `i` in a block: the row, `#=GR SS SA PP`, the unparsed `#=GR` tags -/
+def stoSeqL (abc : Option Abc) (m : Msa) (pos w i : Nat) : List Bytes :=
+  [stoSqLine abc m pos w i] ++ (grSlotLines m pos w i 0 ++ (grSlotLines m pos w i 1 ++ (grSlotLines m pos w i 2
+    ++ grOtherLines m pos w i m.gr)))
+
+/-- one block: the blank line in front of a later block, the rows with their `#=GR` lines, the `#=GC` lines -/
 def stoAnnBlock (abc : Option Abc) (m : Msa) (cpl pos : Nat) : List Bytes :=
-  (if pos > 0 then [[]] else []) ++ ((List.range m.nseq).map (stoSqLine abc m pos (stoW m cpl pos))
+  (if pos > 0 then [[]] else []) ++ ((List.range m.nseq).flatMap (stoSeqL abc m pos (stoW m cpl pos))
     ++ (gcSlotLines m pos (stoW m cpl pos) 0 ++ (gcSlotLines m pos (stoW m cpl pos) 1 ++ (gcSlotLines m pos (stoW m cpl pos) 2
-    ++ (gcSlotLines m pos (stoW m cpl pos) 3 ++ gcSlotLines m pos (stoW m cpl pos) 4)))))
+    ++ (gcSlotLines m pos (stoW m cpl pos) 3 ++ (gcSlotLines m pos (stoW m cpl pos) 4 ++ gcOtherLines m pos (stoW m cpl pos)))))))
+
+/-- the tag of `#=GS` kind `q` (0 = `AC`, 1 = `DE`) -/
+def gsTagOf (m : Msa) (q : Nat) : Bytes := if q = 0 then bAC else if q < 3 then bDE else (m.gs.getD (q - 3) ([], [])).1
+
+/-- one `#=GS <seqname> AC|DE <value>` line -/
+def gsLine (m : Msa) (q i : Nat) (v : Bytes) : Bytes :=
+  sGS ++ padRight (stoLayout m).maxname (m.names.getD i []) ++ ([32] ++ gsTagOf m q ++ [32]) ++ v
+
+/-- the lines of `#=GS` kind `q` -/
+def stoGsSec (m : Msa) (q : Nat) : List Bytes := (List.range m.nseq).flatMap (fun i => optLine (grVal (gsMsa m) q i) (gsLine m q i))
+
+/-- the `#=GS` section: the accessions, then the descriptions, then the unparsed tags, each kind followed by a blank line -/
+def stoGsL (m : Msa) : List Bytes :=
+  (if m.sqacc.isSome then stoGsSec m 0 ++ [[]] else []) ++ ((if m.sqdesc.isSome then stoGsSec m 1 ++ [[]] else [])
+    ++ (List.range m.gs.length).flatMap (fun t => stoGsSec m (3 + t) ++ [[]]))
+
+/-- a value without line feed is printed on one line -/
+theorem strtokLF_acc (v acc : Bytes) (h : (10 : UInt8) ∉ v) :
+    strtokLF v acc = if (acc.isEmpty && v.isEmpty) then [] else [acc.reverse ++ v] := by
+  induction v generalizing acc with
+  | nil => unfold strtokLF; cases acc <;> simp
+  | cons c r ih =>
+    have hc : (c == 10) = false := by
+      simp only [beq_eq_false_iff_ne, ne_eq]; intro e; exact h (by simp [e])
+    unfold strtokLF
+    simp only [hc, Bool.false_eq_true, if_false]
+    rw [ih (c :: acc) (fun hm => h (List.mem_cons_of_mem _ hm))]
+    simp
+
+theorem strtokLF_single (v : Bytes) (h : (10 : UInt8) ∉ v) (hne : v ≠ []) : strtokLF v [] = [v] := by
+  rw [strtokLF_acc v [] h]
+  cases v with
+  | nil => exact absurd rfl hne
+  | cons _ _ => simp
+
+theorem sGS_eq : sGS = bGS ++ [32] := by decide +kernel
+
+theorem sto_flatMap_congr {α β : Type} (l : List α) (f g : α → List β) (h : ∀ a ∈ l, f a = g a) : l.flatMap f = l.flatMap g := by
+  induction l with
+  | nil => rfl
+  | cons a t ih =>
+    simp only [List.flatMap_cons]
+    rw [h a (by simp), ih (fun b hb => h b (by simp [hb]))]
+
+theorem gsTagOf_other (m : Msa) (t : Nat) : gsTagOf m (3 + t) = (m.gs.getD t ([], [])).1 := by
+  unfold gsTagOf; rw [if_neg (by omega), if_neg (by omega), Nat.add_sub_cancel_left]
+
+theorem gsVal_acc' (m : Msa) (i : Nat) : grVal (gsMsa m) 0 i = optRow m.sqacc i := rfl
+theorem gsVal_desc' (m : Msa) (i : Nat) : grVal (gsMsa m) 1 i = optRow m.sqdesc i := rfl
 
 theorem flatMap_single {α β : Type} (f : α → β) (l : List α) : l.flatMap (fun x => [f x]) = l.map f := by
   induction l with
@@ -200,15 +348,18 @@ def stoAnnHead (m : Msa) : List Bytes :=
 
 theorem stoBody_ann (pfam : Bool) (abc : Option Abc) (m : Msa) (hp : StoAnn m) (hn : m.names.Nodup) :
     stockholmBodyLines pfam abc m
-      = stoAnnHead m ++ (blockStarts m.alen (stoCpl pfam m)).flatMap (stoAnnBlock abc m (stoCpl pfam m)) := by
+      = stoAnnHead m ++ stoGsL m ++ (blockStarts m.alen (stoCpl pfam m)).flatMap (stoAnnBlock abc m (stoCpl pfam m)) := by
   have hd : hasDupNames m.names = false := (hasDupNames_iff m.names).mpr hn
   have hu : (stoLayout m).uniq = false := by unfold stoLayout; simp [hd]
   have huw : (stoLayout m).uniqwidth = 0 := by unfold stoLayout; simp [hd]
-  have hseq : ∀ pos acpl, stoSeqLines (stoLayout m) abc m pos acpl = fun i => [stoSqLine abc m pos acpl i] := by
+  have g1 : str "SS" = bSS := by decide +kernel
+  have g2 : str "SA" = bSA := by decide +kernel
+  have g3 : str "PP" = bPP := by decide +kernel
+  have hseq : ∀ pos acpl, stoSeqLines (stoLayout m) abc m pos acpl = stoSeqL abc m pos acpl := by
     intro pos acpl
     funext i
-    unfold stoSeqLines stoSqLine stoName stoPadW
-    simp [hu, hp.ss, hp.sa, hp.pp, hp.gr, optRow, optLine]
+    unfold stoSeqLines stoSeqL stoSqLine stoName stoPadW grSlotLines grOtherLines
+    simp [hu, g1, g2, g3, grVal, grTagOf, perF]
   have e1 : str "SS_cons" = bSScons := by decide +kernel
   have e2 : str "SA_cons" = bSAcons := by decide +kernel
   have e3 : str "PP_cons" = bPPcons := by decide +kernel
@@ -216,8 +367,8 @@ theorem stoBody_ann (pfam : Bool) (abc : Option Abc) (m : Msa) (hp : StoAnn m) (
   have e5 : str "MM" = bMM := by decide +kernel
   have hblk : stoBlockLines (stoLayout m) abc m (stoCpl pfam m) = stoAnnBlock abc m (stoCpl pfam m) := by
     funext pos
-    unfold stoBlockLines stoAnnBlock stoW gcSlotLines
-    simp only [hseq, flatMap_single, hp.gc, List.map_nil, List.append_nil, e1, e2, e3, e4, e5, consF, consTag,
+    unfold stoBlockLines stoAnnBlock stoW gcSlotLines gcOtherLines
+    simp only [hseq, e1, e2, e3, e4, e5, consF, consTag,
       List.getD_cons_zero, List.getD_cons_succ, List.append_assoc]
   have f1 : str "ID" = bID := by decide +kernel
   have f2 : str "AC" = bAC := by decide +kernel
@@ -231,11 +382,53 @@ theorem stoBody_ann (pfam : Bool) (abc : Option Abc) (m : Msa) (hp : StoAnn m) (
     unfold stoHeadLines stoAnnHead
     simp only [hu, f1, f2, f3, f4, f5, f6, f7, f8]
     cases m.name <;> cases m.acc <;> cases m.desc <;> cases m.au <;> simp [optLine]
-  have hgs : stoGSLines (stoLayout m) m = [] := by
-    unfold stoGSLines
-    simp [hp.hasw, hp.sqacc, hp.sqdesc, hp.gs]
+  have k1 : str " AC " = [32] ++ bAC ++ [32] := by decide +kernel
+  have k2 : str " DE " = [32] ++ bDE ++ [32] := by decide +kernel
+  have hgs : stoGSLines (stoLayout m) m = stoGsL m := by
+    unfold stoGSLines stoGsL stoGsSec
+    simp only [hp.hasw, Bool.false_eq_true, if_false, List.nil_append, List.append_assoc]
+    congr 1
+    · cases hacc : m.sqacc with
+      | none => rfl
+      | some la =>
+        simp only [Option.isSome_some, if_true]
+        congr 1
+        apply sto_flatMap_congr
+        intro i _
+        have e : grVal (gsMsa m) 0 i = optRow (some la) i := by rw [gsVal_acc', hacc]
+        rw [e]
+        cases optRow (some la) i with
+        | none => rfl
+        | some v => simp [optLine, gsLine, stoName, hu, k1, gsTagOf]
+    · congr 1
+      · cases hdesc : m.sqdesc with
+        | none => rfl
+        | some ld =>
+          simp only [Option.isSome_some, if_true]
+          congr 1
+          apply sto_flatMap_congr
+          intro i _
+          have e : grVal (gsMsa m) 1 i = optRow (some ld) i := by rw [gsVal_desc', hdesc]
+          rw [e]
+          cases optRow (some ld) i with
+          | none => rfl
+          | some v => simp [optLine, gsLine, stoName, hu, k2, gsTagOf]
+      · apply sto_flatMap_congr
+        intro t _
+        congr 1
+        apply sto_flatMap_congr
+        intro j _
+        have e : grVal (gsMsa m) (3 + t) j = (m.gs.getD t ([], [])).2.getD j none := grVal_other (gsMsa m) t j
+        rw [e]
+        cases hv : (m.gs.getD t ([], [])).2.getD j none with
+        | none => rfl
+        | some v =>
+          have hval := hp.gs_val (3 + t) j v (by rw [e]; exact hv)
+          have h10 : (10 : UInt8) ∉ v := (hval.2.1 (by omega)).2.2.1
+          simp only [strtokLF_single v h10 (hval.2.2 (by omega))]
+          simp [optLine, gsLine, stoName, hu, padRight, gsTagOf_other]
   unfold stockholmBodyLines
-  simp only [hhead, hgs, hblk, List.append_nil]
+  simp only [hhead, hgs, hblk]
 
 /-! ## the shape of a sequence line -/
 
@@ -318,17 +511,32 @@ theorem stoStep_sqline (cfg : Cfg) (st : StoSt) (nm sp c : Bytes) (hl : st.lead 
 
 /-! ## the reader's state while it reads such a file -/
 
-/-- what the `#=GS` section leaves in the reader's state (constant while the blocks are read) -/
+/-- progress through the `#=GS` section: the kinds `< sec` (0 = `AC`, 1 = `DE`, `3 + t` = unparsed tag `t`) are complete, and of
+    kind `sec` the lines of the sequences `< i` -/
 structure GsSt where
-  hasw : Bool
-  wgt : List Wgt
-  sqacc : OptRows
-  sqdesc : OptRows
-  gsTags : List Bytes
-  gs : List (List (Option Bytes))
+  sec : Nat
+  i : Nat
 
-/-- no `#=GS` section -/
-def GsSt.none : GsSt := ⟨false, [], .none, .none, [], []⟩
+/-- nothing of the `#=GS` section read -/
+def GsSt.none : GsSt := ⟨0, 0⟩
+
+/-- every `#=GS` value -/
+def gsVals (m : Msa) : List Bytes :=
+  (List.range (3 + m.gs.length)).flatMap (fun q => (List.range m.nseq).filterMap (fun i => grVal (gsMsa m) q i))
+
+/-- a width no `#=GS` value reaches -/
+def gsW (m : Msa) : Nat := 1 + (gsVals m).foldl (fun a s => a + s.length) 0
+
+/-- the `#=GS` line of (sequence `i'`, kind `q'`) has been read -/
+def dnGs (m : Msa) (G : GsSt) (i' q' : Nat) : Bool :=
+  decide (i' < m.nseq) && (decide (q' < G.sec) || (decide (q' = G.sec) && decide (i' < G.i)))
+
+/-- the `#=GS` part of the reader's state: the values read so far sit in `sqacc`, `sqdesc`, `gs` (the length arrays of
+    `GrInv` have no counterpart here: any will do) -/
+structure GsInv (m : Msa) (G : GsSt) (n : Nat) (hasw : Bool) (sqacc sqdesc : OptRows) (gsTags : List Bytes)
+    (gs : List (List (Option Bytes))) : Prop where
+  hasw : hasw = false
+  inv : ∃ PL L, GrInv (gsMsa m) 0 (gsW m) (dnGs m G) n [sqacc, sqdesc, none] PL gsTags gs L
 
 /-- the annotation part of the reader's state -/
 structure Ann where
@@ -351,13 +559,112 @@ structure Ann where
   gs : List (List (Option Bytes))
   gcTags : List Bytes
   gc : List (Option Bytes)
+  ogcLen : List Nat
   grTags : List Bytes
   gr : List (List (Option Bytes))
 
 def annOf (st : StoSt) : Ann :=
   { lead := st.lead, hasw := st.hasw, wgt := st.wgt, name := st.name, desc := st.desc, acc := st.acc, au := st.au, cons := st.cons,
     consLen := st.consLen, sqacc := st.sqacc, sqdesc := st.sqdesc, per := st.per, cutset := st.cutset, comments := st.comments,
-    gf := st.gf, gsTags := st.gsTags, gs := st.gs, gcTags := st.gcTags, gc := st.gc, grTags := st.grTags, gr := st.gr }
+    gf := st.gf, gsTags := st.gsTags, gs := st.gs, gcTags := st.gcTags, gc := st.gc, ogcLen := st.ogcLen,
+    grTags := st.grTags, gr := st.gr }
+
+/-- number of unparsed `#=GC` tags the reader knows: in the first block the ones whose line has been read, later all -/
+def ngcOf (m : Msa) (pos g : Nat) : Nat := if pos = 0 then g - 5 else m.gc.length
+
+/-- the `g`-th `#=GC` line (`g ≥ 5`: unparsed tag `g - 5`) has been dealt with in the block `[pos, pos+w)` -/
+def gcCol (pos w g k : Nat) : Nat := if k + 5 < g then pos + w else pos
+
+/-- the unparsed `#=GC` part of the reader's state (`gc_tag`, `gc`, `ogc_len`): `n` tags are known, tag `k` has been read up
+    to column `col k` -/
+structure GcInv (m : Msa) (n : Nat) (col : Nat → Nat) (tags : List Bytes) (gc : List (Option Bytes)) (lens : List Nat) : Prop where
+  tags : tags = (m.gc.map (·.1)).take n
+  gc_len : gc.length = n
+  lens_len : lens.length = n
+  le : n ≤ m.gc.length
+  gc : ∀ k, k < n → gc[k]? = some (txtVal (m.gc.getD k ([], [])).2 (col k))
+  lens : ∀ k, k < n → lens[k]? = some (col k)
+
+theorem GcInv.congr {m : Msa} {n n' : Nat} {col col' : Nat → Nat} {T : List Bytes} {C : List (Option Bytes)} {L : List Nat}
+    (h : GcInv m n col T C L) (hn : n' = n) (hc : ∀ k, k < n → col' k = col k) : GcInv m n' col' T C L := by
+  subst hn
+  exact { h with gc := fun k hk => by rw [hc k hk]; exact h.gc k hk, lens := fun k hk => by rw [hc k hk]; exact h.lens k hk }
+
+theorem GcInv.register {m : Msa} {n : Nat} {col : Nat → Nat} {T : List Bytes} {C : List (Option Bytes)} {L : List Nat}
+    (h : GcInv m n col T C L) (hn : n < m.gc.length) (h0 : col n = 0) :
+    GcInv m (n + 1) col (T ++ [(m.gc.getD n ([], [])).1]) (C ++ [none]) (L ++ [0]) :=
+  { tags := by
+      rw [h.tags, List.take_succ]
+      simp [List.getD_eq_getElem?_getD, List.getElem?_eq_getElem hn]
+    gc_len := by simp [h.gc_len]
+    lens_len := by simp [h.lens_len]
+    le := hn
+    gc := fun k hk => by
+      by_cases e : k < n
+      · rw [List.getElem?_append_left (by rw [h.gc_len]; exact e)]; exact h.gc k e
+      · have : k = n := by omega
+        subst this
+        rw [List.getElem?_append_right (by rw [h.gc_len]; exact Nat.le_refl _), h.gc_len, h0]
+        simp [txtVal]
+    lens := fun k hk => by
+      by_cases e : k < n
+      · rw [List.getElem?_append_left (by rw [h.lens_len]; exact e)]; exact h.lens k e
+      · have : k = n := by omega
+        subst this
+        rw [List.getElem?_append_right (by rw [h.lens_len]; exact Nat.le_refl _), h.lens_len, h0]
+        simp }
+
+theorem GcInv.set {m : Msa} {n : Nat} {col : Nat → Nat} {T : List Bytes} {C : List (Option Bytes)} {L : List Nat}
+    (h : GcInv m n col T C L) (t p' : Nat) (ht : t < n) :
+    GcInv m n (fun k => if k = t then p' else col k) T (C.set t (txtVal (m.gc.getD t ([], [])).2 p')) (L.set t p') :=
+  { tags := h.tags
+    gc_len := by rw [List.length_set]; exact h.gc_len
+    lens_len := by rw [List.length_set]; exact h.lens_len
+    le := h.le
+    gc := fun k hk => by
+      rw [List.getElem?_set]
+      by_cases e : t = k
+      · subst e; simp [h.gc_len, ht]
+      · have e' : ¬ (k = t) := fun x => e x.symm
+        simp only [e, e', if_false]; exact h.gc k hk
+    lens := fun k hk => by
+      rw [List.getElem?_set]
+      by_cases e : t = k
+      · subst e; simp [h.lens_len, ht]
+      · have e' : ¬ (k = t) := fun x => e x.symm
+        simp only [e, e', if_false]; exact h.lens k hk }
+
+/-- as long as the five parsed slots are being dealt with nothing changes -/
+theorem GcInv.low {m : Msa} {pos w g : Nat} {T : List Bytes} {C : List (Option Bytes)} {L : List Nat}
+    (h : GcInv m (ngcOf m pos g) (gcCol pos w g) T C L) (hg : g < 5) : GcInv m (ngcOf m pos (g + 1)) (gcCol pos w (g + 1)) T C L :=
+  h.congr (by unfold ngcOf; split <;> omega) (fun k _ => by unfold gcCol; simp only [show ¬ (k + 5 < g + 1) by omega, show ¬ (k + 5 < g) by omega])
+
+/-- the end of a block -/
+theorem GcInv.endBlock {m : Msa} {pos w w' : Nat} {T : List Bytes} {C : List (Option Bytes)} {L : List Nat}
+    (h : GcInv m (ngcOf m pos (5 + m.gc.length)) (gcCol pos w (5 + m.gc.length)) T C L) (hw : 1 ≤ w) :
+    GcInv m (ngcOf m (pos + w) 0) (gcCol (pos + w) w' 0) T C L :=
+  h.congr (by unfold ngcOf; rw [if_neg (by omega)]; split <;> omega)
+    (fun k hk => by
+      have : k < m.gc.length := by unfold ngcOf at hk; split at hk <;> omega
+      unfold gcCol; simp only [show ¬ (k + 5 < 0) by omega, show k + 5 < 5 + m.gc.length by omega, if_true, if_false])
+
+theorem GcInv.final {m : Msa} {T : List Bytes} {C : List (Option Bytes)} {L : List Nat}
+    (h : GcInv m m.gc.length (fun _ => m.alen) T C L) (ha : 1 ≤ m.alen) (hok : ∀ t ∈ m.gc, t.2.length = m.alen) :
+    T.zip (C.map (·.getD [])) = m.gc := by
+  have h1 : T = m.gc.map (·.1) := by rw [h.tags, ← List.length_map (f := (·.1)), List.take_length]
+  have h2 : C.map (·.getD []) = m.gc.map (·.2) := by
+    apply List.ext_getElem?
+    intro i
+    by_cases hi : i < m.gc.length
+    · rw [List.getElem?_map, h.gc i hi, List.getElem?_map, List.getElem?_eq_getElem hi]
+      have hl := hok m.gc[i] (List.getElem_mem hi)
+      have h0 : ¬ (m.alen = 0) := by omega
+      simp only [txtVal, h0, if_false, Option.map_some, Option.getD_some, List.getD_eq_getElem?_getD, List.getElem?_eq_getElem hi]
+      rw [← hl, List.take_length]
+    · rw [List.getElem?_eq_none (by rw [List.length_map, h.gc_len]; omega), List.getElem?_eq_none (by rw [List.length_map]; omega)]
+  rw [h1, h2, List.zip_map']
+  conv => rhs; rw [← List.map_id m.gc]
+  rfl
 
 /-- slot `k` of the consensus 5-array once `p` columns of it have been read -/
 def consVal (m : Msa) (p k : Nat) : Option Bytes :=
@@ -370,8 +677,6 @@ def consVal (m : Msa) (p k : Nat) : Option Bytes :=
     the rest is untouched -/
 structure Frozen (m : Msa) (G : GsSt) (pos w g : Nat) (a : Ann) : Prop where
   lead : a.lead = false
-  hasw : a.hasw = G.hasw
-  wgt : G.hasw = true → a.wgt = G.wgt
   name : a.name = m.name
   desc : a.desc = m.desc
   acc : a.acc = m.acc
@@ -380,33 +685,52 @@ structure Frozen (m : Msa) (G : GsSt) (pos w g : Nat) (a : Ann) : Prop where
   consLen_len : a.consLen.length = 5
   cons : ∀ k, k < 5 → a.cons[k]? = some (consVal m (if k < g then pos + w else pos) k)
   consLen : ∀ k, k < 5 → ((consF m).getD k none).isSome = true → a.consLen[k]? = some (if k < g then pos + w else pos)
-  sqacc : a.sqacc = G.sqacc
-  sqdesc : a.sqdesc = G.sqdesc
-  per : a.per = List.replicate 3 none
   cutset : a.cutset = cutsetOf m
   comments : a.comments = m.comments
   gf : a.gf = m.gf
-  gsTags : a.gsTags = G.gsTags
-  gs : a.gs = G.gs
-  gcTags : a.gcTags = []
-  gc : a.gc = []
-  grTags : a.grTags = []
-  gr : a.gr = []
+  gcI : GcInv m (ngcOf m pos g) (gcCol pos w g) a.gcTags a.gc a.ogcLen
 
 /-- line types of the `#=GC` lines of a block -/
 def gcLT (m : Msa) : List Nat := ((consF m).zip consLT).filterMap (fun p => p.1.map (fun _ => p.2))
 
+/-- line type of `#=GR` kind `q` -/
+def grLT (q : Nat) : Nat := if q = 0 then ltGRSS else if q = 1 then ltGRSA else if q = 2 then ltGRPP else ltGROTHER
+
+/-- what sequence `i` may contribute to a block: its row, then one line per `#=GR` kind it carries -/
+def thingsOf (m : Msa) (i : Nat) : List (Option (Nat × Option Nat)) :=
+  some (ltSQ, some i) :: (List.range (nslots m)).map (fun q => (grVal m q i).map (fun _ => (grLT q, some i)))
+
+/-- the lines of sequence `i` in a block: (line type, sequence index) -/
+def seqSpec (m : Msa) (i : Nat) : List (Nat × Option Nat) := (thingsOf m i).filterMap id
+
+/-- number of block lines of the sequences `< j` -/
+def base (m : Msa) (j : Nat) : Nat := ((List.range j).flatMap (seqSpec m)).length
+
+/-- number of block lines of sequence `i` up to and including `#=GR` kind `q - 1` -/
+def preLen (m : Msa) (i q : Nat) : Nat := (((thingsOf m i).take (1 + q)).filterMap id).length
+
+/-- number of sequence and `#=GR` lines of a block -/
+def nsl (m : Msa) : Nat := base m m.nseq
+
 /-- the lines of a block: (line type, sequence index) -/
 def blockSpec (m : Msa) : List (Nat × Option Nat) :=
-  (List.range m.nseq).map (fun i => (ltSQ, some i)) ++ (gcLT m).map (fun lt => (lt, none))
+  (List.range m.nseq).flatMap (seqSpec m) ++ ((gcLT m).map (fun lt => (lt, none)) ++ m.gc.map (fun _ => (ltGCOTHER, none)))
+
+/-- the line (sequence `i`, kind `q`) of the current block has been read when `j` rows and `q0` kinds behind the last row are done -/
+def dnOf (j q0 i q : Nat) : Bool := decide (i + 1 < j) || (decide (i + 1 = j) && decide (q < q0))
+
+/-- number of `#=GC` slots of a block: the five parsed ones and the unparsed tags -/
+def gEnd (m : Msa) : Nat := 5 + m.gc.length
 
 /-- number of `#=GC` lines among the first `g` slots -/
 def cntSet (m : Msa) (g : Nat) : Nat := ((((consF m).zip consLT).take g).filterMap (fun p => p.1.map (fun _ => p.2))).length
 
 /-- inside the block that starts at column `pos` and is `w` columns wide: `jn` names are known, `jb` block lines are
     recorded, `j` sequence lines and `k` lines in all of this block have been read, `g` `#=GC` slots are done -/
-structure InBlk (cfg : Cfg) (enc : UInt8 → UInt8) (txt : Nat → Bytes) (m : Msa) (G : GsSt) (pos w jn jb j k g : Nat) (st : StoSt) : Prop where
+structure InBlkQ (cfg : Cfg) (enc : UInt8 → UInt8) (txt : Nat → Bytes) (m : Msa) (G : GsSt) (pos w jn jb j q k g : Nat) (st : StoSt) : Prop where
   fr : Frozen m G pos w g (annOf st)
+  gsI : GsInv m G st.sqalloc st.hasw st.sqacc st.sqdesc st.gsTags st.gs
+  grI : GrInv m pos w (dnOf j q) st.sqalloc st.per st.perLen st.grTags st.gr st.ogrLen
   alen : st.alen = pos
   nblock : st.nblock = 0 ↔ pos = 0
   names : st.names = m.names.take jn
@@ -428,18 +752,48 @@ structure InBlk (cfg : Cfg) (enc : UInt8 → UInt8) (txt : Nat → Bytes) (m : M
   bidx : ∀ i, i < jb → st.bidx[i]? = some ((blockSpec m)[i]?.map (·.2))
   npb : pos ≠ 0 → st.npb = (blockSpec m).length
   bi : st.bi = k
-  si : st.si = j ∨ (j = 0 ∧ pos = 0)
+  si : st.si = j ∨ (j = 0 ∧ pos = 0 ∧ st.si ≤ st.nseq)
   nseqB : st.nseqB = j
   alenB : k ≠ 0 → st.alenB = w
   inBlock : st.inBlock = decide (k ≠ 0)
 
-theorem blockSpec_sq (m : Msa) (i : Nat) (hi : i < m.nseq) : (blockSpec m)[i]? = some (ltSQ, some i) := by
-  unfold blockSpec
-  rw [List.getElem?_append_left (by simpa using hi)]
-  simp [hi]
+/-- between the lines of two sequences, and in the `#=GC` part, all `#=GR` kinds of the last row are done -/
+abbrev InBlk (cfg : Cfg) (enc : UInt8 → UInt8) (txt : Nat → Bytes) (m : Msa) (G : GsSt) (pos w jn jb j k g : Nat) (st : StoSt) : Prop :=
+  InBlkQ cfg enc txt m G pos w jn jb j (nslots m) k g st
 
-theorem blockSpec_len (m : Msa) : (blockSpec m).length = m.nseq + cntSet m 5 := by
-  simp [blockSpec, gcLT, cntSet, consF, consLT]
+theorem blockSpec_len (m : Msa) : (blockSpec m).length = nsl m + cntSet m 5 + m.gc.length := by
+  simp [blockSpec, gcLT, cntSet, consF, consLT, nsl, base]; omega
+
+theorem base_succ (m : Msa) (j : Nat) : base m (j + 1) = base m j + (seqSpec m j).length := by
+  simp [base, List.range_succ, List.flatMap_append]
+
+theorem seqSpec_pos (m : Msa) (i : Nat) : 1 ≤ (seqSpec m i).length := by
+  simp [seqSpec, thingsOf, List.filterMap_cons]
+
+theorem base_ge (m : Msa) (j : Nat) : j ≤ base m j := by
+  induction j with
+  | zero => exact Nat.zero_le _
+  | succ j ih => rw [base_succ]; have := seqSpec_pos m j; omega
+
+theorem nsl_ge (m : Msa) : m.nseq ≤ nsl m := base_ge m m.nseq
+
+theorem thingsOf_len (m : Msa) (i : Nat) : (thingsOf m i).length = 1 + nslots m := by
+  simp [thingsOf]; omega
+
+theorem preLen_zero (m : Msa) (i : Nat) : preLen m i 0 = 1 := by
+  simp [preLen, thingsOf, List.filterMap_cons]
+
+theorem preLen_full (m : Msa) (i : Nat) : preLen m i (nslots m) = (seqSpec m i).length := by
+  unfold preLen seqSpec
+  rw [← thingsOf_len m i, List.take_length]
+
+theorem blockSpec_seq (m : Msa) (j x : Nat) (hj : j < m.nseq) (hx : x < (seqSpec m j).length) :
+    (blockSpec m)[base m j + x]? = (seqSpec m j)[x]? := by
+  obtain ⟨d, hd⟩ : ∃ d, m.nseq = j + (d + 1) := ⟨m.nseq - j - 1, by omega⟩
+  unfold blockSpec base
+  rw [hd, List.range_add, List.flatMap_append, List.range_succ_eq_map, List.map_cons, List.flatMap_cons, Nat.add_zero,
+    List.append_assoc, List.append_assoc, List.getElem?_append_right (Nat.le_add_right _ _), Nat.add_sub_cancel_left,
+    List.getElem?_append_left hx]
 
 theorem getE_of {α : Type} {l : List α} {i : Nat} {x : α} (h : l[i]? = some x) : getE l i = .ok x := by
   simp [getE, h]
@@ -456,10 +810,35 @@ theorem nodup_not_mem_take (l : List Bytes) (hn : l.Nodup) (j : Nat) (hj : j < l
   rw [List.getElem_take, getD_eq_getElem_of_lt [] hj] at hE
   exact (List.pairwise_iff_getElem.mp hn i j (by omega) hj hij) hE
 
+theorem dnOf_false_of_ge (j q0 i q : Nat) (h : j ≤ i) : dnOf j q0 i q = false := by
+  unfold dnOf; simp; omega
+
+theorem grVal_lt (m : Msa) (q i : Nat) (h : (grVal m q i).isSome = true) : q < nslots m := by
+  unfold grVal at h; unfold nslots
+  split at h
+  · omega
+  · by_cases e : q - 3 < m.gr.length
+    · omega
+    · have e0 : m.gr.getD (q - 3) ([], []) = ([], []) := by
+        rw [List.getD_eq_getElem?_getD, List.getElem?_eq_none (by omega)]; rfl
+      rw [e0] at h; simp at h
+
+theorem dnOf_row (m : Msa) (j i q : Nat) (hq : q < nslots m) : dnOf (j + 1) 0 i q = dnOf j (nslots m) i q := by
+  unfold dnOf; rw [Bool.eq_iff_iff]; simp; omega
+
+theorem dnOf_step (j q i q' : Nat) : dnOf (j + 1) (q + 1) i q' = upd (dnOf (j + 1) q) j q i q' := by
+  unfold dnOf upd; rw [Bool.eq_iff_iff]; simp; omega
+
+theorem blockSpec_row (m : Msa) (j : Nat) (hj : j < m.nseq) : (blockSpec m)[base m j]? = some (ltSQ, some j) := by
+  have := blockSpec_seq m j 0 hj (seqSpec_pos m j)
+  rw [Nat.add_zero] at this
+  rw [this]; simp [seqSpec, thingsOf, List.filterMap_cons]
+
 /-- a new name: `stockholm_get_seqidx` stores it as sequence `jn` -/
-theorem getSeqIdx_new (cfg : Cfg) (enc : UInt8 → UInt8) (txt : Nat → Bytes) (m : Msa) (w jn jb j k g : Nat) (st : StoSt)
-    (h : InBlk cfg enc txt m GsSt.none 0 w jn jb j k g st) (hjn : jn < m.nseq) (hnd : m.names.Nodup) :
-    ∃ st1, getSeqIdx st (m.names.getD jn []) = .ok (st1, jn) ∧ InBlk cfg enc txt m GsSt.none 0 w (jn + 1) jb j k g st1 := by
+theorem getSeqIdx_new (cfg : Cfg) (enc : UInt8 → UInt8) (txt : Nat → Bytes) (m : Msa) {G : GsSt} (w jn jb j k g : Nat) (st : StoSt)
+    (h : InBlk cfg enc txt m G 0 w jn jb j k g st) (hjn : jn < m.nseq) (hj : j ≤ jn) (hnd : m.names.Nodup)
+    (hGd : ∀ i' q', (grVal (gsMsa m) q' i').isSome = true → dnGs m G i' q' = true → i' < jn) :
+    ∃ st1, getSeqIdx st (m.names.getD jn []) = .ok (st1, jn) ∧ InBlk cfg enc txt m G 0 w (jn + 1) jb j k g st1 := by
   have hjn' : jn < m.names.length := hjn
   have hlen : st.names.length = jn := by rw [h.names, List.length_take]; omega
   have hnone : st.names.findIdx? (· == m.names.getD jn []) = none := by
@@ -488,15 +867,29 @@ theorem getSeqIdx_new (cfg : Cfg) (enc : UInt8 → UInt8) (txt : Nat → Bytes) 
     have hap := h.apos
     exact
       { fr :=
-          { lead := hfr.lead, hasw := hfr.hasw, wgt := fun e => absurd e (by decide), name := hfr.name, desc := hfr.desc, acc := hfr.acc, au := hfr.au,
+          { lead := hfr.lead, name := hfr.name, desc := hfr.desc, acc := hfr.acc, au := hfr.au,
             cons_len := hfr.cons_len, consLen_len := hfr.consLen_len, cons := hfr.cons, consLen := hfr.consLen
-            sqacc := by have := hfr.sqacc; simp only [annOf, GsSt.none] at this ⊢; simp [pdExpandSeq, msaExpand, this]
-            sqdesc := by have := hfr.sqdesc; simp only [annOf, GsSt.none] at this ⊢; simp [pdExpandSeq, msaExpand, this]
-            per := by have := hfr.per; simp only [annOf] at this ⊢; simp [pdExpandSeq, msaExpand, this]
-            cutset := hfr.cutset, comments := hfr.comments, gf := hfr.gf, gsTags := hfr.gsTags
-            gs := by have := hfr.gs; simp only [annOf, GsSt.none] at this ⊢; simp [pdExpandSeq, msaExpand, this]
-            gcTags := hfr.gcTags, gc := hfr.gc, grTags := hfr.grTags
-            gr := by have := hfr.gr; simp only [annOf] at this ⊢; simp [pdExpandSeq, msaExpand, this] }
+            cutset := hfr.cutset, comments := hfr.comments, gf := hfr.gf
+            gcI := hfr.gcI }
+        gsI := by
+          obtain ⟨PL, L, hI⟩ := h.gsI.inv
+          refine ⟨h.gsI.hasw, PL.map (Option.map (· ++ List.replicate st.sqalloc 0)), L.map (· ++ List.replicate st.sqalloc 0), ?_⟩
+          have hc : ∀ i' q', (grVal (gsMsa m) q' i').isSome = true → (dnGs m G i' q' && decide (i' < jn)) = dnGs m G i' q' := by
+            intro i' q' hv
+            cases hd : dnGs m G i' q' with
+            | false => rfl
+            | true => simp [hGd i' q' hv hd]
+          have h1 := (hI.congr (dn' := fun i' q' => dnGs m G i' q' && decide (i' < jn)) hc).expand st.sqalloc
+            (fun i' q' hi => by simp; intro _; omega)
+          have h2 := h1.congr (dn' := dnGs m G) (fun i' q' hv => (hc i' q' hv).symm)
+          simp only [pdExpandSeq, msaExpand, Nat.two_mul]
+          exact h2
+        grI := by
+          have hk : st.sqalloc + st.sqalloc - st.salloc = st.sqalloc := by rw [h.salloc]; omega
+          have := h.grI.expand st.sqalloc (fun i q hi => dnOf_false_of_ge j (nslots m) i q (by omega))
+          simp only [pdExpandSeq, msaExpand, Nat.two_mul]
+          rw [hk]
+          exact this
         alen := h.alen, nblock := h.nblock
         names := by show st.names ++ [_] = _; rw [h.names, hnames1]
         nseq := by show st.nseq + 1 = (st.names ++ [_]).length; rw [h.nseq]; simp
@@ -530,11 +923,15 @@ theorem getSeqIdx_new (cfg : Cfg) (enc : UInt8 → UInt8) (txt : Nat → Bytes) 
             simp only [ite_self]
             rw [if_pos (by rw [h.sqlen_len, h.salloc]; omega)]
         bpos := h.bpos, blt_len := h.blt_len, bidx_len := h.bidx_len, nrec := h.nrec, blt := h.blt, bidx := h.bidx
-        npb := h.npb, bi := h.bi, si := h.si, nseqB := h.nseqB, alenB := h.alenB, inBlock := h.inBlock }
+        npb := h.npb, bi := h.bi
+        si := h.si.imp id (fun ⟨a, b, c⟩ => ⟨a, b, by show st.si ≤ st.nseq + 1; omega⟩)
+        nseqB := h.nseqB, alenB := h.alenB, inBlock := h.inBlock }
   · simp only [hge, if_false]
     refine ⟨_, rfl, ?_⟩
     exact
       { fr := hfr
+        gsI := h.gsI
+        grI := h.grI
         alen := h.alen, nblock := h.nblock
         names := by show st.names ++ [_] = _; rw [h.names, hnames1]
         nseq := by show st.nseq + 1 = (st.names ++ [_]).length; rw [h.nseq]; simp
@@ -542,7 +939,9 @@ theorem getSeqIdx_new (cfg : Cfg) (enc : UInt8 → UInt8) (txt : Nat → Bytes) 
         apos := h.apos, rows_len := h.rows_len, rows_done := h.rows_done, rows_todo := h.rows_todo
         salloc := h.salloc, sqlen_len := h.sqlen_len, sqlen_done := h.sqlen_done, sqlen_todo := h.sqlen_todo
         bpos := h.bpos, blt_len := h.blt_len, bidx_len := h.bidx_len, nrec := h.nrec, blt := h.blt, bidx := h.bidx
-        npb := h.npb, bi := h.bi, si := h.si, nseqB := h.nseqB, alenB := h.alenB, inBlock := h.inBlock }
+        npb := h.npb, bi := h.bi
+        si := h.si.imp id (fun ⟨a, b, c⟩ => ⟨a, b, by show st.si ≤ st.nseq + 1; omega⟩)
+        nseqB := h.nseqB, alenB := h.alenB, inBlock := h.inBlock }
 
 theorem set_rec {α : Type} (l : List α) (j : Nat) (v : α) (f : Nat → α) (hj : j < l.length)
     (h : ∀ i, i < j → l[i]? = some (f i)) (hv : v = f j) : ∀ i, i < j + 1 → (l.set j v)[i]? = some (f i) := by
@@ -553,10 +952,10 @@ theorem set_rec {α : Type} (l : List α) (j : Nat) (v : α) (f : Nat → α) (h
   · simp only [e, if_false]; exact h i (by omega)
 
 /-- first block: the line is recorded as line `j` of the block -/
-theorem recordLine_new (cfg : Cfg) (enc : UInt8 → UInt8) (txt : Nat → Bytes) (m : Msa) {G : GsSt} (pos w jn jq j g : Nat) (st : StoSt)
+theorem recordLine_new (cfg : Cfg) (enc : UInt8 → UInt8) (txt : Nat → Bytes) (m : Msa) {G : GsSt} {q : Nat} (pos w jn jq j g : Nat) (st : StoSt)
     (lt : Nat) (bx : Option Nat) (hspec : (blockSpec m)[j]? = some (lt, bx))
-    (h : InBlk cfg enc txt m G pos w jn j jq j g st) :
-    ∃ st2, recordLine st lt bx = .ok st2 ∧ InBlk cfg enc txt m G pos w jn (j + 1) jq j g st2 := by
+    (h : InBlkQ cfg enc txt m G pos w jn j jq q j g st) :
+    ∃ st2, recordLine st lt bx = .ok st2 ∧ InBlkQ cfg enc txt m G pos w jn (j + 1) jq q j g st2 := by
   have hfr := h.fr
   have hbi := h.bi
   have hnr := h.nrec
@@ -576,6 +975,8 @@ theorem recordLine_new (cfg : Cfg) (enc : UInt8 → UInt8) (txt : Nat → Bytes)
     refine ⟨_, rfl, ?_⟩
     exact
       { fr := hfr
+        gsI := h.gsI
+        grI := h.grI
         alen := h.alen, nblock := h.nblock, names := h.names, nseq := h.nseq, alloc := h.alloc
         apos := h.apos, rows_len := h.rows_len, rows_done := h.rows_done, rows_todo := h.rows_todo
         salloc := h.salloc, sqlen_len := h.sqlen_len, sqlen_done := h.sqlen_done, sqlen_todo := h.sqlen_todo
@@ -600,6 +1001,8 @@ theorem recordLine_new (cfg : Cfg) (enc : UInt8 → UInt8) (txt : Nat → Bytes)
     refine ⟨_, rfl, ?_⟩
     exact
       { fr := hfr
+        gsI := h.gsI
+        grI := h.grI
         alen := h.alen, nblock := h.nblock, names := h.names, nseq := h.nseq, alloc := h.alloc
         apos := h.apos, rows_len := h.rows_len, rows_done := h.rows_done, rows_todo := h.rows_todo
         salloc := h.salloc, sqlen_len := h.sqlen_len, sqlen_done := h.sqlen_done, sqlen_todo := h.sqlen_todo
@@ -611,27 +1014,101 @@ theorem recordLine_new (cfg : Cfg) (enc : UInt8 → UInt8) (txt : Nat → Bytes)
         bidx := set_rec _ j _ (fun i => (blockSpec m)[i]?.map (·.2)) hl2 h.bidx (by simp [hspec])
         npb := h.npb, bi := rfl, si := h.si, nseqB := h.nseqB, alenB := h.alenB, inBlock := h.inBlock }
 
-/-- first block: a sequence line names a new sequence -/
-theorem sqLocate_first (cfg : Cfg) (enc : UInt8 → UInt8) (txt : Nat → Bytes) (m : Msa) (w j : Nat) (st : StoSt)
-    (h : InBlk cfg enc txt m GsSt.none 0 w j j j j 0 st) (hj : j < m.nseq) (hnd : m.names.Nodup) :
-    ∃ st2, sqLocate st (m.names.getD j []) = .ok (st2, j) ∧ InBlk cfg enc txt m GsSt.none 0 w (j + 1) (j + 1) j j 0 st2 := by
+theorem findIdx?_nodup_self : ∀ (l : List Bytes), l.Nodup → ∀ i, i < l.length → l.findIdx? (· == l.getD i []) = some i
+  | [], _, i, hi => by simp at hi
+  | a :: t, _, 0, _ => by simp [List.findIdx?_cons]
+  | a :: t, hn, i + 1, hi => by
+    have hn' := List.nodup_cons.mp hn
+    have hi' : i < t.length := by simpa using hi
+    have hmem : t.getD i [] ∈ t := by rw [getD_eq_getElem_of_lt [] hi']; exact List.getElem_mem hi'
+    have hne : (a == t.getD i []) = false := by
+      simp only [beq_eq_false_iff_ne, ne_eq]; intro e; exact hn'.1 (e ▸ hmem)
+    simp only [List.getD_cons_succ, List.findIdx?_cons, hne, Bool.false_eq_true, if_false]
+    rw [findIdx?_nodup_self t hn'.2 i hi']; rfl
+
+theorem findIdx?_take_none (l : List Bytes) (hn : l.Nodup) (j : Nat) (hj : j < l.length) :
+    (l.take j).findIdx? (· == l.getD j []) = none := by
+  rw [List.findIdx?_eq_none_iff]
+  intro x hx
+  have := nodup_not_mem_take l hn j hj
+  have hne : x ≠ l.getD j [] := fun e => this (e ▸ hx)
+  simpa using hne
+
+/-- names known when `j` rows of the first block have been read, `jn0` of them from the `#=GS` section -/
+def jnA (jn0 j : Nat) : Nat := if j ≤ jn0 then jn0 else j
+
+theorem getSeqIdx_found (st : StoSt) (name : Bytes) (hnd : st.names.Nodup) (k : Nat) (hk : st.names[k]? = some name) :
+    getSeqIdx st name = .ok (st, k) := by
+  have hkl := lt_length_of_getElem? hk
+  have e : name = st.names.getD k [] := by rw [List.getD_eq_getElem?_getD, hk]; rfl
+  unfold getSeqIdx
+  rw [e, findIdx?_nodup_self _ hnd k hkl]
+
+theorem sqSeqIdx_known (st : StoSt) (name : Bytes) (k : Nat) (hn : st.nseq = st.names.length) (ha : st.names.length ≤ st.sqalloc)
+    (hnd : st.names.Nodup) (hk : st.names[k]? = some name) : sqSeqIdx st name = .ok (st, k) := by
+  have hf := getSeqIdx_found st name hnd k hk
+  unfold sqSeqIdx
+  by_cases hsi : st.si < st.nseq
+  · have hsq : st.si < st.sqalloc := by omega
+    simp only [hsi, if_true, nameIs, sqnameAt, hsq]
+    by_cases e : st.names[st.si]? = some name
+    · have : st.si = k := by
+        have h1 := lt_length_of_getElem? e
+        have h2 := lt_length_of_getElem? hk
+        rw [List.getElem?_eq_getElem h1] at e
+        rw [List.getElem?_eq_getElem h2] at hk
+        by_cases hne : st.si = k
+        · exact hne
+        exfalso
+        rcases Nat.lt_or_gt_of_ne hne with hlt | hlt
+        · exact (List.pairwise_iff_getElem.mp hnd _ _ h1 h2 hlt) (by rw [Option.some.inj e, Option.some.inj hk])
+        · exact (List.pairwise_iff_getElem.mp hnd _ _ h2 h1 hlt) (by rw [Option.some.inj e, Option.some.inj hk])
+      subst this; simp [e]
+    · have e' : (st.names[st.si]? == some name) = false := by simpa using e
+      simp only [e', hf]
+  · simp only [hsi, if_false, hf]
+
+/-- first block: a sequence line names a new sequence, or one the `#=GS` section has named -/
+theorem sqLocate_first (cfg : Cfg) (enc : UInt8 → UInt8) (txt : Nat → Bytes) (m : Msa) {G : GsSt} (w j jn0 : Nat) (st : StoSt)
+    (h : InBlk cfg enc txt m G 0 w (jnA jn0 j) (base m j) j (base m j) 0 st) (hj : j < m.nseq) (hnd : m.names.Nodup)
+    (hjn0 : jn0 = m.nseq ∨ (jn0 = 0 ∧ ∀ q i, grVal (gsMsa m) q i = none)) :
+    ∃ st2, sqLocate st (m.names.getD j []) = .ok (st2, j) ∧
+      InBlk cfg enc txt m G 0 w (jnA jn0 (j + 1)) (base m j + 1) j (base m j) 0 st2 := by
   have hnb : st.nblock = 0 := h.nblock.mpr rfl
-  have hlen : st.names.length = j := by rw [h.names, List.length_take]; have : j < m.names.length := hj; omega
-  have hsi : ¬ (st.si < st.nseq) := by rw [h.nseq, hlen]; rcases h.si with e | ⟨e, _⟩ <;> omega
-  obtain ⟨st1, h1, hI1⟩ := getSeqIdx_new cfg enc txt m w j j j j 0 st h hj hnd
-  obtain ⟨st2, h2, hI2⟩ := recordLine_new cfg enc txt m 0 w (j + 1) j j 0 st1 ltSQ (some j) (blockSpec_sq m j hj) hI1
-  refine ⟨st2, ?_, hI2⟩
-  unfold sqLocate sqSeqIdx
-  simp only [hnb, beq_self_eq_true, if_true, hsi, if_false, h1, h2]
+  rcases hjn0 with e0 | ⟨e0, hno⟩
+  · subst e0
+    have e1 : jnA m.nseq j = m.nseq := by unfold jnA; rw [if_pos (by omega)]
+    have e2 : jnA m.nseq (j + 1) = m.nseq := by unfold jnA; rw [if_pos (by omega)]
+    rw [e1] at h; rw [e2]
+    have hnames : st.names = m.names := by rw [h.names]; exact List.take_length
+    have hk : st.names[j]? = some (m.names.getD j []) := by
+      rw [hnames, List.getD_eq_getElem?_getD, List.getElem?_eq_getElem (show j < m.names.length from hj)]; rfl
+    have hsq := sqSeqIdx_known st _ j h.nseq h.alloc (by rw [hnames]; exact hnd) hk
+    obtain ⟨st2, h2, hI2⟩ := recordLine_new cfg enc txt m 0 w m.nseq j (base m j) 0 st ltSQ (some j) (blockSpec_row m j hj) h
+    refine ⟨st2, ?_, hI2⟩
+    unfold sqLocate
+    simp only [hnb, beq_self_eq_true, if_true, hsq, h2]
+  · subst e0
+    have e1 : jnA 0 j = j := by unfold jnA; split <;> omega
+    have e2 : jnA 0 (j + 1) = j + 1 := by unfold jnA; rw [if_neg (by omega)]
+    rw [e1] at h; rw [e2]
+    have hlen : st.names.length = j := by rw [h.names, List.length_take]; have : j < m.names.length := hj; omega
+    have hsi : ¬ (st.si < st.nseq) := by rw [h.nseq, hlen]; rcases h.si with e | ⟨e, _⟩ <;> omega
+    obtain ⟨st1, h1, hI1⟩ := getSeqIdx_new cfg enc txt m w j (base m j) j (base m j) 0 st h hj (Nat.le_refl _) hnd
+      (fun i' q' hv _ => by rw [hno] at hv; cases hv)
+    obtain ⟨st2, h2, hI2⟩ := recordLine_new cfg enc txt m 0 w (j + 1) j (base m j) 0 st1 ltSQ (some j) (blockSpec_row m j hj) hI1
+    refine ⟨st2, ?_, hI2⟩
+    unfold sqLocate sqSeqIdx
+    simp only [hnb, beq_self_eq_true, if_true, hsi, if_false, h1, h2]
 
 /-- later blocks: the line must be the one recorded for this position -/
 theorem sqLocate_later (cfg : Cfg) (enc : UInt8 → UInt8) (txt : Nat → Bytes) (m : Msa) {G : GsSt} (pos w j : Nat) (st : StoSt)
-    (h : InBlk cfg enc txt m G pos w m.nseq (blockSpec m).length j j 0 st) (hj : j < m.nseq) (hpos : pos ≠ 0) :
+    (h : InBlk cfg enc txt m G pos w m.nseq (blockSpec m).length j (base m j) 0 st) (hj : j < m.nseq) (hpos : pos ≠ 0) :
     sqLocate st (m.names.getD j []) = .ok (st, j) := by
-  have hjb : j < (blockSpec m).length := by rw [blockSpec_len]; omega
-  have hblt := h.blt j hjb
-  have hbidx := h.bidx j hjb
-  rw [blockSpec_sq m j hj] at hblt hbidx
+  have hjb : base m j < (blockSpec m).length := lt_length_of_getElem? (blockSpec_row m j hj)
+  have hblt := h.blt _ hjb
+  have hbidx := h.bidx _ hjb
+  rw [blockSpec_row m j hj] at hblt hbidx
   simp only [Option.map_some] at hblt hbidx
   have hnb : (st.nblock == 0) = false := by
     have : st.nblock ≠ 0 := fun e => hpos (h.nblock.mp e)
@@ -641,7 +1118,7 @@ theorem sqLocate_later (cfg : Cfg) (enc : UInt8 → UInt8) (txt : Nat → Bytes)
     rw [hnames, List.getD_eq_getElem?_getD, List.getElem?_eq_getElem (show j < m.names.length from hj)]; rfl
   have hsq : j < st.sqalloc := by have := h.alloc; rw [hnames] at this; have : j < m.names.length := hj; omega
   unfold sqLocate expectLine expectSeq sqnameAt
-  have hge : ¬ (st.npb ≤ j) := by rw [h.npb hpos]; omega
+  have hge : ¬ (st.npb ≤ base m j) := by rw [h.npb hpos]; omega
   simp only [hnb, Bool.false_eq_true, if_false, hge, h.bi, getE_of hblt, getE_of hbidx, hsq, if_true, hnm]
   simp
 
@@ -651,7 +1128,7 @@ theorem parseSq_after (cfg : Cfg) (enc : UInt8 → UInt8) (txt : Nat → Bytes) 
     (h2 : InBlk cfg enc txt m G pos w jn jb j k g st2) (hj : j < jn) (hjn : jn ≤ m.nseq)
     (hcj : c = ((txt j).drop pos).take w) (hw : 1 ≤ w) (hpw : pos + w ≤ m.alen) (htl : (txt j).length = m.alen)
     (hsym : ∀ t ∈ txt j, mapByte cfg.inmap t = (.ok, some (enc t))) :
-    ∃ st3, parseSq cfg st p = .ok st3 ∧ InBlk cfg enc txt m G pos w jn jb (j + 1) (k + 1) g st3 := by
+    ∃ st3, parseSq cfg st p = .ok st3 ∧ InBlkQ cfg enc txt m G pos w jn jb (j + 1) 0 (k + 1) g st3 := by
   have hfr := h2.fr
   have hjs : j < m.nseq := by omega
   have hjl : j < st2.names.length := by
@@ -694,6 +1171,8 @@ theorem parseSq_after (cfg : Cfg) (enc : UInt8 → UInt8) (txt : Nat → Bytes) 
   refine ⟨_, rfl, ?_⟩
   exact
     { fr := hfr
+      gsI := h2.gsI
+      grI := h2.grI.congr (fun i q hv => dnOf_row m j i q (grVal_lt m q i hv))
       alen := by first | rfl | exact h2.alen
       nblock := h2.nblock, names := h2.names, nseq := h2.nseq, alloc := h2.alloc, apos := h2.apos
       rows_len := by show (st2.rows.set j _).length = _; simp [h2.rows_len]
@@ -735,28 +1214,34 @@ theorem sqline_shape (abc : Option Abc) (cfg : Cfg) (enc : UInt8 → UInt8) (txt
 
 /-- one sequence line of the first block -/
 theorem sqline_first (abc : Option Abc) (cfg : Cfg) (enc : UInt8 → UInt8) (txt : Nat → Bytes) (m : Msa)
-    (W : StoWritable abc cfg enc txt m) (w j : Nat) (st : StoSt) (h : InBlk cfg enc txt m GsSt.none 0 w j j j j 0 st)
-    (hj : j < m.nseq) (hw : 1 ≤ w) (hpw : w ≤ m.alen) :
-    ∃ st3, stoStep cfg st (stoSqLine abc m 0 w j) = .inl st3 ∧ InBlk cfg enc txt m GsSt.none 0 w (j + 1) (j + 1) (j + 1) (j + 1) 0 st3 := by
+    (W : StoWritable abc cfg enc txt m) {G : GsSt} (w j jn0 : Nat) (st : StoSt)
+    (h : InBlk cfg enc txt m G 0 w (jnA jn0 j) (base m j) j (base m j) 0 st)
+    (hj : j < m.nseq) (hw : 1 ≤ w) (hpw : w ≤ m.alen) (hjn0 : jn0 = m.nseq ∨ (jn0 = 0 ∧ ∀ q i, grVal (gsMsa m) q i = none)) :
+    ∃ st3, stoStep cfg st (stoSqLine abc m 0 w j) = .inl st3 ∧
+      InBlkQ cfg enc txt m G 0 w (jnA jn0 (j + 1)) (base m j + 1) (j + 1) 0 (base m j + 1) 0 st3 := by
   obtain ⟨sp, c, hline, hsp, hc, hcj⟩ := sqline_shape abc cfg enc txt m W 0 w j hj hw (by omega)
-  obtain ⟨st2, hloc, h2⟩ := sqLocate_first cfg enc txt m w j st h hj W.nodup
+  obtain ⟨st2, hloc, h2⟩ := sqLocate_first cfg enc txt m w j jn0 st h hj W.nodup hjn0
   have hn := W.name_ok j hj
-  obtain ⟨st3, hp, h3⟩ := parseSq_after cfg enc txt m 0 w (j + 1) (j + 1) j j 0 st st2 _ _ c
-    (memtok_sqline _ sp c hn.1 hsp hc) hc hloc h2 (by omega) (by omega) hcj hw (by omega) (W.txt_len j hj)
+  have hA1 : j < jnA jn0 (j + 1) := by unfold jnA; split <;> omega
+  have hA2 : jnA jn0 (j + 1) ≤ m.nseq := by
+    unfold jnA; rcases hjn0 with e | ⟨e, _⟩ <;> subst e <;> split <;> omega
+  obtain ⟨st3, hp, h3⟩ := parseSq_after cfg enc txt m 0 w (jnA jn0 (j + 1)) (base m j + 1) j (base m j) 0 st st2 _ _ c
+    (memtok_sqline _ sp c hn.1 hsp hc) hc hloc h2 hA1 hA2 hcj hw (by omega) (W.txt_len j hj)
     (fun t ht => (W.txt_sym j hj t ht).1)
   refine ⟨st3, ?_, h3⟩
   rw [hline, stoStep_sqline cfg st _ sp c h.fr.lead hn hsp, hp]; rfl
 
 /-- one sequence line of a later block -/
 theorem sqline_later (abc : Option Abc) (cfg : Cfg) (enc : UInt8 → UInt8) (txt : Nat → Bytes) (m : Msa) {G : GsSt}
-    (W : StoWritable abc cfg enc txt m) (pos w j : Nat) (st : StoSt) (h : InBlk cfg enc txt m G pos w m.nseq (blockSpec m).length j j 0 st)
+    (W : StoWritable abc cfg enc txt m) (pos w j : Nat) (st : StoSt)
+    (h : InBlk cfg enc txt m G pos w m.nseq (blockSpec m).length j (base m j) 0 st)
     (hpos : pos ≠ 0) (hj : j < m.nseq) (hw : 1 ≤ w) (hpw : pos + w ≤ m.alen) :
     ∃ st3, stoStep cfg st (stoSqLine abc m pos w j) = .inl st3 ∧
-      InBlk cfg enc txt m G pos w m.nseq (blockSpec m).length (j + 1) (j + 1) 0 st3 := by
+      InBlkQ cfg enc txt m G pos w m.nseq (blockSpec m).length (j + 1) 0 (base m j + 1) 0 st3 := by
   obtain ⟨sp, c, hline, hsp, hc, hcj⟩ := sqline_shape abc cfg enc txt m W pos w j hj hw hpw
   have hloc := sqLocate_later cfg enc txt m pos w j st h hj hpos
   have hn := W.name_ok j hj
-  obtain ⟨st3, hp, h3⟩ := parseSq_after cfg enc txt m pos w m.nseq (blockSpec m).length j j 0 st st _ _ c
+  obtain ⟨st3, hp, h3⟩ := parseSq_after cfg enc txt m pos w m.nseq (blockSpec m).length j (base m j) 0 st st _ _ c
     (memtok_sqline _ sp c hn.1 hsp hc) hc hloc h hj (Nat.le_refl _) hcj hw hpw (W.txt_len j hj)
     (fun t ht => (W.txt_sym j hj t ht).1)
   refine ⟨st3, ?_, h3⟩
@@ -764,47 +1249,14 @@ theorem sqline_later (abc : Option Abc) (cfg : Cfg) (enc : UInt8 → UInt8) (txt
 
 /-! ## blocks -/
 
-/-- the sequence lines of the first block -/
-theorem sqlines_first (abc : Option Abc) (cfg : Cfg) (enc : UInt8 → UInt8) (txt : Nat → Bytes) (m : Msa)
-    (W : StoWritable abc cfg enc txt m) (w : Nat) (st : StoSt) (h : InBlk cfg enc txt m GsSt.none 0 w 0 0 0 0 0 st) (hw : 1 ≤ w) (hpw : w ≤ m.alen) :
-    ∀ j, j ≤ m.nseq → ∃ st', stepsFrom (stoStep cfg) st ((List.range j).map (stoSqLine abc m 0 w)) = .inl st' ∧
-      InBlk cfg enc txt m GsSt.none 0 w j j j j 0 st' := by
-  intro j
-  induction j with
-  | zero => intro _; exact ⟨st, rfl, h⟩
-  | succ j ih =>
-    intro hj
-    obtain ⟨st1, hs1, h1⟩ := ih (by omega)
-    obtain ⟨st2, hs2, h2⟩ := sqline_first abc cfg enc txt m W w j st1 h1 (by omega) hw hpw
-    refine ⟨st2, ?_, h2⟩
-    rw [List.range_succ, List.map_append, stepsFrom_append _ _ _ _ _ hs1]
-    simp [stepsFrom, hs2]
-
-/-- the sequence lines of a later block -/
-theorem sqlines_later (abc : Option Abc) (cfg : Cfg) (enc : UInt8 → UInt8) (txt : Nat → Bytes) (m : Msa) {G : GsSt}
-    (W : StoWritable abc cfg enc txt m) (pos w : Nat) (st : StoSt) (h : InBlk cfg enc txt m G pos w m.nseq (blockSpec m).length 0 0 0 st)
-    (hpos : pos ≠ 0) (hw : 1 ≤ w) (hpw : pos + w ≤ m.alen) :
-    ∀ j, j ≤ m.nseq → ∃ st', stepsFrom (stoStep cfg) st ((List.range j).map (stoSqLine abc m pos w)) = .inl st' ∧
-      InBlk cfg enc txt m G pos w m.nseq (blockSpec m).length j j 0 st' := by
-  intro j
-  induction j with
-  | zero => intro _; exact ⟨st, rfl, h⟩
-  | succ j ih =>
-    intro hj
-    obtain ⟨st1, hs1, h1⟩ := ih (by omega)
-    obtain ⟨st2, hs2, h2⟩ := sqline_later abc cfg enc txt m W pos w j st1 h1 hpos (by omega) hw hpw
-    refine ⟨st2, ?_, h2⟩
-    rw [List.range_succ, List.map_append, stepsFrom_append _ _ _ _ _ hs1]
-    simp [stepsFrom, hs2]
-
 /-- the end-of-block bookkeeping after a complete block -/
 theorem endBlock_full (cfg : Cfg) (enc : UInt8 → UInt8) (txt : Nat → Bytes) (m : Msa) {G : GsSt} (pos w w' jn : Nat) (st : StoSt)
-    (h : InBlk cfg enc txt m G pos w jn (blockSpec m).length m.nseq (blockSpec m).length 5 st) (hjn : jn = m.nseq)
+    (h : InBlk cfg enc txt m G pos w jn (blockSpec m).length m.nseq (blockSpec m).length (gEnd m) st) (hjn : jn = m.nseq)
     (hn1 : 1 ≤ m.nseq) (hw : 1 ≤ w) :
     ∃ st', endBlock st = .ok st' ∧ InBlk cfg enc txt m G (pos + w) w' m.nseq (blockSpec m).length 0 0 0 st' := by
   subst hjn
   have hfr := h.fr
-  have hk0 : (blockSpec m).length ≠ 0 := by rw [blockSpec_len]; omega
+  have hk0 : (blockSpec m).length ≠ 0 := by rw [blockSpec_len]; have := nsl_ge m; omega
   have hn0 : m.nseq ≠ 0 := by omega
   have hnames : st.names = m.names := by rw [h.names]; exact List.take_length
   have hnl : st.names.length = m.nseq := by rw [hnames]; rfl
@@ -822,15 +1274,18 @@ theorem endBlock_full (cfg : Cfg) (enc : UInt8 → UInt8) (txt : Nat → Bytes) 
   refine ⟨_, rfl, ?_⟩
   exact
     { fr :=
-        { lead := hfr.lead, hasw := hfr.hasw, wgt := hfr.wgt, name := hfr.name, desc := hfr.desc, acc := hfr.acc, au := hfr.au,
+        { lead := hfr.lead, name := hfr.name, desc := hfr.desc, acc := hfr.acc, au := hfr.au,
           cons_len := hfr.cons_len, consLen_len := hfr.consLen_len
           cons := fun k hk => by
-            have := hfr.cons k hk; rw [if_pos hk] at this; rw [if_neg (Nat.not_lt_zero k)]; exact this
+            have := hfr.cons k hk; rw [if_pos (show k < gEnd m by unfold gEnd; omega)] at this; rw [if_neg (Nat.not_lt_zero k)]; exact this
           consLen := fun k hk hs => by
-            have := hfr.consLen k hk hs; rw [if_pos hk] at this; rw [if_neg (Nat.not_lt_zero k)]; exact this
-          sqacc := hfr.sqacc, sqdesc := hfr.sqdesc, per := hfr.per
-          cutset := hfr.cutset, comments := hfr.comments, gf := hfr.gf, gsTags := hfr.gsTags, gs := hfr.gs
-          gcTags := hfr.gcTags, gc := hfr.gc, grTags := hfr.grTags, gr := hfr.gr }
+            have := hfr.consLen k hk hs; rw [if_pos (show k < gEnd m by unfold gEnd; omega)] at this; rw [if_neg (Nat.not_lt_zero k)]; exact this
+          cutset := hfr.cutset, comments := hfr.comments, gf := hfr.gf
+          gcI := GcInv.endBlock hfr.gcI hw }
+      gsI := h.gsI
+      grI := (h.grI.endBlock w' hw (fun i q hi hv => by
+          have := grVal_lt m q i hv
+          unfold dnOf; simp; omega)).congr (fun i q _ => dnOf_false_of_ge 0 (nslots m) i q (Nat.zero_le _))
       alen := by show st.alen + st.alenB = pos + w; rw [h.alen, h.alenB hk0]
       nblock := by
         show st.nblock + 1 = 0 ↔ pos + w = 0
@@ -938,18 +1393,21 @@ theorem consZip_get (m : Msa) (g : Nat) (hg : g < 5) :
   · rfl
   · omega
 
+theorem blockSpec_tail (m : Msa) (x : Nat) :
+    (blockSpec m)[nsl m + x]? = ((gcLT m).map (fun lt => (lt, none)) ++ m.gc.map (fun _ => (ltGCOTHER, none)))[x]? := by
+  unfold blockSpec nsl base
+  rw [List.getElem?_append_right (Nat.le_add_right _ _), Nat.add_sub_cancel_left]
+
 /-- slot `g` holds a string: the next `#=GC` line of the block is that slot's -/
 theorem blockSpec_gc (m : Msa) (g : Nat) (hg : g < 5) (s : Bytes) (hs : (consF m).getD g none = some s) :
-    (blockSpec m)[m.nseq + cntSet m g]? = some (consLT.getD g 0, none) ∧ cntSet m (g + 1) = cntSet m g + 1 := by
+    (blockSpec m)[nsl m + cntSet m g]? = some (consLT.getD g 0, none) ∧ cntSet m (g + 1) = cntSet m g + 1 := by
   have := filterMap_idx (fun p : Option Bytes × Nat => p.1.map (fun _ => p.2)) ((consF m).zip consLT) g _ (consLT.getD g 0)
     (consZip_get m g hg) (by show Option.map _ ((consF m).getD g none) = _; rw [hs]; rfl)
   refine ⟨?_, this.2⟩
-  unfold blockSpec
-  rw [List.getElem?_append_right (by simp [Msa.nseq])]
-  simp only [List.length_map, List.length_range, Msa.nseq, Nat.add_sub_cancel_left, List.getElem?_map]
+  rw [blockSpec_tail]
   have h1 := this.1
   unfold cntSet gcLT
-  rw [h1]; rfl
+  rw [List.getElem?_append_left (by rw [List.length_map]; exact lt_length_of_getElem? h1), List.getElem?_map, h1]; rfl
 
 theorem cntSet_none (m : Msa) (g : Nat) (hg : g < 5) (hs : (consF m).getD g none = none) : cntSet m (g + 1) = cntSet m g :=
   filterMap_skip (fun p : Option Bytes × Nat => p.1.map (fun _ => p.2)) ((consF m).zip consLT) g _ (consZip_get m g hg)
@@ -1057,7 +1515,7 @@ theorem parseGc_after (cfg : Cfg) (enc : UInt8 → UInt8) (txt : Nat → Bytes) 
   refine ⟨_, rfl, ?_⟩
   exact
     { fr :=
-        { lead := hfr.lead, hasw := hfr.hasw, wgt := hfr.wgt, name := hfr.name, desc := hfr.desc, acc := hfr.acc, au := hfr.au,
+        { lead := hfr.lead, name := hfr.name, desc := hfr.desc, acc := hfr.acc, au := hfr.au,
           cons_len := by show (st1.cons.set g _).length = 5; rw [List.length_set]; exact hfr.cons_len
           consLen_len := by show (st1.consLen.set g _).length = 5; rw [List.length_set]; exact hfr.consLen_len
           cons := fun i hi => by
@@ -1078,9 +1536,10 @@ theorem parseGc_after (cfg : Cfg) (enc : UInt8 → UInt8) (txt : Nat → Bytes) 
               simp only [e, if_false]
               have e1 : i < g + 1 ↔ i < g := by omega
               simp only [e1]; exact this
-          sqacc := hfr.sqacc, sqdesc := hfr.sqdesc, per := hfr.per
-          cutset := hfr.cutset, comments := hfr.comments, gf := hfr.gf, gsTags := hfr.gsTags, gs := hfr.gs
-          gcTags := hfr.gcTags, gc := hfr.gc, grTags := hfr.grTags, gr := hfr.gr }
+          cutset := hfr.cutset, comments := hfr.comments, gf := hfr.gf
+          gcI := hfr.gcI.low hg }
+      gsI := h1.gsI
+      grI := h1.grI
       alen := by first | rfl | exact h1.alen
       nblock := h1.nblock, names := h1.names, nseq := h1.nseq, alloc := h1.alloc, apos := h1.apos
       rows_len := h1.rows_len, rows_done := h1.rows_done, rows_todo := h1.rows_todo, salloc := h1.salloc
@@ -1124,9 +1583,9 @@ theorem gcline_shape (m : Msa) (hp : StoAnn m) (pos w g : Nat) (hg : g < 5) (s :
   · intro t ht
     exact hsc t (List.mem_of_mem_drop (List.mem_of_mem_take ht))
 
-theorem Frozen_skip (m : Msa) {G : GsSt} (pos w g : Nat) (a : Ann) (hs : (consF m).getD g none = none) (h : Frozen m G pos w g a) :
+theorem Frozen_skip (m : Msa) {G : GsSt} (pos w g : Nat) (a : Ann) (hg : g < 5) (hs : (consF m).getD g none = none) (h : Frozen m G pos w g a) :
     Frozen m G pos w (g + 1) a :=
-  { lead := h.lead, hasw := h.hasw, wgt := h.wgt, name := h.name, desc := h.desc, acc := h.acc, au := h.au,
+  { lead := h.lead, name := h.name, desc := h.desc, acc := h.acc, au := h.au,
     cons_len := h.cons_len, consLen_len := h.consLen_len
     cons := fun i hi => by
       by_cases e : i = g
@@ -1140,13 +1599,15 @@ theorem Frozen_skip (m : Msa) {G : GsSt} (pos w g : Nat) (a : Ann) (hs : (consF 
       · subst e; rw [hs] at hsi; cases hsi
       · have e1 : i < g + 1 ↔ i < g := by omega
         simp only [e1]; exact h.consLen i hi hsi
-    sqacc := h.sqacc, sqdesc := h.sqdesc, per := h.per, cutset := h.cutset, comments := h.comments, gf := h.gf
-    gsTags := h.gsTags, gs := h.gs, gcTags := h.gcTags, gc := h.gc, grTags := h.grTags, gr := h.gr }
+    cutset := h.cutset, comments := h.comments, gf := h.gf
+    gcI := h.gcI.low hg }
 
 theorem InBlk_skip (cfg : Cfg) (enc : UInt8 → UInt8) (txt : Nat → Bytes) (m : Msa) {G : GsSt} (pos w jn jb j k g : Nat) (st : StoSt)
-    (hs : (consF m).getD g none = none) (h : InBlk cfg enc txt m G pos w jn jb j k g st) :
+    (hg : g < 5) (hs : (consF m).getD g none = none) (h : InBlk cfg enc txt m G pos w jn jb j k g st) :
     InBlk cfg enc txt m G pos w jn jb j k (g + 1) st :=
-  { fr := Frozen_skip m pos w g _ hs h.fr
+  { fr := Frozen_skip m pos w g _ hg hs h.fr
+    gsI := h.gsI
+    grI := h.grI
     alen := h.alen, nblock := h.nblock, names := h.names, nseq := h.nseq, alloc := h.alloc, apos := h.apos
     rows_len := h.rows_len, rows_done := h.rows_done, rows_todo := h.rows_todo, salloc := h.salloc
     sqlen_len := h.sqlen_len, sqlen_done := h.sqlen_done, sqlen_todo := h.sqlen_todo
@@ -1156,20 +1617,21 @@ theorem InBlk_skip (cfg : Cfg) (enc : UInt8 → UInt8) (txt : Nat → Bytes) (m 
 /-- slot `g` of the `#=GC` lines, first block -/
 theorem gcSlot_first (abc : Option Abc) (cfg : Cfg) (enc : UInt8 → UInt8) (txt : Nat → Bytes) (m : Msa) {G : GsSt}
     (W : StoWritable abc cfg enc txt m) (w g : Nat) (st : StoSt) (hg : g < 5)
-    (h : InBlk cfg enc txt m G 0 w m.nseq (m.nseq + cntSet m g) m.nseq (m.nseq + cntSet m g) g st) (hw : 1 ≤ w) (hpw : w ≤ m.alen) :
+    (h : InBlk cfg enc txt m G 0 w m.nseq (nsl m + cntSet m g) m.nseq (nsl m + cntSet m g) g st) (hw : 1 ≤ w) (hpw : w ≤ m.alen) :
     ∃ st', stepsFrom (stoStep cfg) st (gcSlotLines m 0 w g) = .inl st' ∧
-      InBlk cfg enc txt m G 0 w m.nseq (m.nseq + cntSet m (g + 1)) m.nseq (m.nseq + cntSet m (g + 1)) (g + 1) st' := by
+      InBlk cfg enc txt m G 0 w m.nseq (nsl m + cntSet m (g + 1)) m.nseq (nsl m + cntSet m (g + 1)) (g + 1) st' := by
   cases hs : (consF m).getD g none with
   | none =>
     refine ⟨st, by unfold gcSlotLines; rw [hs]; rfl, ?_⟩
     rw [cntSet_none m g hg hs]
-    exact InBlk_skip cfg enc txt m 0 w _ _ _ _ g st hs h
+    exact InBlk_skip cfg enc txt m 0 w _ _ _ _ g st hg hs h
   | some s =>
     obtain ⟨hspec, hcnt⟩ := blockSpec_gc m g hg s hs
     obtain ⟨hlt1, hlt2, htag, _⟩ := consTag_lt g hg
     obtain ⟨sp, c, hline, hsp, hc, hcj⟩ := gcline_shape m W.ann 0 w g hg s hs hw (by omega)
     obtain ⟨st1, hloc, h1⟩ := gcLocate_first cfg enc txt m w _ _ _ g st _ hspec h
     have hn1 := W.n1
+    have hnsl := nsl_ge m
     obtain ⟨st3, hp, h3⟩ := parseGc_after cfg enc txt m 0 w _ _ _ _ g st st1 (bGC ++ [32] ++ (consTag.getD g [] ++ sp ++ c)) _ _ c s
       (memtok_tok bGC [32] _ (by unfold nameOk; decide +kernel) ⟨by simp, by simp⟩ (by
         intro x hx
@@ -1186,20 +1648,21 @@ theorem gcSlot_first (abc : Option Abc) (cfg : Cfg) (enc : UInt8 → UInt8) (txt
 /-- slot `g` of the `#=GC` lines, later blocks -/
 theorem gcSlot_later (abc : Option Abc) (cfg : Cfg) (enc : UInt8 → UInt8) (txt : Nat → Bytes) (m : Msa) {G : GsSt}
     (W : StoWritable abc cfg enc txt m) (pos w g : Nat) (st : StoSt) (hg : g < 5) (hpos : pos ≠ 0)
-    (h : InBlk cfg enc txt m G pos w m.nseq (blockSpec m).length m.nseq (m.nseq + cntSet m g) g st) (hw : 1 ≤ w) (hpw : pos + w ≤ m.alen) :
+    (h : InBlk cfg enc txt m G pos w m.nseq (blockSpec m).length m.nseq (nsl m + cntSet m g) g st) (hw : 1 ≤ w) (hpw : pos + w ≤ m.alen) :
     ∃ st', stepsFrom (stoStep cfg) st (gcSlotLines m pos w g) = .inl st' ∧
-      InBlk cfg enc txt m G pos w m.nseq (blockSpec m).length m.nseq (m.nseq + cntSet m (g + 1)) (g + 1) st' := by
+      InBlk cfg enc txt m G pos w m.nseq (blockSpec m).length m.nseq (nsl m + cntSet m (g + 1)) (g + 1) st' := by
   cases hs : (consF m).getD g none with
   | none =>
     refine ⟨st, by unfold gcSlotLines; rw [hs]; rfl, ?_⟩
     rw [cntSet_none m g hg hs]
-    exact InBlk_skip cfg enc txt m pos w _ _ _ _ g st hs h
+    exact InBlk_skip cfg enc txt m pos w _ _ _ _ g st hg hs h
   | some s =>
     obtain ⟨hspec, hcnt⟩ := blockSpec_gc m g hg s hs
     obtain ⟨hlt1, hlt2, htag, _⟩ := consTag_lt g hg
     obtain ⟨sp, c, hline, hsp, hc, hcj⟩ := gcline_shape m W.ann pos w g hg s hs hw hpw
     have hloc := gcLocate_later cfg enc txt m pos w _ _ _ g st _ hspec h hpos
     have hn1 := W.n1
+    have hnsl := nsl_ge m
     obtain ⟨st3, hp, h3⟩ := parseGc_after cfg enc txt m pos w _ _ _ _ g st st (bGC ++ [32] ++ (consTag.getD g [] ++ sp ++ c)) _ _ c s
       (memtok_tok bGC [32] _ (by unfold nameOk; decide +kernel) ⟨by simp, by simp⟩ (by
         intro x hx
@@ -1213,68 +1676,744 @@ theorem gcSlot_later (abc : Option Abc) (cfg : Cfg) (enc : UInt8 → UInt8) (txt
     simp only [gcSlotLines, hs, optLine, stepsFrom]
     rw [hline, stoStep_gcline cfg st _ h.fr.lead, hp]; rfl
 
+/-! ## unparsed `#=GC` lines -/
+
+theorem gcLineType_other (t : Bytes) (h : gcTagOk t) : gcLineType t = ltGCOTHER := by
+  obtain ⟨_, _, t1, t2, t3, t4, t5⟩ := h
+  unfold gcLineType
+  simp only [memstrcmp, beq_eq_false_iff_ne.mpr t1, beq_eq_false_iff_ne.mpr t2, beq_eq_false_iff_ne.mpr t3,
+    beq_eq_false_iff_ne.mpr t4, beq_eq_false_iff_ne.mpr t5, Bool.false_eq_true, if_false]
+
+/-- the shape of a written `#=GC` line, any tag -/
+theorem gcline_shape' (m : Msa) (tag s : Bytes) (hs : colTextOk m.alen s) (pos w : Nat) (hw : 1 ≤ w) (hpw : pos + w ≤ m.alen) :
+    ∃ sp c, gcLine (stoLayout m) tag s pos w = bGC ++ [32] ++ (tag ++ sp ++ c) ∧ SpOk sp ∧ ChunkOk c ∧ c = (s.drop pos).take w := by
+  obtain ⟨hsl, hsc⟩ := hs
+  refine ⟨List.replicate ((((stoLayout m).margin : Int) - 6).natAbs - tag.length) 32 ++ [32], (s.drop pos).take w,
+    ?_, ⟨by simp, ?_⟩, ⟨?_, ?_⟩, rfl⟩
+  · unfold gcLine strChunk padRight
+    rw [sGC_eq, cstr_id _ (fun c hc => (hsc c (List.mem_of_mem_drop (List.mem_of_mem_take hc))).2)]
+    simp
+  · intro c hc
+    rcases List.mem_append.mp hc with hc | hc
+    · exact (List.mem_replicate.mp hc).2
+    · simpa using hc
+  · intro h0
+    have : ((s.drop pos).take w).length = 0 := by rw [h0]; rfl
+    rw [List.length_take, List.length_drop, hsl] at this
+    omega
+  · intro t ht
+    exact hsc t (List.mem_of_mem_drop (List.mem_of_mem_take ht))
+
+theorem gcLT_len (m : Msa) : (gcLT m).length = cntSet m 5 := by simp [gcLT, cntSet, consF, consLT]
+
+theorem blockSpec_gco (m : Msa) (t : Nat) (ht : t < m.gc.length) :
+    (blockSpec m)[nsl m + cntSet m 5 + t]? = some (ltGCOTHER, none) := by
+  rw [Nat.add_assoc, blockSpec_tail, List.getElem?_append_right (by rw [List.length_map, gcLT_len]; omega), List.length_map,
+    gcLT_len, Nat.add_sub_cancel_left, List.getElem?_map, List.getElem?_eq_getElem ht]; rfl
+
+/-- `stockholm_parse_gc` on an unparsed tag, once the line is located and the tag index `t` is known -/
+theorem parseGc_other_eval (st st1 st2 : StoSt) (p p1 tag c s : Bytes) (pos w t : Nat)
+    (hm1 : memtok p blankTab = some (bGC, p1)) (hm2 : memtok p1 blankTab = some (tag, c)) (hc : ChunkOk c)
+    (hlt : gcLineType tag = ltGCOTHER) (hloc : gcLocate st ltGCOTHER = .ok st1) (hidx : getGcTagIdx st1 tag = (st2, t))
+    (halen : st2.alen = pos) (hlen : st2.ogcLen[t]? = some pos) (hgc : st2.gc[t]? = some (txtVal s pos))
+    (hbi : st2.bi ≠ 0) (hab : st2.alenB = w)
+    (hsl : pos + w ≤ s.length) (hs0 : ∀ x ∈ s, x ≠ 0) (hcj : c = (s.drop pos).take w) (hw : 1 ≤ w) :
+    parseGc st p = .ok { st2 with gc := st2.gc.set t (txtVal s (pos + w)), ogcLen := st2.ogcLen.set t (pos + w),
+                                   alenB := w, inBlock := true, bi := st2.bi + 1 } := by
+  have hcl : c.length = w := by rw [hcj, List.length_take, List.length_drop]; omega
+  have hcne : c.isEmpty = false := by
+    cases c with
+    | nil => exact absurd rfl hc.1
+    | cons _ _ => rfl
+  have hc0 : c.contains 0 = false := by
+    cases hh : c.contains 0 with
+    | false => rfl
+    | true => exact absurd rfl (hc.2 0 (by simpa using hh)).2
+  have hwid : (st2.bi != 0 && w != st2.alenB) = false := by rw [hab]; simp
+  unfold parseGc
+  simp only [hm1, hm2, rtrim_chunk c hc, hcne, hc0, hlt, hloc, show consIdx ltGCOTHER = none from by decide, hidx,
+    getE_of hlen, halen, bne_self_eq_false, getE_of hgc, strcatE_txtVal s c pos w hsl hs0 hcj hw,
+    show memstrcmp bGC bGC = true from by decide, Bool.not_true, Bool.false_eq_true, if_false, blockLineDone, hcl, hwid]
+
+theorem gcCol_self (pos w t : Nat) : gcCol pos w (5 + t) t = pos := by
+  unfold gcCol; rw [if_neg (by omega)]
+
+theorem gcCol_step (pos w t k : Nat) : gcCol pos w (5 + (t + 1)) k = if k = t then pos + w else gcCol pos w (5 + t) k := by
+  unfold gcCol
+  split <;> split <;> (try split) <;> omega
+
+/-- an unparsed `#=GC` line only touches `gc_tag`, `gc`, `ogc_len` -/
+theorem Frozen.gco {m : Msa} {G : GsSt} {pos w t : Nat} {a : Ann} (h : Frozen m G pos w (5 + t) a)
+    (T : List Bytes) (C : List (Option Bytes)) (L : List Nat)
+    (hI : GcInv m (ngcOf m pos (5 + (t + 1))) (gcCol pos w (5 + (t + 1))) T C L) :
+    Frozen m G pos w (5 + (t + 1)) { a with gcTags := T, gc := C, ogcLen := L } :=
+  { h with
+    cons := fun k hk => by
+      have := h.cons k hk
+      rw [if_pos (show k < 5 + t by omega)] at this
+      rw [if_pos (show k < 5 + (t + 1) by omega)]; exact this
+    consLen := fun k hk hs => by
+      have := h.consLen k hk hs
+      rw [if_pos (show k < 5 + t by omega)] at this
+      rw [if_pos (show k < 5 + (t + 1) by omega)]; exact this
+    gcI := hI }
+
+theorem gc_getD_fst (m : Msa) (t : Nat) : (m.gc.getD t ([], [])).1 = (m.gc.map (·.1)).getD t [] := by
+  simp only [List.getD_eq_getElem?_getD, List.getElem?_map]
+  cases m.gc[t]? <;> rfl
+
+theorem memtok_gc (rest : Bytes) (hr : ∀ c, rest.head? = some c → inDelim blankTab c = false) :
+    memtok (bGC ++ [32] ++ rest) blankTab = some (bGC, rest) :=
+  memtok_tok bGC [32] _ (by unfold nameOk; decide +kernel) ⟨by simp, by simp⟩ hr
+
+theorem head_tok (tag sp rest : Bytes) (ht : nameOk tag) : ∀ c, (tag ++ sp ++ rest).head? = some c → inDelim blankTab c = false := by
+  intro x hx
+  cases tag with
+  | nil => exact absurd rfl ht.1
+  | cons a t => simp at hx; subst hx; exact ht.2 a (by simp)
+
+/-- one unparsed `#=GC` line, first block: the tag is new -/
+theorem gcOtherLine_first (abc : Option Abc) (cfg : Cfg) (enc : UInt8 → UInt8) (txt : Nat → Bytes) (m : Msa) {G : GsSt}
+    (W : StoWritable abc cfg enc txt m) (w t : Nat) (st : StoSt) (ht : t < m.gc.length)
+    (h : InBlk cfg enc txt m G 0 w m.nseq (nsl m + cntSet m 5 + t) m.nseq (nsl m + cntSet m 5 + t) (5 + t) st)
+    (hw : 1 ≤ w) (hpw : w ≤ m.alen) :
+    ∃ st', stoStep cfg st (gcLine (stoLayout m) (m.gc.getD t ([], [])).1 (m.gc.getD t ([], [])).2 0 w) = .inl st' ∧
+      InBlk cfg enc txt m G 0 w m.nseq (nsl m + cntSet m 5 + (t + 1)) m.nseq (nsl m + cntSet m 5 + (t + 1)) (5 + (t + 1)) st' := by
+  have hmem : m.gc.getD t ([], []) ∈ m.gc := by rw [getD_eq_getElem_of_lt _ ht]; exact List.getElem_mem ht
+  obtain ⟨htag, hcol⟩ := W.ann.gc_ok _ hmem
+  obtain ⟨sp, c, hline, hsp, hc, hcj⟩ := gcline_shape' m (m.gc.getD t ([], [])).1 _ hcol 0 w hw (by omega)
+  obtain ⟨st1, hloc, h1⟩ := gcLocate_first cfg enc txt m w _ _ _ (5 + t) st _ (blockSpec_gco m t ht) h
+  have hn1 := W.n1
+  have hnsl := nsl_ge m
+  have hfr := h1.fr
+  have hgi : GcInv m t (gcCol 0 w (5 + t)) st1.gcTags st1.gc st1.ogcLen :=
+    hfr.gcI.congr (by simp [ngcOf]) (fun _ _ => rfl)
+  have hidx : getGcTagIdx st1 (m.gc.getD t ([], [])).1
+      = ({ st1 with gcTags := st1.gcTags ++ [(m.gc.getD t ([], [])).1], gc := st1.gc ++ [none], ogcLen := st1.ogcLen ++ [0] }, t) := by
+    have hl : st1.gcTags.length = t := by rw [hgi.tags, List.length_take, List.length_map]; omega
+    unfold getGcTagIdx
+    rw [hgi.tags, gc_getD_fst, findIdx?_take_none _ W.ann.gc_nodup t (by simpa using ht), ← hgi.tags, hl]
+  have hreg := hgi.register ht (gcCol_self 0 w t)
+  have hset := hreg.set t (0 + w) (by omega)
+  have hlen := hreg.lens t (by omega)
+  have hgc := hreg.gc t (by omega)
+  have hz : gcCol 0 w (5 + t) t = 0 := gcCol_self 0 w t
+  rw [hz] at hlen hgc
+  have hp := parseGc_other_eval st st1 _ _ _ _ c (m.gc.getD t ([], [])).2 0 w t
+    (memtok_gc _ (head_tok _ sp c htag.1)) (memtok_sqline _ sp c htag.1 hsp hc) hc (gcLineType_other _ htag) hloc hidx
+    h1.alen hlen hgc (by show st1.bi ≠ 0; rw [h1.bi]; omega) (h1.alenB (by omega))
+    (by rw [hcol.1]; omega) (fun x hx => (hcol.2 x hx).2) hcj hw
+  refine ⟨_, by rw [hline, stoStep_gcline cfg st _ h.fr.lead, hp]; rfl, ?_⟩
+  exact
+    { h1 with
+      fr := hfr.gco _ _ _ (hset.congr (by simp [ngcOf]) (fun k _ => gcCol_step 0 w t k))
+      bi := by show st1.bi + 1 = _; rw [h1.bi]; omega
+      alenB := fun _ => rfl
+      inBlock := by show true = decide (_ ≠ 0); simp }
+
+/-- one unparsed `#=GC` line, later blocks: the tag is known -/
+theorem gcOtherLine_later (abc : Option Abc) (cfg : Cfg) (enc : UInt8 → UInt8) (txt : Nat → Bytes) (m : Msa) {G : GsSt}
+    (W : StoWritable abc cfg enc txt m) (pos w t : Nat) (st : StoSt) (ht : t < m.gc.length) (hpos : pos ≠ 0)
+    (h : InBlk cfg enc txt m G pos w m.nseq (blockSpec m).length m.nseq (nsl m + cntSet m 5 + t) (5 + t) st)
+    (hw : 1 ≤ w) (hpw : pos + w ≤ m.alen) :
+    ∃ st', stoStep cfg st (gcLine (stoLayout m) (m.gc.getD t ([], [])).1 (m.gc.getD t ([], [])).2 pos w) = .inl st' ∧
+      InBlk cfg enc txt m G pos w m.nseq (blockSpec m).length m.nseq (nsl m + cntSet m 5 + (t + 1)) (5 + (t + 1)) st' := by
+  have hmem : m.gc.getD t ([], []) ∈ m.gc := by rw [getD_eq_getElem_of_lt _ ht]; exact List.getElem_mem ht
+  obtain ⟨htag, hcol⟩ := W.ann.gc_ok _ hmem
+  obtain ⟨sp, c, hline, hsp, hc, hcj⟩ := gcline_shape' m (m.gc.getD t ([], [])).1 _ hcol pos w hw hpw
+  have hloc := gcLocate_later cfg enc txt m pos w _ _ _ (5 + t) st _ (blockSpec_gco m t ht) h hpos
+  have hn1 := W.n1
+  have hnsl := nsl_ge m
+  have hfr := h.fr
+  have hgi : GcInv m m.gc.length (gcCol pos w (5 + t)) st.gcTags st.gc st.ogcLen :=
+    hfr.gcI.congr (by simp [ngcOf, hpos]) (fun _ _ => rfl)
+  have hidx : getGcTagIdx st (m.gc.getD t ([], [])).1 = (st, t) := by
+    unfold getGcTagIdx
+    rw [hgi.tags, ← List.length_map (f := (·.1)), List.take_length, gc_getD_fst,
+      findIdx?_nodup_self _ W.ann.gc_nodup t (by simpa using ht)]
+  have hset := hgi.set t (pos + w) ht
+  have hlen := hgi.lens t ht
+  have hgc := hgi.gc t ht
+  have hz : gcCol pos w (5 + t) t = pos := gcCol_self pos w t
+  rw [hz] at hlen hgc
+  have hp := parseGc_other_eval st st _ _ _ _ c (m.gc.getD t ([], [])).2 pos w t
+    (memtok_gc _ (head_tok _ sp c htag.1)) (memtok_sqline _ sp c htag.1 hsp hc) hc (gcLineType_other _ htag) hloc hidx
+    h.alen hlen hgc (by rw [h.bi]; omega) (h.alenB (by omega))
+    (by rw [hcol.1]; omega) (fun x hx => (hcol.2 x hx).2) hcj hw
+  refine ⟨_, by rw [hline, stoStep_gcline cfg st _ h.fr.lead, hp]; rfl, ?_⟩
+  exact
+    { h with
+      fr := hfr.gco _ _ _ (hset.congr (by simp [ngcOf, hpos]) (fun k _ => gcCol_step pos w t k))
+      bi := by show st.bi + 1 = _; rw [h.bi]; omega
+      alenB := fun _ => rfl
+      inBlock := by show true = decide (_ ≠ 0); simp }
+
+theorem sto_take_succ_getD {α : Type} (l : List α) (t : Nat) (d : α) (ht : t < l.length) : l.take (t + 1) = l.take t ++ [l.getD t d] := by
+  rw [List.take_succ]
+  simp [List.getD_eq_getElem?_getD, List.getElem?_eq_getElem ht]
+
+/-- the unparsed `#=GC` lines of the first block -/
+theorem gcOther_first (abc : Option Abc) (cfg : Cfg) (enc : UInt8 → UInt8) (txt : Nat → Bytes) (m : Msa) {G : GsSt}
+    (W : StoWritable abc cfg enc txt m) (w : Nat) (st : StoSt)
+    (h : InBlk cfg enc txt m G 0 w m.nseq (nsl m + cntSet m 5 + 0) m.nseq (nsl m + cntSet m 5 + 0) (5 + 0) st)
+    (hw : 1 ≤ w) (hpw : w ≤ m.alen) :
+    ∀ t, t ≤ m.gc.length → ∃ st', stepsFrom (stoStep cfg) st ((m.gc.take t).map (fun x => gcLine (stoLayout m) x.1 x.2 0 w)) = .inl st' ∧
+      InBlk cfg enc txt m G 0 w m.nseq (nsl m + cntSet m 5 + t) m.nseq (nsl m + cntSet m 5 + t) (5 + t) st' := by
+  intro t
+  induction t with
+  | zero => intro _; exact ⟨st, rfl, h⟩
+  | succ t ih =>
+    intro ht
+    obtain ⟨st1, hs1, h1⟩ := ih (by omega)
+    obtain ⟨st2, hs2, h2⟩ := gcOtherLine_first abc cfg enc txt m W w t st1 (by omega) h1 hw hpw
+    refine ⟨st2, ?_, h2⟩
+    rw [sto_take_succ_getD _ _ ([], []) (by omega), List.map_append, stepsFrom_append _ _ _ _ _ hs1]
+    simp only [List.map_cons, List.map_nil, stepsFrom, hs2]
+
+/-- the unparsed `#=GC` lines of a later block -/
+theorem gcOther_later (abc : Option Abc) (cfg : Cfg) (enc : UInt8 → UInt8) (txt : Nat → Bytes) (m : Msa) {G : GsSt}
+    (W : StoWritable abc cfg enc txt m) (pos w : Nat) (st : StoSt) (hpos : pos ≠ 0)
+    (h : InBlk cfg enc txt m G pos w m.nseq (blockSpec m).length m.nseq (nsl m + cntSet m 5 + 0) (5 + 0) st)
+    (hw : 1 ≤ w) (hpw : pos + w ≤ m.alen) :
+    ∀ t, t ≤ m.gc.length → ∃ st', stepsFrom (stoStep cfg) st ((m.gc.take t).map (fun x => gcLine (stoLayout m) x.1 x.2 pos w)) = .inl st' ∧
+      InBlk cfg enc txt m G pos w m.nseq (blockSpec m).length m.nseq (nsl m + cntSet m 5 + t) (5 + t) st' := by
+  intro t
+  induction t with
+  | zero => intro _; exact ⟨st, rfl, h⟩
+  | succ t ih =>
+    intro ht
+    obtain ⟨st1, hs1, h1⟩ := ih (by omega)
+    obtain ⟨st2, hs2, h2⟩ := gcOtherLine_later abc cfg enc txt m W pos w t st1 (by omega) hpos h1 hw hpw
+    refine ⟨st2, ?_, h2⟩
+    rw [sto_take_succ_getD _ _ ([], []) (by omega), List.map_append, stepsFrom_append _ _ _ _ _ hs1]
+    simp only [List.map_cons, List.map_nil, stepsFrom, hs2]
+
+/-! ## `#=GR` lines -/
+
+theorem sGR_eq : sGR = bGR ++ [32] := by decide +kernel
+
+theorem stoStep_grline (cfg : Cfg) (st : StoSt) (rest : Bytes) (hl : st.lead = false) :
+    stoStep cfg st (bGR ++ [32] ++ rest) = liftE (parseGr st (bGR ++ [32] ++ rest)) := by
+  unfold stoStep
+  simp [hl, bGR, List.dropWhile, memstrpfx, bSlash, bGF, bGS, bGC, List.isPrefixOf]
+
+theorem sto_uniq_false (m : Msa) (hn : m.names.Nodup) : (stoLayout m).uniq = false := by
+  have hd : hasDupNames m.names = false := (hasDupNames_iff m.names).mpr hn
+  unfold stoLayout; simp [hd]
+
+theorem sp_rep (n : Nat) : SpOk (List.replicate n 32 ++ [32]) := by
+  refine ⟨by simp, ?_⟩
+  intro c hc
+  rcases List.mem_append.mp hc with hc | hc
+  · exact (List.mem_replicate.mp hc).2
+  · simpa using hc
+
+/-- the shape of a written `#=GR` line -/
+theorem grline_shape (m : Msa) (hu : (stoLayout m).uniq = false) (i : Nat) (tag s : Bytes) (hs : colTextOk m.alen s) (pos w : Nat)
+    (hw : 1 ≤ w) (hpw : pos + w ≤ m.alen) :
+    ∃ sp1 sp2 c, grLine (stoLayout m) m i tag s pos w = bGR ++ [32] ++ (m.names.getD i [] ++ sp1 ++ (tag ++ sp2 ++ c)) ∧
+      SpOk sp1 ∧ SpOk sp2 ∧ ChunkOk c ∧ c = (s.drop pos).take w := by
+  obtain ⟨hsl, hsc⟩ := hs
+  refine ⟨List.replicate (((stoLayout m).maxname : Int).natAbs - (m.names.getD i []).length) 32 ++ [32],
+    List.replicate ((((stoLayout m).margin : Int) - (stoLayout m).maxname - (stoLayout m).uniqwidth - 7).natAbs - tag.length) 32 ++ [32],
+    (s.drop pos).take w, ?_, sp_rep _, sp_rep _, ⟨?_, ?_⟩, rfl⟩
+  · unfold grLine stoName strChunk padRight
+    rw [sGR_eq, cstr_id _ (fun c hc => (hsc c (List.mem_of_mem_drop (List.mem_of_mem_take hc))).2)]
+    simp [hu]
+  · intro h0
+    have : ((s.drop pos).take w).length = 0 := by rw [h0]; rfl
+    rw [List.length_take, List.length_drop, hsl] at this
+    omega
+  · intro t ht
+    exact hsc t (List.mem_of_mem_drop (List.mem_of_mem_take ht))
+
+theorem memtok_gr (name sp1 tag sp2 c : Bytes) (hn : nameOk name) (h1 : SpOk sp1) (ht : nameOk tag) (h2 : SpOk sp2) (hc : ChunkOk c) :
+    memtok (bGR ++ [32] ++ (name ++ sp1 ++ (tag ++ sp2 ++ c))) blankTab = some (bGR, name ++ sp1 ++ (tag ++ sp2 ++ c)) ∧
+    memtok (name ++ sp1 ++ (tag ++ sp2 ++ c)) blankTab = some (name, tag ++ sp2 ++ c) ∧
+    memtok (tag ++ sp2 ++ c) blankTab = some (tag, c) :=
+  ⟨memtok_tok bGR [32] _ (by unfold nameOk; decide +kernel) ⟨by simp, by simp⟩ (head_tok name sp1 _ hn),
+   memtok_tok name sp1 _ hn h1 (head_tok tag sp2 c ht), memtok_sqline tag sp2 c ht h2 hc⟩
+
+/-- `stockholm_parse_gr` once the line is located and the piece appended -/
+theorem parseGr_eval (st st2 st3 : StoSt) (p p1 p2 name tag c : Bytes) (i : Nat)
+    (hm1 : memtok p blankTab = some (bGR, p1)) (hm2 : memtok p1 blankTab = some (name, p2)) (hm3 : memtok p2 blankTab = some (tag, c))
+    (hc : ChunkOk c) (hloc : grLocate st name (grLineType tag) = .ok (st2, i))
+    (happ : grAppend st2 (grLineType tag) tag i c = .ok st3) (hbi : st3.bi ≠ 0) (hab : st3.alenB = c.length) :
+    parseGr st p = .ok { st3 with alenB := c.length, inBlock := true, bi := st3.bi + 1 } := by
+  have hcne : c.isEmpty = false := by
+    cases c with
+    | nil => exact absurd rfl hc.1
+    | cons _ _ => rfl
+  have hc0 : c.contains 0 = false := by
+    cases hh : c.contains 0 with
+    | false => rfl
+    | true => exact absurd rfl (hc.2 0 (by simpa using hh)).2
+  have hwid : (st3.bi != 0 && c.length != st3.alenB) = false := by rw [hab]; simp
+  unfold parseGr
+  simp only [hm1, hm2, hm3, rtrim_chunk c hc, hcne, hc0, hloc, happ, show memstrcmp bGR bGR = true from by decide, Bool.not_true,
+    Bool.false_eq_true, if_false, blockLineDone, hwid]
+
+theorem grAppendPer_eval (st : StoSt) (q i : Nat) (c : Bytes) (arr : List (Option Bytes)) (lens : List Nat) (cell c' : Option Bytes)
+    (hpa : perArrays st q = .ok (arr, lens)) (hl : lens[i]? = some st.alen) (ha : arr[i]? = some cell)
+    (hcat : strcatE cell st.alen c = .ok c') :
+    grAppendPer st q i c
+      = .ok { st with per := st.per.set q (some (arr.set i c')), perLen := st.perLen.set q (some (lens.set i (st.alen + c.length))) } := by
+  unfold grAppendPer
+  simp only [hpa, getE_of hl, bne_self_eq_false, Bool.false_eq_true, if_false, getE_of ha, hcat]
+
+theorem grAppendOther_eval (st st2 : StoSt) (tag : Bytes) (t i : Nat) (c : Bytes) (lrow : List Nat) (crow : List (Option Bytes))
+    (cell c' : Option Bytes) (hidx : getGrTagIdx st tag = (st2, t)) (hL : st2.ogrLen[t]? = some lrow) (hl : lrow[i]? = some st2.alen)
+    (hG : st2.gr[t]? = some crow) (ha : crow[i]? = some cell) (hcat : strcatE cell st2.alen c = .ok c') :
+    grAppendOther st tag i c
+      = .ok { st2 with gr := st2.gr.set t (crow.set i c'), ogrLen := st2.ogrLen.set t (lrow.set i (st2.alen + c.length)) } := by
+  unfold grAppendOther
+  simp only [hidx, getE_of hL, getE_of hl, bne_self_eq_false, Bool.false_eq_true, if_false, getE_of hG, getE_of ha, hcat]
+
+theorem findIdx?_take_self (l : List Bytes) (hn : l.Nodup) (t n : Nat) (ht : t < n) (hl : n ≤ l.length) :
+    (l.take n).findIdx? (· == l.getD t []) = some t := by
+  have h1 : (l.take n).Nodup := hn.sublist (List.take_sublist n l)
+  have h2 : (l.take n).getD t [] = l.getD t [] := by
+    simp [List.getD_eq_getElem?_getD, List.getElem?_take, ht]
+  rw [← h2]
+  exact findIdx?_nodup_self _ h1 t (by rw [List.length_take]; omega)
+
+theorem gr_getD_fst (m : Msa) (t : Nat) : (m.gr.getD t ([], [])).1 = (m.gr.map (·.1)).getD t [] := by
+  simp only [List.getD_eq_getElem?_getD, List.getElem?_map]
+  cases m.gr[t]? <;> rfl
+
+theorem set_snoc {α : Type} (l : List α) (x y : α) (n : Nat) (hn : n = l.length) : (l ++ [x]).set n y = l ++ [y] := by
+  subst hn; simp
+
+theorem grLT_per (q : Nat) (hq : q < 3) : perIdx (grLT q) = some q := by
+  rcases q with _ | _ | _ | _
+  · rfl
+  · rfl
+  · rfl
+  · omega
+
+theorem grTagOf_other (m : Msa) (t : Nat) : grTagOf m (3 + t) = (m.gr.getD t ([], [])).1 := by
+  unfold grTagOf; rw [if_neg (by omega), Nat.add_sub_cancel_left]
+
+theorem grLT_other (t : Nat) : grLT (3 + t) = ltGROTHER := by
+  unfold grLT; rw [if_neg (by omega), if_neg (by omega), if_neg (by omega)]
+
+theorem grLineType_other (t : Bytes) (h : grTagOk t) : grLineType t = ltGROTHER := by
+  obtain ⟨_, _, t1, t2, t3⟩ := h
+  unfold grLineType
+  simp only [memstrcmp, beq_eq_false_iff_ne.mpr t1, beq_eq_false_iff_ne.mpr t2, beq_eq_false_iff_ne.mpr t3,
+    Bool.false_eq_true, if_false]
+
+/-- the tag of kind `q`: a token, read as the line type of kind `q` -/
+theorem grTag_facts (m : Msa) (hp : StoAnn m) (q : Nat) (hq : q < nslots m) :
+    nameOk (grTagOf m q) ∧ (10 : UInt8) ∉ grTagOf m q ∧ grLineType (grTagOf m q) = grLT q := by
+  by_cases h3 : q < 3
+  · rcases q with _ | _ | _ | _
+    · rw [show grTagOf m 0 = bSS from rfl]; unfold nameOk; decide +kernel
+    · rw [show grTagOf m (0 + 1) = bSA from rfl]; unfold nameOk; decide +kernel
+    · rw [show grTagOf m (0 + 1 + 1) = bPP from rfl]; unfold nameOk; decide +kernel
+    · omega
+  · obtain ⟨t, rfl⟩ : ∃ t, q = 3 + t := ⟨q - 3, by omega⟩
+    have ht : t < m.gr.length := by unfold nslots at hq; omega
+    have hmem : m.gr.getD t ([], []) ∈ m.gr := by rw [getD_eq_getElem_of_lt _ ht]; exact List.getElem_mem ht
+    have hok := (hp.gr_tag_ok _ hmem).1
+    rw [grTagOf_other, grLT_other]
+    exact ⟨hok.1, hok.2.1, grLineType_other _ hok⟩
+
+/-- "append the annotation where it belongs" for the line (sequence `j`, kind `q`) of the block -/
+theorem grAppend_ok (abc : Option Abc) (cfg : Cfg) (enc : UInt8 → UInt8) (txt : Nat → Bytes) (m : Msa) {G : GsSt}
+    (W : StoWritable abc cfg enc txt m) (pos w jn jb j q k g : Nat) (st2 : StoSt)
+    (h : InBlkQ cfg enc txt m G pos w jn jb (j + 1) q k g st2) (hj : j < jn) (hjm : jn ≤ m.nseq) (s : Bytes)
+    (hs : grVal m q j = some s) (c : Bytes) (hcj : c = (s.drop pos).take w) (hw : 1 ≤ w) (hpw : pos + w ≤ m.alen) :
+    ∃ P PL T Gr L, grAppend st2 (grLT q) (grTagOf m q) j c
+        = .ok { st2 with per := P, perLen := PL, grTags := T, gr := Gr, ogrLen := L } ∧
+      GrInv m pos w (dnOf (j + 1) (q + 1)) st2.sqalloc P PL T Gr L := by
+  have hjs : j < m.nseq := by omega
+  have hsq : j < st2.sqalloc := by
+    have := h.alloc
+    have hl : st2.names.length = jn := by rw [h.names, List.length_take]; have : jn ≤ m.names.length := hjm; omega
+    omega
+  obtain ⟨hsl, hsc⟩ := W.ann.gr_col q j s hs
+  have hs0 : ∀ x ∈ s, x ≠ 0 := fun x hx => (hsc x hx).2
+  have hcl : c.length = w := by rw [hcj, List.length_take, List.length_drop]; omega
+  have hdn : dnOf (j + 1) q j q = false := by unfold dnOf; simp
+  have hcat := strcatE_txtVal s c pos w (by omega) hs0 hcj hw
+  have hG := h.grI
+  have hcell : cellOf pos w (dnOf (j + 1) q j q) (grVal m q j) = txtVal s pos := by rw [hdn, hs]; rfl
+  have hclen : clenOf pos w (dnOf (j + 1) q j q) (grVal m q j) = pos := by rw [hdn, hs]; rfl
+  have hstep : ∀ {P : List OptRows} {PL : List (Option (List Nat))} {T : List Bytes} {Gr : List (List (Option Bytes))}
+      {L : List (List Nat)}, GrInv m pos w (upd (dnOf (j + 1) q) j q) st2.sqalloc P PL T Gr L →
+      GrInv m pos w (dnOf (j + 1) (q + 1)) st2.sqalloc P PL T Gr L :=
+    fun hh => hh.congr (fun i q' _ => dnOf_step j q i q')
+  by_cases hq3 : q < 3
+  · have harr : ∃ arr lens, perArrays st2 q = .ok (arr, lens) ∧ RowSpec m pos w (dnOf (j + 1) q) st2.sqalloc q arr lens := by
+      rcases hG.perArr q hq3 j hjs (by rw [hs]; rfl) with ⟨hp, hr⟩ | ⟨arr, lens, hp, hpl, hr⟩
+      · have hlt : q < st2.perLen.length := by rw [hG.perLen_len]; exact hq3
+        have hx : st2.perLen[q]? = some st2.perLen[q] := List.getElem?_eq_getElem hlt
+        exact ⟨_, _, by unfold perArrays; simp only [getE_of hp, getE_of hx], hr⟩
+      · exact ⟨arr, lens, by unfold perArrays; simp only [getE_of hp, getE_of hpl], hr⟩
+    obtain ⟨arr, lens, hpa, hr⟩ := harr
+    have hl := hr.lens j hsq
+    rw [hclen, ← h.alen] at hl
+    have ha := hr.arr j hsq
+    rw [hcell] at ha
+    have he := grAppendPer_eval st2 q j c arr lens _ _ hpa hl ha (by rw [h.alen]; exact hcat)
+    refine ⟨_, _, st2.grTags, st2.gr, st2.ogrLen, ?_, hstep (hG.setPer q hq3 j hjs hsq s hs arr lens hr)⟩
+    simp only [grAppend, grLT_per q hq3]
+    rw [he, h.alen, hcl]
+  · obtain ⟨t, rfl⟩ : ∃ t, q = 3 + t := ⟨q - 3, by omega⟩
+    obtain ⟨ng, hT⟩ := hG.tagI
+    have ht : t < m.gr.length := by
+      have := grVal_lt m (3 + t) j (by rw [hs]; rfl); unfold nslots at this; omega
+    have hper : perIdx ltGROTHER = none := by decide
+    have hgo : grAppend st2 (grLT (3 + t)) (grTagOf m (3 + t)) j c = grAppendOther st2 (m.gr.getD t ([], [])).1 j c := by
+      simp only [grAppend, grLT_other, hper, grTagOf_other]
+    rw [hgo]
+    by_cases hkn : t < ng
+    · have hidx : getGrTagIdx st2 (m.gr.getD t ([], [])).1 = (st2, t) := by
+        unfold getGrTagIdx
+        rw [hT.tags, gr_getD_fst, findIdx?_take_self _ W.ann.gr_nodup t ng hkn (by rw [List.length_map]; exact hT.le)]
+      obtain ⟨arr, lens, hga, hla, hr⟩ := hT.rows t hkn
+      have hl := hr.lens j hsq
+      rw [hclen, ← h.alen] at hl
+      have ha := hr.arr j hsq
+      rw [hcell] at ha
+      have he := grAppendOther_eval st2 st2 _ t j c lens arr _ _ hidx hla hl hga ha (by rw [h.alen]; exact hcat)
+      refine ⟨st2.per, st2.perLen, st2.grTags, _, _, ?_, hstep (hG.setGr j t ng (hT.stepKnown t hkn j hsq s hs arr lens hga hla))⟩
+      rw [he, h.alen, hcl]
+    · have hpos : pos = 0 := by
+        by_cases e : pos = 0
+        · exact e
+        · exact absurd (hT.unknown t ht j hjs (by rw [hs]; rfl) (by unfold visOf; simp [e])) hkn
+      subst hpos
+      have hprev : ∀ t', t' < t → t' < ng := by
+        intro t' ht'
+        obtain ⟨i', hi', hv'⟩ := W.ann.gr_order t ht t' ht' j hjs (by rw [hs]; rfl)
+        exact hT.unknown t' (by omega) i' (by omega) hv' (by unfold visOf dnOf; simp; omega)
+      have hng : ng = t := by
+        have : ng ≤ t := by omega
+        by_cases e : t = 0
+        · omega
+        · have := hprev (t - 1) (by omega); omega
+      subst hng
+      have hidx : getGrTagIdx st2 (m.gr.getD ng ([], [])).1
+          = ({ st2 with grTags := st2.grTags ++ [(m.gr.getD ng ([], [])).1], gr := st2.gr ++ [List.replicate st2.sqalloc none],
+                        ogrLen := st2.ogrLen ++ [List.replicate st2.sqalloc 0] }, ng) := by
+        have hl : st2.grTags.length = ng := by rw [hT.tags, List.length_take, List.length_map]; omega
+        unfold getGrTagIdx
+        rw [hT.tags, gr_getD_fst, findIdx?_take_none _ W.ann.gr_nodup ng (by simpa using ht), ← hT.tags, hl]
+      have hfresh : ∀ i, i < st2.sqalloc → (grVal m (3 + ng) i).isSome = true → dnOf (j + 1) (3 + ng) i (3 + ng) = false := by
+        intro i _ hv
+        cases hd : dnOf (j + 1) (3 + ng) i (3 + ng) with
+        | false => rfl
+        | true =>
+          have hi : i < m.nseq := by
+            unfold dnOf at hd; simp at hd; omega
+          exact absurd (hT.unknown ng ht i hi hv (by unfold visOf; simp [hd])) hkn
+      have hL : (st2.ogrLen ++ [List.replicate st2.sqalloc 0])[ng]? = some (List.replicate st2.sqalloc 0) := by
+        rw [List.getElem?_append_right (by rw [hT.ogr_len]; exact Nat.le_refl _), hT.ogr_len]; simp
+      have hGr : (st2.gr ++ [List.replicate st2.sqalloc none])[ng]? = some (List.replicate st2.sqalloc none) := by
+        rw [List.getElem?_append_right (by rw [hT.gr_len]; exact Nat.le_refl _), hT.gr_len]; simp
+      have hl : (List.replicate st2.sqalloc 0)[j]? = some st2.alen := by rw [List.getElem?_replicate, if_pos hsq, h.alen]
+      have ha : (List.replicate st2.sqalloc (none : Option Bytes))[j]? = some (txtVal s 0) := by
+        rw [List.getElem?_replicate, if_pos hsq]; rfl
+      have he := grAppendOther_eval st2 _ _ ng j c _ _ _ _ hidx hL hl hGr ha (by show strcatE _ st2.alen c = _; rw [h.alen]; exact hcat)
+      refine ⟨st2.per, st2.perLen, _, _, _, ?_, hstep (hG.setGr j ng (ng + 1) (hT.stepNew ht j hjs hsq s hs hfresh))⟩
+      rw [he]
+      simp only [set_snoc _ _ _ _ hT.gr_len.symm, set_snoc _ _ _ _ hT.ogr_len.symm, h.alen, hcl]
+
+/-- names known / lines recorded: in the first block as far as read, later all -/
+def jnOf (jn0 pos j n : Nat) : Nat := if pos = 0 then jnA jn0 (j + 1) else n
+def jbOf (pos k n : Nat) : Nat := if pos = 0 then k else n
+
+/-- which sequence a `#=GR` line annotates: the one whose row was read last -/
+theorem grLocate_any (cfg : Cfg) (enc : UInt8 → UInt8) (txt : Nat → Bytes) (m : Msa) {G : GsSt} {jn0 : Nat} (hjn0 : jn0 ≤ m.nseq)
+    (pos w j q k g lt : Nat) (st : StoSt) (hspec : (blockSpec m)[k]? = some (lt, some j))
+    (h : InBlkQ cfg enc txt m G pos w (jnOf jn0 pos j m.nseq) (jbOf pos k (blockSpec m).length) (j + 1) q k g st) (hj : j < m.nseq) :
+    ∃ st2, grLocate st (m.names.getD j []) lt = .ok (st2, j) ∧
+      InBlkQ cfg enc txt m G pos w (jnOf jn0 pos j m.nseq) (jbOf pos (k + 1) (blockSpec m).length) (j + 1) q k g st2 := by
+  have hjn : j < jnOf jn0 pos j m.nseq := by unfold jnOf jnA; split <;> (try split) <;> omega
+  have hjnm : jnOf jn0 pos j m.nseq ≤ m.nseq := by unfold jnOf jnA; split <;> (try split) <;> omega
+  have hlen : st.names.length = jnOf jn0 pos j m.nseq := by
+    rw [h.names, List.length_take]; have : jnOf jn0 pos j m.nseq ≤ m.names.length := hjnm; omega
+  have hsq : j < st.sqalloc := by have := h.alloc; omega
+  have hnm : st.names[j]? = some (m.names.getD j []) := by
+    rw [h.names, List.getElem?_take, if_pos hjn, List.getD_eq_getElem?_getD,
+      List.getElem?_eq_getElem (show j < m.names.length from hj)]; rfl
+  by_cases hpos : pos = 0
+  · subst hpos
+    simp only [jnOf, jbOf, if_true] at h ⊢
+    have hnb : st.nblock = 0 := h.nblock.mpr rfl
+    have hsi : st.si = j + 1 := by rcases h.si with e | ⟨e, _⟩ <;> omega
+    obtain ⟨st2, h2, hI2⟩ := recordLine_new cfg enc txt m 0 w _ (j + 1) k g st lt (some j) hspec h
+    refine ⟨st2, ?_, hI2⟩
+    unfold grLocate grSeqIdx nameIs sqnameAt
+    simp only [hnb, beq_self_eq_true, if_true, hsi, show j + 1 ≥ 1 by omega, Nat.add_sub_cancel, hsq, hnm, h2]
+  · simp only [jnOf, jbOf, hpos, if_false] at h ⊢
+    have hkb : k < (blockSpec m).length := lt_length_of_getElem? hspec
+    have hblt := h.blt k hkb
+    have hbidx := h.bidx k hkb
+    rw [hspec] at hblt hbidx
+    simp only [Option.map_some] at hblt hbidx
+    have hnb : (st.nblock == 0) = false := by
+      have : st.nblock ≠ 0 := fun e => hpos (h.nblock.mp e)
+      simpa using this
+    have hge : ¬ (st.npb ≤ k) := by rw [h.npb hpos]; omega
+    refine ⟨st, ?_, h⟩
+    unfold grLocate expectLine expectSeq sqnameAt
+    simp only [hnb, Bool.false_eq_true, if_false, hge, h.bi, getE_of hblt, getE_of hbidx, hsq, if_true, hnm]
+    simp
+
+/-- one `#=GR` line -/
+theorem grLine_step (abc : Option Abc) (cfg : Cfg) (enc : UInt8 → UInt8) (txt : Nat → Bytes) (m : Msa) {G : GsSt} {jn0 : Nat} (hjn0 : jn0 ≤ m.nseq)
+    (W : StoWritable abc cfg enc txt m) (pos w j q k : Nat) (st : StoSt) (s : Bytes) (hs : grVal m q j = some s)
+    (hspec : (blockSpec m)[k]? = some (grLT q, some j))
+    (h : InBlkQ cfg enc txt m G pos w (jnOf jn0 pos j m.nseq) (jbOf pos k (blockSpec m).length) (j + 1) q k 0 st) (hj : j < m.nseq)
+    (hk : k ≠ 0) (hw : 1 ≤ w) (hpw : pos + w ≤ m.alen) :
+    ∃ st3, stoStep cfg st (grLine (stoLayout m) m j (grTagOf m q) s pos w) = .inl st3 ∧
+      InBlkQ cfg enc txt m G pos w (jnOf jn0 pos j m.nseq) (jbOf pos (k + 1) (blockSpec m).length) (j + 1) (q + 1) (k + 1) 0 st3 := by
+  have hq : q < nslots m := grVal_lt m q j (by rw [hs]; rfl)
+  obtain ⟨htn, _, hlt⟩ := grTag_facts m W.ann q hq
+  have hcol := W.ann.gr_col q j s hs
+  obtain ⟨sp1, sp2, c, hline, hsp1, hsp2, hc, hcj⟩ :=
+    grline_shape m (sto_uniq_false m W.nodup) j (grTagOf m q) s hcol pos w hw hpw
+  obtain ⟨hm1, hm2, hm3⟩ := memtok_gr _ sp1 _ sp2 c (W.name_ok j hj).1 hsp1 htn hsp2 hc
+  obtain ⟨st2, hloc, h2⟩ := grLocate_any cfg enc txt m hjn0 pos w j q k 0 (grLT q) st hspec h hj
+  have hjn : j < jnOf jn0 pos j m.nseq := by unfold jnOf jnA; split <;> (try split) <;> omega
+  have hjnm : jnOf jn0 pos j m.nseq ≤ m.nseq := by unfold jnOf jnA; split <;> (try split) <;> omega
+  obtain ⟨P, PL, T, Gr, L, happ, hG⟩ := grAppend_ok abc cfg enc txt m W pos w _ _ j q k 0 st2 h2 hjn hjnm s hs c hcj hw hpw
+  have hcl : c.length = w := by rw [hcj, List.length_take, List.length_drop, hcol.1]; omega
+  have hp := parseGr_eval st st2 _ _ _ _ _ _ c j hm1 hm2 hm3 hc (by rw [hlt]; exact hloc) (by rw [hlt]; exact happ)
+    (by show st2.bi ≠ 0; rw [h2.bi]; exact hk) (by show st2.alenB = c.length; rw [h2.alenB hk, hcl])
+  refine ⟨_, by rw [hline, stoStep_grline cfg st _ h.fr.lead, hp]; rfl, ?_⟩
+  exact
+    { h2 with
+      fr := { h2.fr with lead := h2.fr.lead }
+      grI := hG
+      bi := by show st2.bi + 1 = _; rw [h2.bi]
+      alenB := fun _ => hcl
+      inBlock := by show true = decide (_ ≠ 0); simp }
+
+theorem preLen_some (m : Msa) (i q : Nat) (s : Bytes) (hq : q < nslots m) (hs : grVal m q i = some s) :
+    (seqSpec m i)[preLen m i q]? = some (grLT q, some i) ∧ preLen m i (q + 1) = preLen m i q + 1 := by
+  have hget : (thingsOf m i)[1 + q]? = some ((grVal m q i).map (fun _ => (grLT q, some i))) := by
+    unfold thingsOf
+    rw [Nat.add_comm 1 q, List.getElem?_cons_succ, List.getElem?_map, List.getElem?_range hq]; rfl
+  exact filterMap_idx id (thingsOf m i) (1 + q) _ (grLT q, some i) hget (by rw [hs]; rfl)
+
+theorem preLen_none (m : Msa) (i q : Nat) (hq : q < nslots m) (hs : grVal m q i = none) : preLen m i (q + 1) = preLen m i q := by
+  have hget : (thingsOf m i)[1 + q]? = some ((grVal m q i).map (fun _ => (grLT q, some i))) := by
+    unfold thingsOf
+    rw [Nat.add_comm 1 q, List.getElem?_cons_succ, List.getElem?_map, List.getElem?_range hq]; rfl
+  exact filterMap_skip id (thingsOf m i) (1 + q) _ hget (by rw [hs]; rfl)
+
+/-- kind `q` of sequence `j`: its `#=GR` line if the sequence carries the kind, else nothing -/
+theorem grSlot_any (abc : Option Abc) (cfg : Cfg) (enc : UInt8 → UInt8) (txt : Nat → Bytes) (m : Msa) {G : GsSt} {jn0 : Nat} (hjn0 : jn0 ≤ m.nseq)
+    (W : StoWritable abc cfg enc txt m) (pos w j q : Nat) (st : StoSt) (hq : q < nslots m) (hj : j < m.nseq)
+    (h : InBlkQ cfg enc txt m G pos w (jnOf jn0 pos j m.nseq) (jbOf pos (base m j + preLen m j q) (blockSpec m).length) (j + 1) q
+      (base m j + preLen m j q) 0 st) (hw : 1 ≤ w) (hpw : pos + w ≤ m.alen) :
+    ∃ st', stepsFrom (stoStep cfg) st (grSlotLines m pos w j q) = .inl st' ∧
+      InBlkQ cfg enc txt m G pos w (jnOf jn0 pos j m.nseq) (jbOf pos (base m j + preLen m j (q + 1)) (blockSpec m).length) (j + 1) (q + 1)
+        (base m j + preLen m j (q + 1)) 0 st' := by
+  cases hs : grVal m q j with
+  | none =>
+    refine ⟨st, by unfold grSlotLines; rw [hs]; rfl, ?_⟩
+    rw [preLen_none m j q hq hs]
+    exact { h with grI := (h.grI.skip j q hs).congr (fun i q' _ => dnOf_step j q i q') }
+  | some s =>
+    obtain ⟨hsp, hpl⟩ := preLen_some m j q s hq hs
+    have hspec : (blockSpec m)[base m j + preLen m j q]? = some (grLT q, some j) := by
+      rw [blockSpec_seq m j _ hj (lt_length_of_getElem? hsp)]; exact hsp
+    have hk : base m j + preLen m j q ≠ 0 := by
+      have : 1 ≤ preLen m j q := by
+        unfold preLen; rw [Nat.add_comm 1 q]; simp [thingsOf, List.filterMap_cons]
+      omega
+    obtain ⟨st3, hst, h3⟩ := grLine_step abc cfg enc txt m hjn0 W pos w j q _ st s hs hspec h hj hk hw hpw
+    refine ⟨st3, ?_, by rw [hpl]; exact h3⟩
+    simp only [grSlotLines, hs, optLine, stepsFrom, hst]
+
+theorem grSlotLines_other (m : Msa) (pos w j t : Nat) :
+    grSlotLines m pos w j (3 + t)
+      = optLine ((m.gr.getD t ([], [])).2.getD j none) (fun s => grLine (stoLayout m) m j (m.gr.getD t ([], [])).1 s pos w) := by
+  unfold grSlotLines; rw [grVal_other, grTagOf_other]
+
+/-- the unparsed `#=GR` lines of sequence `j` -/
+theorem grOther_any (abc : Option Abc) (cfg : Cfg) (enc : UInt8 → UInt8) (txt : Nat → Bytes) (m : Msa) {G : GsSt} {jn0 : Nat} (hjn0 : jn0 ≤ m.nseq)
+    (W : StoWritable abc cfg enc txt m) (pos w j : Nat) (st : StoSt) (hj : j < m.nseq)
+    (h : InBlkQ cfg enc txt m G pos w (jnOf jn0 pos j m.nseq) (jbOf pos (base m j + preLen m j (3 + 0)) (blockSpec m).length) (j + 1) (3 + 0)
+      (base m j + preLen m j (3 + 0)) 0 st) (hw : 1 ≤ w) (hpw : pos + w ≤ m.alen) :
+    ∀ t, t ≤ m.gr.length → ∃ st', stepsFrom (stoStep cfg) st (grOtherLines m pos w j (m.gr.take t)) = .inl st' ∧
+      InBlkQ cfg enc txt m G pos w (jnOf jn0 pos j m.nseq) (jbOf pos (base m j + preLen m j (3 + t)) (blockSpec m).length) (j + 1) (3 + t)
+        (base m j + preLen m j (3 + t)) 0 st' := by
+  intro t
+  induction t with
+  | zero => intro _; exact ⟨st, rfl, h⟩
+  | succ t ih =>
+    intro ht
+    obtain ⟨st1, hs1, h1⟩ := ih (by omega)
+    obtain ⟨st2, hs2, h2⟩ := grSlot_any abc cfg enc txt m hjn0 W pos w j (3 + t) st1 (by unfold nslots; omega) hj h1 hw hpw
+    refine ⟨st2, ?_, h2⟩
+    have e : grOtherLines m pos w j (m.gr.take (t + 1)) = grOtherLines m pos w j (m.gr.take t) ++ grSlotLines m pos w j (3 + t) := by
+      rw [sto_take_succ_getD _ _ ([], []) (by omega), grSlotLines_other]
+      simp [grOtherLines, List.flatMap_append]
+    rw [e, stepsFrom_append _ _ _ _ _ hs1]
+    exact hs2
+
+/-- all the lines of sequence `j` behind its row -/
+theorem grLines_any (abc : Option Abc) (cfg : Cfg) (enc : UInt8 → UInt8) (txt : Nat → Bytes) (m : Msa) {G : GsSt} {jn0 : Nat} (hjn0 : jn0 ≤ m.nseq)
+    (W : StoWritable abc cfg enc txt m) (pos w j : Nat) (st : StoSt) (hj : j < m.nseq)
+    (h : InBlkQ cfg enc txt m G pos w (jnOf jn0 pos j m.nseq) (jbOf pos (base m j + 1) (blockSpec m).length) (j + 1) 0 (base m j + 1) 0 st)
+    (hw : 1 ≤ w) (hpw : pos + w ≤ m.alen) :
+    ∃ st', stepsFrom (stoStep cfg) st (grSlotLines m pos w j 0 ++ (grSlotLines m pos w j 1 ++ (grSlotLines m pos w j 2
+        ++ grOtherLines m pos w j m.gr))) = .inl st' ∧
+      InBlk cfg enc txt m G pos w (jnOf jn0 pos j m.nseq) (jbOf pos (base m (j + 1)) (blockSpec m).length) (j + 1) (base m (j + 1)) 0 st' := by
+  have hq : ∀ q, q < 3 → q < nslots m := fun q hq => by unfold nslots; omega
+  rw [← preLen_zero m j] at h
+  obtain ⟨s1, e1, h1⟩ := grSlot_any abc cfg enc txt m hjn0 W pos w j 0 st (hq 0 (by omega)) hj h hw hpw
+  obtain ⟨s2, e2, h2⟩ := grSlot_any abc cfg enc txt m hjn0 W pos w j 1 s1 (hq 1 (by omega)) hj h1 hw hpw
+  obtain ⟨s3, e3, h3⟩ := grSlot_any abc cfg enc txt m hjn0 W pos w j 2 s2 (hq 2 (by omega)) hj h2 hw hpw
+  obtain ⟨s4, e4, h4⟩ := grOther_any abc cfg enc txt m hjn0 W pos w j s3 hj h3 hw hpw m.gr.length (Nat.le_refl _)
+  rw [List.take_length] at e4
+  have hfull : base m j + preLen m j (3 + m.gr.length) = base m (j + 1) := by
+    rw [base_succ, ← preLen_full]; rfl
+  rw [hfull] at h4
+  refine ⟨s4, ?_, h4⟩
+  rw [stepsFrom_append _ _ _ _ _ e1, stepsFrom_append _ _ _ _ _ e2, stepsFrom_append _ _ _ _ _ e3]
+  exact e4
+
+/-- the lines of sequence `j`, first block -/
+theorem seq_first (abc : Option Abc) (cfg : Cfg) (enc : UInt8 → UInt8) (txt : Nat → Bytes) (m : Msa) {G : GsSt}
+    (W : StoWritable abc cfg enc txt m) (w j jn0 : Nat) (st : StoSt) (h : InBlk cfg enc txt m G 0 w (jnA jn0 j) (base m j) j (base m j) 0 st)
+    (hj : j < m.nseq) (hw : 1 ≤ w) (hpw : w ≤ m.alen) (hjn0 : jn0 = m.nseq ∨ (jn0 = 0 ∧ ∀ q i, grVal (gsMsa m) q i = none)) :
+    ∃ st', stepsFrom (stoStep cfg) st (stoSeqL abc m 0 w j) = .inl st' ∧
+      InBlk cfg enc txt m G 0 w (jnA jn0 (j + 1)) (base m (j + 1)) (j + 1) (base m (j + 1)) 0 st' := by
+  have hle : jn0 ≤ m.nseq := by rcases hjn0 with e | ⟨e, _⟩ <;> omega
+  obtain ⟨s1, e1, h1⟩ := sqline_first abc cfg enc txt m W w j jn0 st h hj hw hpw hjn0
+  obtain ⟨s2, e2, h2⟩ := grLines_any abc cfg enc txt m hle W 0 w j s1 hj h1 hw (by omega)
+  refine ⟨s2, ?_, h2⟩
+  unfold stoSeqL
+  simp only [List.singleton_append, stepsFrom, e1]
+  exact e2
+
+/-- the lines of sequence `j`, later blocks -/
+theorem seq_later (abc : Option Abc) (cfg : Cfg) (enc : UInt8 → UInt8) (txt : Nat → Bytes) (m : Msa) {G : GsSt}
+    (W : StoWritable abc cfg enc txt m) (pos w j : Nat) (st : StoSt)
+    (h : InBlk cfg enc txt m G pos w m.nseq (blockSpec m).length j (base m j) 0 st)
+    (hpos : pos ≠ 0) (hj : j < m.nseq) (hw : 1 ≤ w) (hpw : pos + w ≤ m.alen) :
+    ∃ st', stepsFrom (stoStep cfg) st (stoSeqL abc m pos w j) = .inl st' ∧
+      InBlk cfg enc txt m G pos w m.nseq (blockSpec m).length (j + 1) (base m (j + 1)) 0 st' := by
+  obtain ⟨s1, e1, h1⟩ := sqline_later abc cfg enc txt m W pos w j st h hpos hj hw hpw
+  have h1' : InBlkQ cfg enc txt m G pos w (jnOf 0 pos j m.nseq) (jbOf pos (base m j + 1) (blockSpec m).length) (j + 1) 0 (base m j + 1) 0 s1 := by
+    simp only [jnOf, jbOf, hpos, if_false]; exact h1
+  obtain ⟨s2, e2, h2⟩ := grLines_any abc cfg enc txt m (Nat.zero_le _) W pos w j s1 hj h1' hw hpw
+  simp only [jnOf, jbOf, hpos, if_false] at h2
+  refine ⟨s2, ?_, h2⟩
+  unfold stoSeqL
+  simp only [List.singleton_append, stepsFrom, e1]
+  exact e2
+
+/-- the sequence and `#=GR` lines of the first block -/
+theorem sqlines_first (abc : Option Abc) (cfg : Cfg) (enc : UInt8 → UInt8) (txt : Nat → Bytes) (m : Msa) {G : GsSt}
+    (W : StoWritable abc cfg enc txt m) (w jn0 : Nat) (st : StoSt) (h : InBlk cfg enc txt m G 0 w jn0 0 0 0 0 st) (hw : 1 ≤ w) (hpw : w ≤ m.alen)
+    (hjn0 : jn0 = m.nseq ∨ (jn0 = 0 ∧ ∀ q i, grVal (gsMsa m) q i = none)) :
+    ∀ j, j ≤ m.nseq → ∃ st', stepsFrom (stoStep cfg) st ((List.range j).flatMap (stoSeqL abc m 0 w)) = .inl st' ∧
+      InBlk cfg enc txt m G 0 w (jnA jn0 j) (base m j) j (base m j) 0 st' := by
+  intro j
+  induction j with
+  | zero => intro _; exact ⟨st, rfl, by rw [show jnA jn0 0 = jn0 from by unfold jnA; split <;> omega]; exact h⟩
+  | succ j ih =>
+    intro hj
+    obtain ⟨st1, hs1, h1⟩ := ih (by omega)
+    obtain ⟨st2, hs2, h2⟩ := seq_first abc cfg enc txt m W w j jn0 st1 h1 (by omega) hw hpw hjn0
+    refine ⟨st2, ?_, h2⟩
+    rw [List.range_succ, List.flatMap_append, stepsFrom_append _ _ _ _ _ hs1]
+    simpa using hs2
+
+/-- the sequence and `#=GR` lines of a later block -/
+theorem sqlines_later (abc : Option Abc) (cfg : Cfg) (enc : UInt8 → UInt8) (txt : Nat → Bytes) (m : Msa) {G : GsSt}
+    (W : StoWritable abc cfg enc txt m) (pos w : Nat) (st : StoSt) (h : InBlk cfg enc txt m G pos w m.nseq (blockSpec m).length 0 0 0 st)
+    (hpos : pos ≠ 0) (hw : 1 ≤ w) (hpw : pos + w ≤ m.alen) :
+    ∀ j, j ≤ m.nseq → ∃ st', stepsFrom (stoStep cfg) st ((List.range j).flatMap (stoSeqL abc m pos w)) = .inl st' ∧
+      InBlk cfg enc txt m G pos w m.nseq (blockSpec m).length j (base m j) 0 st' := by
+  intro j
+  induction j with
+  | zero => intro _; exact ⟨st, rfl, h⟩
+  | succ j ih =>
+    intro hj
+    obtain ⟨st1, hs1, h1⟩ := ih (by omega)
+    obtain ⟨st2, hs2, h2⟩ := seq_later abc cfg enc txt m W pos w j st1 h1 hpos (by omega) hw hpw
+    refine ⟨st2, ?_, h2⟩
+    rw [List.range_succ, List.flatMap_append, stepsFrom_append _ _ _ _ _ hs1]
+    simpa using hs2
+
 theorem cntSet_zero (m : Msa) : cntSet m 0 = 0 := rfl
 
 /-- the whole first block -/
-theorem block_first (abc : Option Abc) (cfg : Cfg) (enc : UInt8 → UInt8) (txt : Nat → Bytes) (m : Msa)
-    (W : StoWritable abc cfg enc txt m) (cpl : Nat) (st : StoSt) (h : InBlk cfg enc txt m GsSt.none 0 (stoW m cpl 0) 0 0 0 0 0 st)
-    (hc : 0 < cpl) :
+theorem block_first (abc : Option Abc) (cfg : Cfg) (enc : UInt8 → UInt8) (txt : Nat → Bytes) (m : Msa) {G : GsSt}
+    (W : StoWritable abc cfg enc txt m) (cpl jn0 : Nat) (st : StoSt) (h : InBlk cfg enc txt m G 0 (stoW m cpl 0) jn0 0 0 0 0 st)
+    (hc : 0 < cpl) (hjn0 : jn0 = m.nseq ∨ (jn0 = 0 ∧ ∀ q i, grVal (gsMsa m) q i = none)) :
     ∃ st', stepsFrom (stoStep cfg) st (stoAnnBlock abc m cpl 0) = .inl st' ∧
-      InBlk cfg enc txt m GsSt.none 0 (stoW m cpl 0) m.nseq (blockSpec m).length m.nseq (blockSpec m).length 5 st' := by
+      InBlk cfg enc txt m G 0 (stoW m cpl 0) m.nseq (blockSpec m).length m.nseq (blockSpec m).length (gEnd m) st' := by
   have ha1 := W.alen1
   have hw1 : 1 ≤ stoW m cpl 0 := by unfold stoW; split <;> omega
   have hw2 : stoW m cpl 0 ≤ m.alen := by unfold stoW; split <;> omega
-  obtain ⟨s0, e0, h0⟩ := sqlines_first abc cfg enc txt m W _ st h hw1 hw2 m.nseq (Nat.le_refl _)
-  have h0' : InBlk cfg enc txt m GsSt.none 0 (stoW m cpl 0) m.nseq (m.nseq + cntSet m 0) m.nseq (m.nseq + cntSet m 0) 0 s0 := h0
+  obtain ⟨s0, e0, h0⟩ := sqlines_first abc cfg enc txt m W _ jn0 st h hw1 hw2 hjn0 m.nseq (Nat.le_refl _)
+  have hA : jnA jn0 m.nseq = m.nseq := by
+    unfold jnA; rcases hjn0 with e | ⟨e, _⟩ <;> subst e <;> split <;> omega
+  rw [hA] at h0
+  have h0' : InBlk cfg enc txt m G 0 (stoW m cpl 0) m.nseq (nsl m + cntSet m 0) m.nseq (nsl m + cntSet m 0) 0 s0 := h0
   obtain ⟨s1, e1, h1⟩ := gcSlot_first abc cfg enc txt m W _ 0 s0 (by omega) h0' hw1 hw2
   obtain ⟨s2, e2, h2⟩ := gcSlot_first abc cfg enc txt m W _ 1 s1 (by omega) h1 hw1 hw2
   obtain ⟨s3, e3, h3⟩ := gcSlot_first abc cfg enc txt m W _ 2 s2 (by omega) h2 hw1 hw2
   obtain ⟨s4, e4, h4⟩ := gcSlot_first abc cfg enc txt m W _ 3 s3 (by omega) h3 hw1 hw2
   obtain ⟨s5, e5, h5⟩ := gcSlot_first abc cfg enc txt m W _ 4 s4 (by omega) h4 hw1 hw2
-  rw [← blockSpec_len] at h5
-  refine ⟨s5, ?_, h5⟩
+  obtain ⟨s6, e6, h6⟩ := gcOther_first abc cfg enc txt m W _ s5 h5 hw1 hw2 m.gc.length (Nat.le_refl _)
+  rw [← blockSpec_len] at h6
+  rw [List.take_length] at e6
+  refine ⟨s6, ?_, h6⟩
   unfold stoAnnBlock
   simp only [Nat.lt_irrefl, gt_iff_lt, if_false, List.nil_append]
   rw [stepsFrom_append _ _ _ _ _ e0, stepsFrom_append _ _ _ _ _ e1, stepsFrom_append _ _ _ _ _ e2,
-    stepsFrom_append _ _ _ _ _ e3, stepsFrom_append _ _ _ _ _ e4]
-  exact e5
+    stepsFrom_append _ _ _ _ _ e3, stepsFrom_append _ _ _ _ _ e4, stepsFrom_append _ _ _ _ _ e5]
+  exact e6
 
 /-- a whole later block: the blank line, the sequence lines, the `#=GC` lines -/
 theorem block_later (abc : Option Abc) (cfg : Cfg) (enc : UInt8 → UInt8) (txt : Nat → Bytes) (m : Msa) {G : GsSt}
     (W : StoWritable abc cfg enc txt m) (cpl p w pos : Nat) (st : StoSt)
-    (h : InBlk cfg enc txt m G p w m.nseq (blockSpec m).length m.nseq (blockSpec m).length 5 st)
+    (h : InBlk cfg enc txt m G p w m.nseq (blockSpec m).length m.nseq (blockSpec m).length (gEnd m) st)
     (hpw : p + w = pos) (hw : 1 ≤ w) (hlt : pos < m.alen) (hc : 0 < cpl) :
     ∃ st', stepsFrom (stoStep cfg) st (stoAnnBlock abc m cpl pos) = .inl st' ∧
-      InBlk cfg enc txt m G pos (stoW m cpl pos) m.nseq (blockSpec m).length m.nseq (blockSpec m).length 5 st' := by
+      InBlk cfg enc txt m G pos (stoW m cpl pos) m.nseq (blockSpec m).length m.nseq (blockSpec m).length (gEnd m) st' := by
   have hpos : pos ≠ 0 := by omega
   have hw1 : 1 ≤ stoW m cpl pos := by unfold stoW; split <;> omega
   have hw2 : pos + stoW m cpl pos ≤ m.alen := by unfold stoW; split <;> omega
   obtain ⟨st1, he, h1⟩ := endBlock_full cfg enc txt m p w (stoW m cpl pos) m.nseq st h rfl W.n1 hw
   rw [hpw] at h1
   obtain ⟨s0, e0, h0⟩ := sqlines_later abc cfg enc txt m W pos _ st1 h1 hpos hw1 hw2 m.nseq (Nat.le_refl _)
-  have h0' : InBlk cfg enc txt m G pos (stoW m cpl pos) m.nseq (blockSpec m).length m.nseq (m.nseq + cntSet m 0) 0 s0 := h0
+  have h0' : InBlk cfg enc txt m G pos (stoW m cpl pos) m.nseq (blockSpec m).length m.nseq (nsl m + cntSet m 0) 0 s0 := h0
   obtain ⟨s1, e1, h1'⟩ := gcSlot_later abc cfg enc txt m W pos _ 0 s0 (by omega) hpos h0' hw1 hw2
   obtain ⟨s2, e2, h2⟩ := gcSlot_later abc cfg enc txt m W pos _ 1 s1 (by omega) hpos h1' hw1 hw2
   obtain ⟨s3, e3, h3⟩ := gcSlot_later abc cfg enc txt m W pos _ 2 s2 (by omega) hpos h2 hw1 hw2
   obtain ⟨s4, e4, h4⟩ := gcSlot_later abc cfg enc txt m W pos _ 3 s3 (by omega) hpos h3 hw1 hw2
   obtain ⟨s5, e5, h5⟩ := gcSlot_later abc cfg enc txt m W pos _ 4 s4 (by omega) hpos h4 hw1 hw2
-  rw [← blockSpec_len] at h5
-  refine ⟨s5, ?_, h5⟩
+  obtain ⟨s6, e6, h6⟩ := gcOther_later abc cfg enc txt m W pos _ s5 hpos h5 hw1 hw2 m.gc.length (Nat.le_refl _)
+  rw [← blockSpec_len] at h6
+  rw [List.take_length] at e6
+  refine ⟨s6, ?_, h6⟩
   unfold stoAnnBlock
   have : pos > 0 := by omega
   simp only [this, if_true, List.singleton_append, stepsFrom, stoStep_blank cfg st st1 h.fr.lead he]
   rw [stepsFrom_append _ _ _ _ _ e0, stepsFrom_append _ _ _ _ _ e1, stepsFrom_append _ _ _ _ _ e2,
-    stepsFrom_append _ _ _ _ _ e3, stepsFrom_append _ _ _ _ _ e4]
-  exact e5
+    stepsFrom_append _ _ _ _ _ e3, stepsFrom_append _ _ _ _ _ e4, stepsFrom_append _ _ _ _ _ e5]
+  exact e6
 
 /-- all the later blocks -/
 theorem blocks_later (abc : Option Abc) (cfg : Cfg) (enc : UInt8 → UInt8) (txt : Nat → Bytes) (m : Msa) {G : GsSt}
     (W : StoWritable abc cfg enc txt m) (cpl : Nat) (hc : 0 < cpl) :
     ∀ k pos, m.alen - pos ≤ k → ∀ (st : StoSt) (p w : Nat),
-      InBlk cfg enc txt m G p w m.nseq (blockSpec m).length m.nseq (blockSpec m).length 5 st →
+      InBlk cfg enc txt m G p w m.nseq (blockSpec m).length m.nseq (blockSpec m).length (gEnd m) st →
       p + w = min pos m.alen → 1 ≤ w →
       ∃ st' p' w', stepsFrom (stoStep cfg) st ((blockStartsFrom m.alen cpl pos).flatMap (stoAnnBlock abc m cpl)) = .inl st' ∧
-        InBlk cfg enc txt m G p' w' m.nseq (blockSpec m).length m.nseq (blockSpec m).length 5 st' ∧ p' + w' = m.alen ∧ 1 ≤ w' := by
+        InBlk cfg enc txt m G p' w' m.nseq (blockSpec m).length m.nseq (blockSpec m).length (gEnd m) st' ∧ p' + w' = m.alen ∧ 1 ≤ w' := by
   intro k
   induction k with
   | zero =>
@@ -1768,10 +2907,73 @@ theorem blockStarts_cons' (alen cpl : Nat) (h : 1 ≤ alen) (hc : 0 < cpl) :
   unfold blockStarts
   rw [blockStartsFrom, dif_pos ⟨by omega, hc⟩, Nat.zero_add]
 
+/-- beyond the last sequence there is no `#=GR` annotation -/
+theorem grVal_vnone_of (m : Msa) (h1 : ∀ q, q < 3 → ∀ l, (perF m).getD q none = some l → l.length = m.nseq)
+    (h2 : ∀ t ∈ m.gr, t.2.length = m.nseq) (q i : Nat) (hi : m.nseq ≤ i) : grVal m q i = none := by
+  unfold grVal
+  split
+  · rename_i hq
+    cases hl : (perF m).getD q none with
+    | none => simp [optRow]
+    | some l =>
+      have := h1 q hq l hl
+      simp only [optRow, Option.getD_some, List.getD_eq_getElem?_getD]
+      rw [List.getElem?_eq_none (by omega)]; rfl
+  · by_cases e : q - 3 < m.gr.length
+    · have hmem : m.gr.getD (q - 3) ([], []) ∈ m.gr := by rw [getD_eq_getElem_of_lt _ e]; exact List.getElem_mem e
+      have := h2 _ hmem
+      rw [List.getD_eq_getElem?_getD (l := (m.gr.getD (q - 3) ([], [])).2), List.getElem?_eq_none (by omega)]; rfl
+    · have e0 : m.gr.getD (q - 3) ([], []) = ([], []) := by
+        rw [List.getD_eq_getElem?_getD, List.getElem?_eq_none (by omega)]; rfl
+      rw [e0]; rfl
+
+theorem grVal_vnone (m : Msa) (hp : StoAnn m) (q i : Nat) (hi : m.nseq ≤ i) : grVal m q i = none :=
+  grVal_vnone_of m (fun q hq l hl => (hp.per_ok q hq l hl).1) (fun t ht => (hp.gr_tag_ok t ht).2) q i hi
+
+theorem gsVal_vnone (m : Msa) (hp : StoAnn m) (q i : Nat) (hi : m.nseq ≤ i) : grVal (gsMsa m) q i = none :=
+  grVal_vnone_of (gsMsa m) (fun q hq l hl => (hp.gs_per_ok q hq l hl).1) (fun t ht => (hp.gs_tag_ok t ht).2) q i hi
+
+/-- everything of the `#=GS` section read -/
+def gsFull (m : Msa) : GsSt := ⟨3 + m.gs.length, 0⟩
+
+theorem foldl_len_ge (l : List Bytes) (a : Nat) : a ≤ l.foldl (fun a s => a + s.length) a := by
+  induction l generalizing a with
+  | nil => exact Nat.le_refl _
+  | cons x t ih => simp only [List.foldl_cons]; exact Nat.le_trans (Nat.le_add_right _ _) (ih _)
+
+theorem foldl_len_le (l : List Bytes) (a : Nat) (s : Bytes) (hs : s ∈ l) : s.length ≤ l.foldl (fun a s => a + s.length) a := by
+  induction l generalizing a with
+  | nil => cases hs
+  | cons x t ih =>
+    simp only [List.foldl_cons]
+    rcases List.mem_cons.mp hs with e | e
+    · subst e; exact Nat.le_trans (Nat.le_add_left _ _) (foldl_len_ge t _)
+    · exact ih _ e
+
+theorem gsVal_lt (m : Msa) (q i : Nat) (s : Bytes) (hq : q < 3 + m.gs.length) (hi : i < m.nseq)
+    (hs : grVal (gsMsa m) q i = some s) : s.length < gsW m := by
+  have hm : s ∈ gsVals m := by
+    unfold gsVals
+    simp only [List.mem_flatMap, List.mem_range, List.mem_filterMap]
+    exact ⟨q, hq, i, hi, hs⟩
+  have := foldl_len_le (gsVals m) 0 s hm
+  unfold gsW; omega
+
+theorem txtVal_gs (m : Msa) (q i : Nat) (s : Bytes) (hi : i < m.nseq) (hs : grVal (gsMsa m) q i = some s) :
+    txtVal s (0 + gsW m) = some s := by
+  have hq : q < 3 + m.gs.length := grVal_lt (gsMsa m) q i (by rw [hs]; rfl)
+  have := gsVal_lt m q i s hq hi hs
+  unfold txtVal
+  rw [if_neg (by omega), List.take_of_length_le (by omega)]
+
+theorem dnGs_full (m : Msa) (i q : Nat) (hi : i < m.nseq) (hv : (grVal (gsMsa m) q i).isSome = true) : dnGs m (gsFull m) i q = true := by
+  have hq : q < 3 + m.gs.length := grVal_lt (gsMsa m) q i hv
+  unfold dnGs gsFull; simp [hi, hq]
+
 theorem InBlk_init (cfg : Cfg) (enc : UInt8 → UInt8) (txt : Nat → Bytes) (m : Msa) (hp : StoAnn m) (w : Nat) :
     InBlk cfg enc txt m GsSt.none 0 w 0 0 0 0 0 (headSt m) :=
   { fr :=
-      { lead := rfl, hasw := rfl, wgt := fun e => absurd e (by decide), name := rfl, desc := rfl, acc := rfl, au := rfl
+      { lead := rfl, name := rfl, desc := rfl, acc := rfl, au := rfl
         cons_len := rfl, consLen_len := rfl
         cons := fun k hk => by
           have e : consVal m (if k < 0 then 0 + w else 0) k = none := by
@@ -1783,10 +2985,14 @@ theorem InBlk_init (cfg : Cfg) (enc : UInt8 → UInt8) (txt : Nat → Bytes) (m 
           rw [if_neg (Nat.not_lt_zero k)]
           show (List.replicate 5 0)[k]? = _
           rw [List.getElem?_replicate, if_pos hk]
-        sqacc := rfl, sqdesc := rfl, per := rfl, cutset := rfl
+        cutset := rfl
         comments := rfl
         gf := rfl
-        gsTags := rfl, gs := rfl, gcTags := rfl, gc := rfl, grTags := rfl, gr := rfl }
+        gcI := { tags := by simp [ngcOf]; rfl, gc_len := by simp [ngcOf]; rfl, lens_len := by simp [ngcOf]; rfl
+                 le := by simp [ngcOf], gc := fun k hk => by simp [ngcOf] at hk, lens := fun k hk => by simp [ngcOf] at hk } }
+    gsI := ⟨rfl, List.replicate 3 none, [], GrInv.init (gsMsa m) (gsW m) 16 (dnGs m GsSt.none)
+      (fun i q => by simp [dnGs, GsSt.none]) (gsVal_vnone m hp)⟩
+    grI := GrInv.init m w 16 (dnOf 0 (nslots m)) (fun i q => dnOf_false_of_ge 0 (nslots m) i q (Nat.zero_le _)) (grVal_vnone m hp)
     alen := rfl, nblock := ⟨fun _ => rfl, fun _ => rfl⟩, names := by simp [headSt], nseq := rfl
     alloc := by show 0 ≤ 16; omega
     apos := by show 0 < 16; omega
@@ -1815,6 +3021,466 @@ theorem InBlk_init (cfg : Cfg) (enc : UInt8 → UInt8) (txt : Nat → Bytes) (m 
     bi := rfl, si := Or.inl rfl, nseqB := rfl
     alenB := fun e => absurd rfl e
     inBlock := rfl }
+
+/-! ## the `#=GS` section: `#=GS <seqname> AC`, `#=GS <seqname> DE`, unparsed `#=GS <seqname> <tag>` -/
+
+theorem stoStep_gsline (cfg : Cfg) (st : StoSt) (rest : Bytes) (hl : st.lead = false) :
+    stoStep cfg st (bGS ++ [32] ++ rest) = liftE (parseGs st (bGS ++ [32] ++ rest)) := by
+  unfold stoStep
+  simp [hl, bGS, List.dropWhile, memstrpfx, bSlash, bGF, List.isPrefixOf]
+
+theorem gsline_shape (m : Msa) (q i : Nat) (v : Bytes) :
+    ∃ sp, gsLine m q i v = bGS ++ [32] ++ (m.names.getD i [] ++ sp ++ (gsTagOf m q ++ [32] ++ v)) ∧ SpOk sp := by
+  refine ⟨List.replicate (((stoLayout m).maxname : Int).natAbs - (m.names.getD i []).length) 32 ++ [32], ?_, sp_rep _⟩
+  unfold gsLine padRight
+  rw [sGS_eq]; simp
+
+theorem gsTag_facts (m : Msa) (hp : StoAnn m) (q : Nat) (hq : q < 3 + m.gs.length) (hq2 : q ≠ 2) :
+    nameOk (gsTagOf m q) ∧ (10 : UInt8) ∉ gsTagOf m q := by
+  rcases q with _ | _ | _ | q
+  · rw [show gsTagOf m 0 = bAC from rfl]; unfold nameOk; decide +kernel
+  · rw [show gsTagOf m (0 + 1) = bDE from rfl]; unfold nameOk; decide +kernel
+  · omega
+  · have e : q + 1 + 1 + 1 = 3 + q := by omega
+    rw [e, gsTagOf_other]
+    have ht : q < m.gs.length := by omega
+    have hmem : m.gs.getD q ([], []) ∈ m.gs := by rw [getD_eq_getElem_of_lt _ ht]; exact List.getElem_mem ht
+    have hok := (hp.gs_tag_ok _ hmem).1
+    exact ⟨hok.1, hok.2.1⟩
+
+/-- an unparsed `#=GS` tag goes to `esl_msa_AddGS` -/
+theorem gsApply_other (st : StoSt) (i : Nat) (tag v : Bytes) (ht : gsTagOk tag) : gsApply st i tag v = addGS st tag i v := by
+  obtain ⟨_, _, t1, t2, t3⟩ := ht
+  unfold gsApply
+  simp only [memstrcmp, beq_eq_false_iff_ne.mpr t1, beq_eq_false_iff_ne.mpr t2, beq_eq_false_iff_ne.mpr t3, Bool.false_eq_true, if_false]
+
+/-- `esl_msa_AddGS` for a (tag, sequence) that has no value yet -/
+theorem addGS_eval (st st2 : StoSt) (tag : Bytes) (t i : Nat) (v : Bytes) (row : List (Option Bytes))
+    (hidx : getGsTagIdx st tag = (st2, t)) (hG : st2.gs[t]? = some row) (hc : row[i]? = some none) (hv0 : cstr v = v) :
+    addGS st tag i v = .ok { st2 with gs := st2.gs.set t (row.set i (some v)) } := by
+  have hi := lt_length_of_getElem? hc
+  have ht := lt_length_of_getElem? hG
+  unfold addGS
+  simp only [hidx, getE_of hG, getE_of hc, hv0, setE, hi, ht, if_true, List.length_set]
+
+/-- `stockholm_parse_gs` once the sequence is found and the annotation stored -/
+theorem parseGs_eval (st st1 st2 : StoSt) (p p1 p2 name tag v : Bytes) (i : Nat)
+    (hm1 : memtok p blankTab = some (bGS, p1)) (hm2 : memtok p1 blankTab = some (name, p2)) (hm3 : memtok p2 blankTab = some (tag, v))
+    (hidx : gsSeqIdx st name = .ok (st1, i)) (happ : gsApply st1 i tag v = .ok st2) :
+    parseGs st p = .ok { st2 with si := i + 1 } := by
+  unfold parseGs
+  simp only [hm1, hm2, hm3, show memstrcmp bGS bGS = true from by decide, Bool.not_true, Bool.false_eq_true, if_false, hidx, happ]
+
+/-- `#=GS <seqname> AC <acc>` for a sequence that has no accession yet -/
+theorem gsApply_ac (st : StoSt) (i : Nat) (v : Bytes) (hv : gfTokOk v) (arr : List (Option Bytes))
+    (harr : (st.sqacc = none ∧ arr = List.replicate st.sqalloc none) ∨ st.sqacc = some arr) (hlen : arr.length = st.sqalloc)
+    (hi : i < st.sqalloc) (hcell : arr[i]? = some none) :
+    gsApply st i bAC v = .ok { st with sqacc := some (arr.set i (some v)) } := by
+  have hm := memtok_name v hv.1
+  have hcs := cstr_id v (nameOk_nonul v hv.1)
+  have hge : ¬ (i ≥ st.sqalloc) := by omega
+  have hil : i < arr.length := by omega
+  unfold gsApply
+  simp only [show memstrcmp bAC bWT = false from by decide, show memstrcmp bAC bAC = true from by decide, Bool.false_eq_true, if_false,
+    if_true, hm]
+  rcases harr with ⟨h0, ha⟩ | h1
+  · subst ha
+    simp [optIsSet, h0, setSeqOpt, hge, hcs, setE, hi]
+  · simp [optIsSet, h1, getE_of hcell, setSeqOpt, hge, hcs, setE, hil]
+
+/-- `#=GS <seqname> DE <text>` for a sequence that has no description yet -/
+theorem gsApply_de (st : StoSt) (i : Nat) (v : Bytes) (hv : gfTextOk v) (arr : List (Option Bytes))
+    (harr : (st.sqdesc = none ∧ arr = List.replicate st.sqalloc none) ∨ st.sqdesc = some arr) (hlen : arr.length = st.sqalloc)
+    (hi : i < st.sqalloc) (hcell : arr[i]? = some none) :
+    gsApply st i bDE v = .ok { st with sqdesc := some (arr.set i (some v)) } := by
+  have hcs := cstr_id v (fun c hc e => hv.2.1 (e ▸ hc))
+  have hge : ¬ (i ≥ st.sqalloc) := by omega
+  have hil : i < arr.length := by omega
+  unfold gsApply
+  simp only [show memstrcmp bDE bWT = false from by decide, show memstrcmp bDE bAC = false from by decide,
+    show memstrcmp bDE bDE = true from by decide, Bool.false_eq_true, if_false, if_true]
+  rcases harr with ⟨h0, ha⟩ | h1
+  · subst ha
+    simp [optIsSet, h0, setSeqOpt, hge, hcs, setE, hi]
+  · simp [optIsSet, h1, getE_of hcell, setSeqOpt, hge, hcs, setE, hil]
+
+/-- the guess `pd->si` of `stockholm_parse_gs` never matters -/
+theorem gsSeqIdx_eq (st : StoSt) (name : Bytes) (hsi : st.si ≤ st.nseq) (hn : st.nseq = st.names.length)
+    (ha : st.names.length ≤ st.sqalloc) (hnd : st.names.Nodup) : gsSeqIdx st name = getSeqIdx st name := by
+  unfold gsSeqIdx
+  by_cases e : st.si = st.nseq
+  · simp [e]
+  · have e' : (st.si == st.nseq) = false := by simpa using e
+    have hsq : st.si < st.sqalloc := by omega
+    simp only [e', Bool.false_eq_true, if_false, sqnameAt, hsq, if_true]
+    by_cases e2 : st.names[st.si]? = some name
+    · simp [e2, getSeqIdx_found st name hnd st.si e2]
+    · have e3 : (st.names[st.si]? != some name) = true := by simpa using e2
+      simp only [e3, if_true]
+
+theorem dnGs_step (m : Msa) (q i i' q' : Nat) (hi : i < m.nseq) : dnGs m ⟨q, i + 1⟩ i' q' = upd (dnGs m ⟨q, i⟩) i q i' q' := by
+  unfold dnGs upd; rw [Bool.eq_iff_iff]; simp; omega
+
+/-- the `#=GS` progress only matters where there is annotation -/
+theorem InBlkQ.gsCongr {cfg : Cfg} {enc : UInt8 → UInt8} {txt : Nat → Bytes} {m : Msa} {G : GsSt} {pos w jn jb j q k g : Nat} {st : StoSt}
+    (h : InBlkQ cfg enc txt m G pos w jn jb j q k g st) (G' : GsSt)
+    (hd : ∀ i' q', (grVal (gsMsa m) q' i').isSome = true → dnGs m G' i' q' = dnGs m G i' q') :
+    InBlkQ cfg enc txt m G' pos w jn jb j q k g st :=
+  { h with
+    fr := { h.fr with lead := h.fr.lead }
+    gsI := ⟨h.gsI.hasw, by obtain ⟨PL, L, hI⟩ := h.gsI.inv; exact ⟨PL, L, hI.congr hd⟩⟩ }
+
+theorem gs_getD_fst (m : Msa) (t : Nat) : (m.gs.getD t ([], [])).1 = (m.gs.map (·.1)).getD t [] := by
+  simp only [List.getD_eq_getElem?_getD, List.getElem?_map]
+  cases m.gs[t]? <;> rfl
+
+/-- one `#=GS` line -/
+theorem gsLine_step (abc : Option Abc) (cfg : Cfg) (enc : UInt8 → UInt8) (txt : Nat → Bytes) (m : Msa)
+    (W : StoWritable abc cfg enc txt m) (w q i jn : Nat) (st : StoSt) (hq : q < 3 + m.gs.length) (hq2 : q ≠ 2) (hi : i < m.nseq) (v : Bytes)
+    (hv : grVal (gsMsa m) q i = some v) (h : InBlk cfg enc txt m ⟨q, i⟩ 0 w jn 0 0 0 0 st)
+    (hjn : (jn = i ∧ ∀ q' i', q' < q → grVal (gsMsa m) q' i' = none) ∨ (i < jn ∧ jn = m.nseq)) :
+    ∃ st', stoStep cfg st (gsLine m q i v) = .inl st' ∧
+      InBlk cfg enc txt m ⟨q, i + 1⟩ 0 w (jnA jn (i + 1)) 0 0 0 0 st' := by
+  have hnd : st.names.Nodup := by rw [h.names]; exact W.nodup.sublist (List.take_sublist _ _)
+  have hsi : st.si ≤ st.nseq := by rcases h.si with e | ⟨_, _, e⟩ <;> omega
+  have hgeq := gsSeqIdx_eq st (m.names.getD i []) hsi h.nseq h.alloc hnd
+  -- the sequence
+  have hfind : ∃ st1, gsSeqIdx st (m.names.getD i []) = .ok (st1, i) ∧ InBlk cfg enc txt m ⟨q, i⟩ 0 w (jnA jn (i + 1)) 0 0 0 0 st1 := by
+    rcases hjn with ⟨e, hno⟩ | ⟨hlt, e⟩
+    · subst e
+      obtain ⟨st1, g1, g2⟩ := getSeqIdx_new cfg enc txt m w jn 0 0 0 0 st h hi (Nat.zero_le _) W.nodup (fun i' q' hv' hd => by
+        unfold dnGs at hd
+        simp only [Bool.and_eq_true, Bool.or_eq_true, decide_eq_true_eq] at hd
+        rcases hd.2 with h' | h'
+        · rw [hno q' i' h'] at hv'; cases hv'
+        · exact h'.2)
+      refine ⟨st1, by rw [hgeq]; exact g1, ?_⟩
+      rw [show jnA jn (jn + 1) = jn + 1 from by unfold jnA; rw [if_neg (by omega)]]; exact g2
+    · subst e
+      have hnames : st.names = m.names := by rw [h.names]; exact List.take_length
+      have hk : st.names[i]? = some (m.names.getD i []) := by
+        rw [hnames, List.getD_eq_getElem?_getD, List.getElem?_eq_getElem (show i < m.names.length from hi)]; rfl
+      refine ⟨st, by rw [hgeq]; exact getSeqIdx_found st _ hnd i hk, ?_⟩
+      rw [show jnA m.nseq (i + 1) = m.nseq from by unfold jnA; rw [if_pos (by omega)]]; exact h
+  obtain ⟨st1, hidx, h1⟩ := hfind
+  have hjA : i < jnA jn (i + 1) := by unfold jnA; split <;> omega
+  have hjAm : jnA jn (i + 1) ≤ m.nseq := by unfold jnA; rcases hjn with ⟨e, _⟩ | ⟨_, e⟩ <;> split <;> omega
+  have hsq : i < st1.sqalloc := by
+    have := h1.alloc
+    have hl : st1.names.length = jnA jn (i + 1) := by
+      rw [h1.names, List.length_take]; have : jnA jn (i + 1) ≤ m.names.length := hjAm; omega
+    omega
+  obtain ⟨hw0, PL, L, hI⟩ := h1.gsI
+  have hval := W.ann.gs_val q i v hv
+  obtain ⟨sp, hline, hsp⟩ := gsline_shape m q i v
+  obtain ⟨htn, _⟩ := gsTag_facts m W.ann q hq hq2
+  have hvh : ∀ c, v.head? = some c → inDelim blankTab c = false := by
+    by_cases e : q = 0
+    · exact nameOk_head v (hval.1 e).1
+    · exact (hval.2.1 e).1
+  have hm1 : memtok (bGS ++ [32] ++ (m.names.getD i [] ++ sp ++ (gsTagOf m q ++ [32] ++ v))) blankTab
+      = some (bGS, m.names.getD i [] ++ sp ++ (gsTagOf m q ++ [32] ++ v)) :=
+    memtok_tok bGS [32] _ (by unfold nameOk; decide +kernel) ⟨by simp, by simp⟩ (head_tok _ sp _ (W.name_ok i hi).1)
+  have hm2 : memtok (m.names.getD i [] ++ sp ++ (gsTagOf m q ++ [32] ++ v)) blankTab = some (m.names.getD i [], gsTagOf m q ++ [32] ++ v) :=
+    memtok_tok _ sp _ (W.name_ok i hi).1 hsp (head_tok _ [32] v htn)
+  have hm3 : memtok (gsTagOf m q ++ [32] ++ v) blankTab = some (gsTagOf m q, v) := memtok_tok _ [32] v htn ⟨by simp, by simp⟩ hvh
+  have hdn : dnGs m ⟨q, i⟩ i q = false := by unfold dnGs; simp
+  have hcellv : cellOf 0 (gsW m) (dnGs m ⟨q, i⟩ i q) (grVal (gsMsa m) q i) = none := by rw [hdn]; exact cellOf_zero _ _
+  have htv := txtVal_gs m q i v hi hv
+  have hstep : ∀ {P : List OptRows} {PL' : List (Option (List Nat))} {T' : List Bytes} {G' : List (List (Option Bytes))}
+      {L' : List (List Nat)}, GrInv (gsMsa m) 0 (gsW m) (upd (dnGs m ⟨q, i⟩) i q) st1.sqalloc P PL' T' G' L' →
+      GrInv (gsMsa m) 0 (gsW m) (dnGs m ⟨q, i + 1⟩) st1.sqalloc P PL' T' G' L' :=
+    fun hh => hh.congr (fun i' q' _ => dnGs_step m q i i' q' hi)
+  by_cases hq3 : q < 3
+  · rcases q with _ | _ | _ | t
+    · -- AC
+      have hgt : gsTagOf m 0 = bAC := rfl
+      have hperarr := hI.perArr 0 (by omega) i hi (by rw [hv]; rfl)
+      obtain ⟨arr, lens, harr, hr⟩ : ∃ arr lens, ((st1.sqacc = none ∧ arr = List.replicate st1.sqalloc none) ∨ st1.sqacc = some arr) ∧
+          RowSpec (gsMsa m) 0 (gsW m) (dnGs m ⟨0, i⟩) st1.sqalloc 0 arr lens := by
+        rcases hperarr with ⟨hp, hr⟩ | ⟨arr, lens, hp, _, hr⟩
+        · exact ⟨_, _, Or.inl ⟨by simpa using hp, rfl⟩, hr⟩
+        · exact ⟨arr, lens, Or.inr (by simpa using hp), hr⟩
+      have hc := hr.arr i hsq
+      rw [hcellv] at hc
+      have happ := gsApply_ac st1 i v (hval.1 rfl) arr harr hr.alen hsq hc
+      have hp := parseGs_eval st st1 _ _ _ _ _ _ v i hm1 hm2 (by rw [hgt] at hm3; exact hm3) hidx happ
+      refine ⟨_, by rw [hline, stoStep_gsline cfg st _ h.fr.lead, hp]; rfl, ?_⟩
+      have hset := hstep (hI.setPer 0 (by omega) i hi hsq v hv arr lens hr)
+      rw [htv] at hset
+      exact
+        { h1 with
+          fr := { h1.fr with lead := h1.fr.lead }
+          gsI := ⟨hw0, _, L, hset⟩
+          si := Or.inr ⟨rfl, rfl, by show i + 1 ≤ st1.nseq; rw [h1.nseq, h1.names, List.length_take]; have : jnA jn (i + 1) ≤ m.names.length := hjAm; omega⟩ }
+    · -- DE
+      have hgt : gsTagOf m 1 = bDE := rfl
+      have hperarr := hI.perArr 1 (by omega) i hi (by rw [hv]; rfl)
+      obtain ⟨arr, lens, harr, hr⟩ : ∃ arr lens, ((st1.sqdesc = none ∧ arr = List.replicate st1.sqalloc none) ∨ st1.sqdesc = some arr) ∧
+          RowSpec (gsMsa m) 0 (gsW m) (dnGs m ⟨1, i⟩) st1.sqalloc 1 arr lens := by
+        rcases hperarr with ⟨hp, hr⟩ | ⟨arr, lens, hp, _, hr⟩
+        · exact ⟨_, _, Or.inl ⟨by simpa using hp, rfl⟩, hr⟩
+        · exact ⟨arr, lens, Or.inr (by simpa using hp), hr⟩
+      have hc := hr.arr i hsq
+      rw [hcellv] at hc
+      have happ := gsApply_de st1 i v (hval.2.1 (by omega)) arr harr hr.alen hsq hc
+      have hp := parseGs_eval st st1 _ _ _ _ _ _ v i hm1 hm2 (by rw [hgt] at hm3; exact hm3) hidx happ
+      refine ⟨_, by rw [hline, stoStep_gsline cfg st _ h.fr.lead, hp]; rfl, ?_⟩
+      have hset := hstep (hI.setPer 1 (by omega) i hi hsq v hv arr lens hr)
+      rw [htv] at hset
+      exact
+        { h1 with
+          fr := { h1.fr with lead := h1.fr.lead }
+          gsI := ⟨hw0, _, L, hset⟩
+          si := Or.inr ⟨rfl, rfl, by show i + 1 ≤ st1.nseq; rw [h1.nseq, h1.names, List.length_take]; have : jnA jn (i + 1) ≤ m.names.length := hjAm; omega⟩ }
+    · omega
+    · omega
+  · -- unparsed tag `t`
+    obtain ⟨t, rfl⟩ : ∃ t, q = 3 + t := ⟨q - 3, by omega⟩
+    have ht : t < m.gs.length := by omega
+    have hmem : m.gs.getD t ([], []) ∈ m.gs := by rw [getD_eq_getElem_of_lt _ ht]; exact List.getElem_mem ht
+    have htok := (W.ann.gs_tag_ok _ hmem).1
+    have hgt : gsTagOf m (3 + t) = (m.gs.getD t ([], [])).1 := gsTagOf_other m t
+    have hv0 : cstr v = v := cstr_id v (fun c hc e => (hval.2.1 (by omega)).2.1 (e ▸ hc))
+    have hct : cstr (m.gs.getD t ([], [])).1 = (m.gs.getD t ([], [])).1 := cstr_id _ (nameOk_nonul _ htok.1)
+    obtain ⟨ng, hT⟩ := hI.tagI
+    have hgsgr : (gsMsa m).gr = m.gs := rfl
+    by_cases hkn : t < ng
+    · have hidx2 : getGsTagIdx st1 (m.gs.getD t ([], [])).1 = (st1, t) := by
+        unfold getGsTagIdx
+        rw [hT.tags, hgsgr, gs_getD_fst, findIdx?_take_self _ W.ann.gs_nodup t ng hkn (by rw [List.length_map]; exact hT.le)]
+      obtain ⟨arr, lens, hga, hla, hr⟩ := hT.rows t hkn
+      have hc := hr.arr i hsq
+      rw [hcellv] at hc
+      have happ : gsApply st1 i (gsTagOf m (3 + t)) v = .ok { st1 with gs := st1.gs.set t (arr.set i (some v)) } := by
+        rw [hgt, gsApply_other st1 i _ v htok]
+        exact addGS_eval st1 st1 _ t i v arr hidx2 hga hc hv0
+      have hp := parseGs_eval st st1 _ _ _ _ _ _ v i hm1 hm2 hm3 hidx happ
+      refine ⟨_, by rw [hline, stoStep_gsline cfg st _ h.fr.lead, hp]; rfl, ?_⟩
+      have hset := hstep (hI.setGr i t ng (hT.stepKnown t hkn i hsq v hv arr lens hga hla))
+      rw [htv] at hset
+      exact
+        { h1 with
+          fr := { h1.fr with lead := h1.fr.lead }
+          gsI := ⟨hw0, PL, _, hset⟩
+          si := Or.inr ⟨rfl, rfl, by show i + 1 ≤ st1.nseq; rw [h1.nseq, h1.names, List.length_take]; have : jnA jn (i + 1) ≤ m.names.length := hjAm; omega⟩ }
+    · have hprev : ∀ t', t' < t → t' < ng := by
+        intro t' ht'
+        obtain ⟨i', hi', hv'⟩ := W.ann.gs_ne t' (by omega)
+        exact hT.unknown t' (show t' < m.gs.length by omega) i' hi' hv' (by unfold visOf dnGs; simp [hi']; omega)
+      have hng : ng = t := by
+        have : ng ≤ t := by omega
+        by_cases e : t = 0
+        · omega
+        · have := hprev (t - 1) (by omega); omega
+      subst hng
+      have hidx2 : getGsTagIdx st1 (m.gs.getD ng ([], [])).1
+          = ({ st1 with gsTags := st1.gsTags ++ [(m.gs.getD ng ([], [])).1], gs := st1.gs ++ [List.replicate st1.sqalloc none] }, ng) := by
+        have hl : st1.gsTags.length = ng := by rw [hT.tags, List.length_take, List.length_map]; have := hT.le; omega
+        have hnone : st1.gsTags.findIdx? (· == (m.gs.getD ng ([], [])).1) = none := by
+          rw [hT.tags, hgsgr, gs_getD_fst]
+          exact findIdx?_take_none _ W.ann.gs_nodup ng (by simpa using ht)
+        unfold getGsTagIdx
+        rw [hnone, hl, hct]
+      have hfresh : ∀ i', i' < st1.sqalloc → (grVal (gsMsa m) (3 + ng) i').isSome = true → dnGs m ⟨3 + ng, i⟩ i' (3 + ng) = false := by
+        intro i' _ hv'
+        cases hd : dnGs m ⟨3 + ng, i⟩ i' (3 + ng) with
+        | false => rfl
+        | true =>
+          have hi2 : i' < m.nseq := by unfold dnGs at hd; simp at hd; omega
+          exact absurd (hT.unknown ng ht i' hi2 hv' (by unfold visOf; simp [hd])) hkn
+      have hGr : (st1.gs ++ [List.replicate st1.sqalloc none])[ng]? = some (List.replicate st1.sqalloc none) := by
+        rw [List.getElem?_append_right (by rw [hT.gr_len]; exact Nat.le_refl _), hT.gr_len]; simp
+      have hc : (List.replicate st1.sqalloc (none : Option Bytes))[i]? = some none := by rw [List.getElem?_replicate, if_pos hsq]
+      have happ : gsApply st1 i (gsTagOf m (3 + ng)) v
+          = .ok { st1 with gsTags := st1.gsTags ++ [(m.gs.getD ng ([], [])).1],
+                           gs := (st1.gs ++ [List.replicate st1.sqalloc none]).set ng ((List.replicate st1.sqalloc none).set i (some v)) } := by
+        rw [hgt, gsApply_other st1 i _ v htok]
+        exact addGS_eval st1 _ _ ng i v _ hidx2 hGr hc hv0
+      have hp := parseGs_eval st st1 _ _ _ _ _ _ v i hm1 hm2 hm3 hidx happ
+      refine ⟨_, by rw [hline, stoStep_gsline cfg st _ h.fr.lead, hp]; rfl, ?_⟩
+      have hset := hstep (hI.setGr i ng (ng + 1) (hT.stepNew ht i hi hsq v hv hfresh))
+      rw [htv] at hset
+      exact
+        { h1 with
+          fr := { h1.fr with lead := h1.fr.lead }
+          gsI := ⟨hw0, PL, _, by rw [set_snoc _ _ _ _ hT.gr_len.symm]; exact hset⟩
+          si := Or.inr ⟨rfl, rfl, by show i + 1 ≤ st1.nseq; rw [h1.nseq, h1.names, List.length_take]; have : jnA jn (i + 1) ≤ m.names.length := hjAm; omega⟩ }
+
+/-- the lines of one `#=GS` kind -/
+theorem gsSec_steps (abc : Option Abc) (cfg : Cfg) (enc : UInt8 → UInt8) (txt : Nat → Bytes) (m : Msa)
+    (W : StoWritable abc cfg enc txt m) (w q jn0 : Nat) (st : StoSt) (hq : q < 3 + m.gs.length) (hq2 : q ≠ 2)
+    (hmode : (jn0 = 0 ∧ (∀ q' i', q' < q → grVal (gsMsa m) q' i' = none) ∧ ∀ i, i < m.nseq → (grVal (gsMsa m) q i).isSome = true) ∨
+      jn0 = m.nseq)
+    (h : InBlk cfg enc txt m ⟨q, 0⟩ 0 w jn0 0 0 0 0 st) :
+    ∀ i, i ≤ m.nseq → ∃ st', stepsFrom (stoStep cfg) st ((List.range i).flatMap (fun i => optLine (grVal (gsMsa m) q i) (gsLine m q i))) = .inl st' ∧
+      InBlk cfg enc txt m ⟨q, i⟩ 0 w (jnA jn0 i) 0 0 0 0 st' := by
+  intro i
+  induction i with
+  | zero => intro _; exact ⟨st, rfl, by rw [show jnA jn0 0 = jn0 from by unfold jnA; split <;> omega]; exact h⟩
+  | succ i ih =>
+    intro hi
+    obtain ⟨st1, hs1, h1⟩ := ih (by omega)
+    have hA : jnA (jnA jn0 i) (i + 1) = jnA jn0 (i + 1) := by
+      unfold jnA; rcases hmode with ⟨e, _⟩ | e <;> subst e <;> (repeat' split) <;> omega
+    cases hv : grVal (gsMsa m) q i with
+    | none =>
+      have hk : jn0 = m.nseq := by
+        rcases hmode with ⟨_, _, hall⟩ | e
+        · have := hall i (by omega); rw [hv] at this; cases this
+        · exact e
+      refine ⟨st1, ?_, ?_⟩
+      · rw [List.range_succ, List.flatMap_append, stepsFrom_append _ _ _ _ _ hs1]
+        simp [hv, optLine, stepsFrom]
+      · have e1 : jnA jn0 (i + 1) = jnA jn0 i := by subst hk; unfold jnA; rw [if_pos (by omega), if_pos (by omega)]
+        rw [e1]
+        exact h1.gsCongr ⟨q, i + 1⟩ (fun i' q' hs => by
+          rw [dnGs_step m q i i' q' (by omega)]
+          by_cases e : i' = i
+          · by_cases e2 : q' = q
+            · subst e e2; rw [hv] at hs; cases hs
+            · exact upd_ne_q _ e2
+          · exact upd_ne_i _ e)
+    | some v =>
+      obtain ⟨st2, hs2, h2⟩ := gsLine_step abc cfg enc txt m W w q i (jnA jn0 i) st1 hq hq2 (by omega) v hv h1 (by
+        rcases hmode with ⟨e, hno, _⟩ | e
+        · subst e; exact Or.inl ⟨by unfold jnA; split <;> omega, hno⟩
+        · subst e; exact Or.inr ⟨by unfold jnA; rw [if_pos (by omega)]; omega, by unfold jnA; rw [if_pos (by omega)]⟩)
+      rw [hA] at h2
+      refine ⟨st2, ?_, h2⟩
+      rw [List.range_succ, List.flatMap_append, stepsFrom_append _ _ _ _ _ hs1]
+      simp only [List.flatMap_cons, List.flatMap_nil, List.append_nil, hv, optLine, stepsFrom, hs2]
+
+theorem endBlock_idle (st : StoSt) (h : st.inBlock = false) : endBlock st = .ok st := by
+  unfold endBlock; simp [h]
+
+/-- one complete `#=GS` kind with the blank line behind it -/
+theorem gsSec_full (abc : Option Abc) (cfg : Cfg) (enc : UInt8 → UInt8) (txt : Nat → Bytes) (m : Msa)
+    (W : StoWritable abc cfg enc txt m) (w q jn0 : Nat) (st : StoSt) (hq : q < 3 + m.gs.length) (hq2 : q ≠ 2)
+    (hmode : (jn0 = 0 ∧ (∀ q' i', q' < q → grVal (gsMsa m) q' i' = none) ∧ ∀ i, i < m.nseq → (grVal (gsMsa m) q i).isSome = true) ∨
+      jn0 = m.nseq)
+    (h : InBlk cfg enc txt m ⟨q, 0⟩ 0 w jn0 0 0 0 0 st) :
+    ∃ st', stepsFrom (stoStep cfg) st (stoGsSec m q ++ [[]]) = .inl st' ∧ InBlk cfg enc txt m ⟨q + 1, 0⟩ 0 w m.nseq 0 0 0 0 st' := by
+  obtain ⟨st1, hs1, h1⟩ := gsSec_steps abc cfg enc txt m W w q jn0 st hq hq2 hmode h m.nseq (Nat.le_refl _)
+  have hA : jnA jn0 m.nseq = m.nseq := by
+    unfold jnA; rcases hmode with ⟨e, _⟩ | e <;> subst e <;> split <;> omega
+  rw [hA] at h1
+  have hib : st1.inBlock = false := by rw [h1.inBlock]; simp
+  refine ⟨st1, ?_, h1.gsCongr ⟨q + 1, 0⟩ (fun i' q' _ => by unfold dnGs; rw [Bool.eq_iff_iff]; simp; omega)⟩
+  unfold stoGsSec
+  rw [stepsFrom_append _ _ _ _ _ hs1]
+  simp only [stepsFrom, stoStep_blank cfg st1 st1 h1.fr.lead (endBlock_idle st1 hib)]
+
+theorem gsVal_kind (m : Msa) (i : Nat) : grVal (gsMsa m) 2 i = none := rfl
+
+theorem gsVal_acc (m : Msa) (i : Nat) : grVal (gsMsa m) 0 i = optRow m.sqacc i := rfl
+theorem gsVal_desc (m : Msa) (i : Nat) : grVal (gsMsa m) 1 i = optRow m.sqdesc i := rfl
+
+/-- the `#=GS … AC` and `#=GS … DE` kinds -/
+theorem gs_steps_acde (abc : Option Abc) (cfg : Cfg) (enc : UInt8 → UInt8) (txt : Nat → Bytes) (m : Msa)
+    (W : StoWritable abc cfg enc txt m) (w : Nat) :
+    ∃ st' jn0, stepsFrom (stoStep cfg) (headSt m)
+        ((if m.sqacc.isSome then stoGsSec m 0 ++ [[]] else []) ++ (if m.sqdesc.isSome then stoGsSec m 1 ++ [[]] else [])) = .inl st' ∧
+      InBlk cfg enc txt m ⟨3, 0⟩ 0 w jn0 0 0 0 0 st' ∧
+      (jn0 = m.nseq ∨ (jn0 = 0 ∧ ∀ q i, q < 3 → grVal (gsMsa m) q i = none)) := by
+  have hp := W.ann
+  have h0 := InBlk_init cfg enc txt m hp w
+  have hany : ∀ q l, q < 2 → (perF (gsMsa m)).getD q none = some l → ∃ i, i < m.nseq ∧ (grVal (gsMsa m) q i).isSome = true := by
+    intro q l hq hl
+    obtain ⟨_, i, hi, hs⟩ := hp.gs_per_ok q (by omega) l hl
+    refine ⟨i, hi, ?_⟩
+    unfold grVal; rw [if_pos (by omega), hl]; exact hs
+  have hlast : ∀ {st : StoSt} {jn : Nat}, InBlk cfg enc txt m ⟨2, 0⟩ 0 w jn 0 0 0 0 st → InBlk cfg enc txt m ⟨3, 0⟩ 0 w jn 0 0 0 0 st :=
+    fun hh => hh.gsCongr ⟨3, 0⟩ (fun i' q' hv => by
+      have : q' ≠ 2 := fun e => by subst e; rw [gsVal_kind] at hv; cases hv
+      unfold dnGs; rw [Bool.eq_iff_iff]; simp; omega)
+  cases hacc : m.sqacc with
+  | none =>
+    have hno0 : ∀ i, grVal (gsMsa m) 0 i = none := fun i => by rw [gsVal_acc, hacc]; rfl
+    have h1 : InBlk cfg enc txt m ⟨1, 0⟩ 0 w 0 0 0 0 0 (headSt m) :=
+      h0.gsCongr ⟨1, 0⟩ (fun i' q' hv => by
+        have : q' ≠ 0 := fun e => by subst e; rw [hno0] at hv; cases hv
+        unfold dnGs GsSt.none; rw [Bool.eq_iff_iff]; simp; omega)
+    cases hdesc : m.sqdesc with
+    | none =>
+      have hno1 : ∀ i, grVal (gsMsa m) 1 i = none := fun i => by rw [gsVal_desc, hdesc]; rfl
+      refine ⟨headSt m, 0, rfl, hlast (h1.gsCongr ⟨2, 0⟩ (fun i' q' hv => by
+        have : q' ≠ 1 := fun e => by subst e; rw [hno1] at hv; cases hv
+        unfold dnGs; rw [Bool.eq_iff_iff]; simp; omega)), Or.inr ⟨rfl, fun q i hq => ?_⟩⟩
+      rcases q with _ | _ | _ | q
+      · exact hno0 i
+      · exact hno1 i
+      · exact gsVal_kind m i
+      · omega
+    | some ld =>
+      have hall : ∀ i, i < m.nseq → (grVal (gsMsa m) 1 i).isSome = true :=
+        hp.gs_order 1 (by omega) (fun q' hq' i' _ => by have e : q' = 0 := (by omega); subst e; exact hno0 i')
+          (hany 1 ld (by omega) (by show m.sqdesc = some ld; exact hdesc))
+      obtain ⟨st2, hs2, h2⟩ := gsSec_full abc cfg enc txt m W w 1 0 (headSt m) (by omega) (by omega)
+        (Or.inl ⟨rfl, fun q' i' hq' => by have e : q' = 0 := (by omega); subst e; exact hno0 i', hall⟩) h1
+      refine ⟨st2, m.nseq, ?_, hlast h2, Or.inl rfl⟩
+      simpa using hs2
+  | some la =>
+    have hall : ∀ i, i < m.nseq → (grVal (gsMsa m) 0 i).isSome = true :=
+      hp.gs_order 0 (by omega) (fun q' hq' => by omega) (hany 0 la (by omega) (by show m.sqacc = some la; exact hacc))
+    obtain ⟨st1, hs1, h1⟩ := gsSec_full abc cfg enc txt m W w 0 0 (headSt m) (by omega) (by omega)
+      (Or.inl ⟨rfl, fun q' i' hq' => by omega, hall⟩) h0
+    cases hdesc : m.sqdesc with
+    | none =>
+      have hno1 : ∀ i, grVal (gsMsa m) 1 i = none := fun i => by rw [gsVal_desc, hdesc]; rfl
+      refine ⟨st1, m.nseq, ?_, hlast (h1.gsCongr ⟨2, 0⟩ (fun i' q' hv => by
+        have : q' ≠ 1 := fun e => by subst e; rw [hno1] at hv; cases hv
+        unfold dnGs; rw [Bool.eq_iff_iff]; simp; omega)), Or.inl rfl⟩
+      simpa using hs1
+    | some ld =>
+      obtain ⟨st2, hs2, h2⟩ := gsSec_full abc cfg enc txt m W w 1 m.nseq st1 (by omega) (by omega) (Or.inr rfl) h1
+      refine ⟨st2, m.nseq, ?_, hlast h2, Or.inl rfl⟩
+      simp only [Option.isSome_some, if_true]
+      rw [stepsFrom_append _ _ _ _ _ hs1]
+      exact hs2
+
+/-- the unparsed `#=GS` tags, one kind after the other -/
+theorem gs_steps_tags (abc : Option Abc) (cfg : Cfg) (enc : UInt8 → UInt8) (txt : Nat → Bytes) (m : Msa)
+    (W : StoWritable abc cfg enc txt m) (w : Nat) (st : StoSt) (jn0 : Nat) (h : InBlk cfg enc txt m ⟨3, 0⟩ 0 w jn0 0 0 0 0 st)
+    (hjn0 : jn0 = m.nseq ∨ (jn0 = 0 ∧ ∀ q i, q < 3 → grVal (gsMsa m) q i = none)) :
+    ∀ t, t ≤ m.gs.length → ∃ st' jn', stepsFrom (stoStep cfg) st ((List.range t).flatMap (fun t => stoGsSec m (3 + t) ++ [[]])) = .inl st' ∧
+      InBlk cfg enc txt m ⟨3 + t, 0⟩ 0 w jn' 0 0 0 0 st' ∧
+      (jn' = m.nseq ∨ (jn' = 0 ∧ ∀ q i, q < 3 + t → grVal (gsMsa m) q i = none)) := by
+  intro t
+  induction t with
+  | zero => intro _; exact ⟨st, jn0, rfl, h, hjn0⟩
+  | succ t ih =>
+    intro ht
+    obtain ⟨st1, jn1, hs1, h1, hj1⟩ := ih (by omega)
+    have hmode : (jn1 = 0 ∧ (∀ q' i', q' < 3 + t → grVal (gsMsa m) q' i' = none) ∧
+        ∀ i, i < m.nseq → (grVal (gsMsa m) (3 + t) i).isSome = true) ∨ jn1 = m.nseq := by
+      rcases hj1 with e | ⟨e, hno⟩
+      · exact Or.inr e
+      · exact Or.inl ⟨e, hno, W.ann.gs_order (3 + t) (by omega) (fun q' hq' i' _ => hno q' i' hq') (W.ann.gs_ne t (by omega))⟩
+    obtain ⟨st2, hs2, h2⟩ := gsSec_full abc cfg enc txt m W w (3 + t) jn1 st1 (by omega) (by omega) hmode h1
+    refine ⟨st2, m.nseq, ?_, h2, Or.inl rfl⟩
+    rw [List.range_succ, List.flatMap_append, stepsFrom_append _ _ _ _ _ hs1]
+    simpa using hs2
+
+/-- the whole `#=GS` section -/
+theorem gs_steps (abc : Option Abc) (cfg : Cfg) (enc : UInt8 → UInt8) (txt : Nat → Bytes) (m : Msa)
+    (W : StoWritable abc cfg enc txt m) (w : Nat) :
+    ∃ st' jn0, stepsFrom (stoStep cfg) (headSt m) (stoGsL m) = .inl st' ∧ InBlk cfg enc txt m (gsFull m) 0 w jn0 0 0 0 0 st' ∧
+      (jn0 = m.nseq ∨ (jn0 = 0 ∧ ∀ q i, grVal (gsMsa m) q i = none)) := by
+  obtain ⟨st1, jn1, hs1, h1, hj1⟩ := gs_steps_acde abc cfg enc txt m W w
+  obtain ⟨st2, jn2, hs2, h2, hj2⟩ := gs_steps_tags abc cfg enc txt m W w st1 jn1 h1 hj1 m.gs.length (Nat.le_refl _)
+  refine ⟨st2, jn2, ?_, h2, ?_⟩
+  · unfold stoGsL
+    rw [← List.append_assoc, stepsFrom_append _ _ _ _ _ hs1]
+    exact hs2
+  · rcases hj2 with e | ⟨e, hno⟩
+    · exact Or.inl e
+    · refine Or.inr ⟨e, fun q i => ?_⟩
+      by_cases hq : q < 3 + m.gs.length
+      · exact hno q i hq
+      · cases hv : grVal (gsMsa m) q i with
+        | none => rfl
+        | some s => exact absurd (grVal_lt (gsMsa m) q i (by rw [hv]; rfl)) hq
 
 /-! ## the end of the record -/
 
@@ -1847,12 +3513,13 @@ theorem consVal_full (m : Msa) (hp : StoAnn m) (ha : 1 ≤ m.alen) (k : Nat) : c
 
 theorem stoFinal_full (abc : Option Abc) (cfg : Cfg) (enc : UInt8 → UInt8) (txt : Nat → Bytes) (m : Msa)
     (W : StoWritable abc cfg enc txt m) (w : Nat) (st : StoSt)
-    (h : InBlk cfg enc txt m GsSt.none m.alen w m.nseq (blockSpec m).length 0 0 0 st) :
+    (h : InBlk cfg enc txt m (gsFull m) m.alen w m.nseq (blockSpec m).length 0 0 0 st) :
     stoFinal cfg st = .ok (stoProject cfg m) := by
   have hfr := h.fr
   have hp := W.ann
   have ha1 := W.alen1
   have hn1 := W.n1
+  have hnsl := nsl_ge m
   have hnames : st.names = m.names := by rw [h.names]; exact List.take_length
   have hnl : st.names.length = m.nseq := by rw [hnames]; rfl
   have hnseq : st.nseq = m.nseq := by rw [h.nseq, hnl]
@@ -1887,39 +3554,65 @@ theorem stoFinal_full (abc : Option Abc) (cfg : Cfg) (enc : UInt8 → UInt8) (tx
   have c2 := hcons 2 (by omega)
   have c3 := hcons 3 (by omega)
   have c4 := hcons 4 (by omega)
-  have e_hasw : st.hasw = false := hfr.hasw
+  have e_hasw : st.hasw = false := h.gsI.hasw
   have e_name : st.name = m.name := hfr.name
   have e_desc : st.desc = m.desc := hfr.desc
   have e_acc : st.acc = m.acc := hfr.acc
   have e_au : st.au = m.au := hfr.au
-  have e_sqacc : st.sqacc = none := hfr.sqacc
-  have e_sqdesc : st.sqdesc = none := hfr.sqdesc
-  have e_per : st.per = List.replicate 3 none := hfr.per
+  have hnsq0 : m.nseq ≤ st.sqalloc := by have := h.alloc; omega
+  obtain ⟨gPL, gL, hGs⟩ := h.gsI.inv
+  have hgvis : ∀ i q, i < (gsMsa m).nseq → (grVal (gsMsa m) q i).isSome = true → visOf 0 (dnGs m (gsFull m)) i q = true := by
+    intro i q hi hv
+    unfold visOf; rw [dnGs_full m i q hi hv]; rfl
+  have hgcell : ∀ q i, i < (gsMsa m).nseq →
+      cellOf 0 (gsW m) (dnGs m (gsFull m) i q) (grVal (gsMsa m) q i) = grVal (gsMsa m) q i := by
+    intro q i hi
+    cases hv : grVal (gsMsa m) q i with
+    | none => rfl
+    | some s =>
+      rw [dnGs_full m i q hi (by rw [hv]; rfl)]
+      show txtVal s (0 + gsW m) = some s
+      exact txtVal_gs m q i s hi hv
+  have e_sqacc : st.sqacc.map (·.take m.nseq) = m.sqacc :=
+    hGs.final_per hnsq0 hgvis hgcell 0 (by omega) (hp.gs_per_ok 0 (by omega))
+  have e_sqdesc : st.sqdesc.map (·.take m.nseq) = m.sqdesc :=
+    hGs.final_per hnsq0 hgvis hgcell 1 (by omega) (hp.gs_per_ok 1 (by omega))
+  have e_gs : st.gsTags.zip (st.gs.map (·.take m.nseq)) = m.gs :=
+    hGs.final_gr hnsq0 hgvis hgcell (fun t ht => (hp.gs_tag_ok t ht).2) hp.gs_ne
+  have hG : GrInv m m.alen w (fun _ _ => false) st.sqalloc st.per st.perLen st.grTags st.gr st.ogrLen :=
+    h.grI.congr (fun i q _ => (dnOf_false_of_ge 0 (nslots m) i q (Nat.zero_le _)).symm)
+  have hnsq : m.nseq ≤ st.sqalloc := hnsq0
+  have hrvis : ∀ i q, i < m.nseq → (grVal m q i).isSome = true → visOf m.alen (fun _ _ => false) i q = true := by
+    intro i q _ _; unfold visOf; simp; omega
+  have hrcell : ∀ q i, i < m.nseq → cellOf m.alen w ((fun _ _ => false) i q) (grVal m q i) = grVal m q i :=
+    fun q i _ => cellOf_full m w ha1 _ (fun s hs => (hp.gr_col q i s hs).1)
+  have e_p0 : (st.per.getD 0 none).map (·.take m.nseq) = m.ss := hG.final_per hnsq hrvis hrcell 0 (by omega) (hp.per_ok 0 (by omega))
+  have e_p1 : (st.per.getD 1 none).map (·.take m.nseq) = m.sa := hG.final_per hnsq hrvis hrcell 1 (by omega) (hp.per_ok 1 (by omega))
+  have e_p2 : (st.per.getD 2 none).map (·.take m.nseq) = m.pp := hG.final_per hnsq hrvis hrcell 2 (by omega) (hp.per_ok 2 (by omega))
   have e_cut : st.cutset = cutsetOf m := hfr.cutset
   have e_com : st.comments = m.comments := hfr.comments
   have e_gf : st.gf = m.gf := hfr.gf
-  have e_gsT : st.gsTags = [] := hfr.gsTags
-  have e_gs : st.gs = [] := hfr.gs
-  have e_gcT : st.gcTags = [] := hfr.gcTags
-  have e_gc : st.gc = [] := hfr.gc
-  have e_grT : st.grTags = [] := hfr.grTags
-  have e_gr : st.gr = [] := hfr.gr
+  have ha0 : m.alen ≠ 0 := by omega
+  have e_gc : st.gcTags.zip (st.gc.map (·.getD [])) = m.gc :=
+    GcInv.final (hfr.gcI.congr (by simp [ngcOf, ha0]) (fun _ _ => by simp [gcCol])) ha1 (fun t ht => (hp.gc_ok t ht).2.1)
+  have e_gr : st.grTags.zip (st.gr.map (·.take m.nseq)) = m.gr :=
+    hG.final_gr hnsq hrvis hrcell (fun t ht => (hp.gr_tag_ok t ht).2) hp.gr_ne
   unfold stoFinal
   simp only [hnb, hn0, Bool.false_eq_true, if_false, hfind, e_hasw]
   congr 1
   unfold stoMsa stoProject
-  simp only [hnseq, hrows, hnames, h.alen, e_hasw, e_name, e_desc, e_acc, e_au, c0, c1, c2, c3, c4, e_sqacc, e_sqdesc, e_per,
-    e_cut, e_com, e_gf, e_gsT, e_gs, e_gcT, e_gc, e_grT, e_gr]
-  obtain ⟨a1, a2, a3, a4, a5, a6, a8, a9, a10, _, _, _, _, _, _, _, _⟩ := hp
+  simp only [hnseq, hrows, hnames, h.alen, e_hasw, e_name, e_desc, e_acc, e_au, c0, c1, c2, c3, c4, e_sqacc, e_sqdesc, e_p0, e_p1, e_p2,
+    e_cut, e_com, e_gf, e_gs, e_gc, e_gr]
+  have a1 := hp.hasw
   rcases m with ⟨digital, kp, alen, names, aseq, ax, hasw, wgt, name, desc, acc, au, ssCons, saCons, ppCons, rf, mm, sqacc, sqdesc,
     ss, sa, pp, cutoff, comments, gf, gs, gc, gr⟩
-  simp only at a1 a2 a3 a4 a5 a6 a8 a9 a10
-  subst a1 a2 a3 a4 a5 a6 a8 a9 a10
+  simp only at a1
+  subst a1
   simp [Msa.nseq, consF]
 
 /-! ## the round trip -/
 
-/-- **Stockholm / Pfam round trip on lines** (names, rows, `#=GC` consensus lines, `#=GF ID/AC/DE/AU`) -/
+/-- **Stockholm / Pfam round trip on lines** (everything `StoAnn` admits) -/
 theorem stoRead_writeLines (pfam : Bool) (abc : Option Abc) (cfg : Cfg) (enc : UInt8 → UInt8) (txt : Nat → Bytes) (m : Msa)
     (W : StoWritable abc cfg enc txt m) :
     stockholmRead cfg (stockholmBodyLines pfam abc m ++ [[47, 47]]) = (.ok (stoProject cfg m), []) := by
@@ -1927,8 +3620,8 @@ theorem stoRead_writeLines (pfam : Bool) (abc : Option Abc) (cfg : Cfg) (enc : U
   have hc : 0 < stoCpl pfam m := by unfold stoCpl; split <;> omega
   rw [stoBody_ann pfam abc m W.ann W.nodup, blockStarts_cons' _ _ ha1 hc, List.flatMap_cons]
   have hhead := head_steps cfg m W.ann
-  have hI0 := InBlk_init cfg enc txt m W.ann (stoW m (stoCpl pfam m) 0)
-  obtain ⟨st1, hs1, h1⟩ := block_first abc cfg enc txt m W (stoCpl pfam m) _ hI0 hc
+  obtain ⟨st0, jn0, hs0, hI0, hjn0⟩ := gs_steps abc cfg enc txt m W (stoW m (stoCpl pfam m) 0)
+  obtain ⟨st1, hs1, h1⟩ := block_first abc cfg enc txt m W (stoCpl pfam m) jn0 st0 hI0 hc hjn0
   have hw1 : 1 ≤ stoW m (stoCpl pfam m) 0 := by unfold stoW; split <;> omega
   have hnext : 0 + stoW m (stoCpl pfam m) 0 = min (stoCpl pfam m) m.alen := by unfold stoW; split <;> omega
   obtain ⟨st2, p', w', hs2, h2, he, hw'⟩ :=
@@ -1937,9 +3630,9 @@ theorem stoRead_writeLines (pfam : Bool) (abc : Option Abc) (cfg : Cfg) (enc : U
   rw [he] at h3
   have hfin := stoFinal_full abc cfg enc txt m W 0 st3 h3
   have hsteps : stepsFrom (stoStep cfg) {}
-      (stoAnnHead m ++ (stoAnnBlock abc m (stoCpl pfam m) 0 ++
+      (stoAnnHead m ++ stoGsL m ++ (stoAnnBlock abc m (stoCpl pfam m) 0 ++
         (blockStartsFrom m.alen (stoCpl pfam m) (stoCpl pfam m)).flatMap (stoAnnBlock abc m (stoCpl pfam m)))) = .inl st2 := by
-    rw [stepsFrom_append _ _ _ _ _ hhead, stepsFrom_append _ _ _ _ _ hs1]
+    rw [List.append_assoc, stepsFrom_append _ _ _ _ _ hhead, stepsFrom_append _ _ _ _ _ hs0, stepsFrom_append _ _ _ _ _ hs1]
     exact hs2
   unfold stockholmRead
   rw [runLines_append_inl _ _ _ _ _ _ hsteps]
@@ -2038,7 +3731,56 @@ theorem stoLines_ok (pfam : Bool) (abc : Option Abc) (cfg : Cfg) (enc : UInt8 
   rw [stoBody_ann pfam abc m W.ann W.nodup] at hl
   rcases List.mem_append.mp hl with hl | hl
   · rcases List.mem_append.mp hl with hl | hl
-    · -- header
+    · rcases List.mem_append.mp hl with hl | hl
+      rotate_left
+      · -- #=GS lines
+        unfold stoGsL at hl
+        have hsec : ∀ q, q < 3 + m.gs.length → q ≠ 2 → ∀ l ∈ stoGsSec m q ++ [[]], lineOk l := by
+          intro q hq hq2 l hl
+          rcases List.mem_append.mp hl with hl | hl
+          · unfold stoGsSec at hl
+            obtain ⟨i, hi, hl⟩ := List.mem_flatMap.mp hl
+            have hi' := List.mem_range.mp hi
+            cases hv : grVal (gsMsa m) q i with
+            | none => rw [hv] at hl; simp [optLine] at hl
+            | some v =>
+              rw [hv] at hl
+              simp only [optLine, List.mem_singleton] at hl
+              subst hl
+              obtain ⟨sp, hline, hsp⟩ := gsline_shape m q i v
+              obtain ⟨_, ht10⟩ := gsTag_facts m hp q hq hq2
+              have hval := hp.gs_val q i v hv
+              have hvok : (10 : UInt8) ∉ v ∧ v.getLast? ≠ some 13 := by
+                by_cases e : q = 0
+                · exact ⟨(hval.1 e).2.1, (hval.1 e).2.2⟩
+                · exact ⟨(hval.2.1 e).2.2.1, (hval.2.1 e).2.2.2⟩
+              rw [hline]
+              have e : bGS ++ [32] ++ (m.names.getD i [] ++ sp ++ (gsTagOf m q ++ [32] ++ v))
+                  = (bGS ++ [32] ++ m.names.getD i [] ++ sp ++ gsTagOf m q ++ [32]) ++ v := by simp
+              rw [e]
+              refine lineOk_app _ v ?_ (sp_lineOk (bGS ++ [32] ++ m.names.getD i [] ++ sp ++ gsTagOf m q) [32] ⟨by simp, by simp⟩).1 hvok.1 hvok.2
+              intro h
+              simp only [List.mem_append] at h
+              rcases h with ((((h | h) | h) | h) | h) | h
+              · revert h; decide
+              · simp at h
+              · exact (W.name_ok i hi').2.1 h
+              · exact (sp_lineOk [] sp hsp).2 h
+              · exact ht10 h
+              · simp at h
+          · simp at hl; subst hl; exact hnil
+        rcases List.mem_append.mp hl with hl | hl
+        · split at hl
+          · exact hsec 0 (by omega) (by omega) l hl
+          · cases hl
+        · rcases List.mem_append.mp hl with hl | hl
+          · split at hl
+            · exact hsec 1 (by omega) (by omega) l hl
+            · cases hl
+          · obtain ⟨t, ht, hl⟩ := List.mem_flatMap.mp hl
+            have ht' := List.mem_range.mp ht
+            exact hsec (3 + t) (by omega) (by omega) l hl
+      -- header
       unfold stoAnnHead at hl
       simp only [List.mem_append, List.mem_cons, List.not_mem_nil, or_false] at hl
       rcases hl with hl | hl | hl | hl | hl | hl | hl | hl | hl | hl | hl | hl
@@ -2094,20 +3836,64 @@ theorem stoLines_ok (pfam : Bool) (abc : Option Abc) (cfg : Cfg) (enc : UInt8 
         · simp at hl; subst hl; exact hnil
         · simp at hl
       · rcases List.mem_append.mp hl with hl | hl
-        · obtain ⟨j, hj, rfl⟩ := List.mem_map.mp hl
+        · obtain ⟨j, hj, hl⟩ := List.mem_flatMap.mp hl
           have hj' := List.mem_range.mp hj
           have hw1 : 1 ≤ stoW m (stoCpl pfam m) pos := by unfold stoW; split <;> omega
           have hw2 : pos + stoW m (stoCpl pfam m) pos ≤ m.alen := by unfold stoW; split <;> omega
-          obtain ⟨sp, c, hline, hsp, hcq, _⟩ := sqline_shape abc cfg enc txt m W pos _ j hj' hw1 hw2
-          rw [hline]
           have hn := W.name_ok j hj'
-          obtain ⟨e1, e2⟩ := sp_lineOk (m.names.getD j []) sp hsp
-          obtain ⟨e3, e4⟩ := chunk_lineOk c hcq
-          refine lineOk_app _ c ?_ e1 e3 e4
-          intro h
-          rcases List.mem_append.mp h with h | h
-          · exact hn.2.1 h
-          · exact e2 h
+          have hgr : ∀ q, q < nslots m → ∀ l ∈ grSlotLines m pos (stoW m (stoCpl pfam m) pos) j q, lineOk l := by
+            intro q hq l hl
+            unfold grSlotLines at hl
+            cases hs : grVal m q j with
+            | none => rw [hs] at hl; simp [optLine] at hl
+            | some s =>
+              rw [hs] at hl
+              simp only [optLine, List.mem_singleton] at hl
+              subst hl
+              obtain ⟨_, ht10, _⟩ := grTag_facts m hp q hq
+              obtain ⟨sp1, sp2, c, hline, hsp1, hsp2, hcq, _⟩ :=
+                grline_shape m (sto_uniq_false m W.nodup) j (grTagOf m q) s (hp.gr_col q j s hs) pos _ hw1 hw2
+              rw [hline]
+              have e : bGR ++ [32] ++ (m.names.getD j [] ++ sp1 ++ (grTagOf m q ++ sp2 ++ c))
+                  = (bGR ++ [32] ++ m.names.getD j [] ++ sp1 ++ grTagOf m q) ++ sp2 ++ c := by simp
+              rw [e]
+              obtain ⟨e1, e2⟩ := sp_lineOk (bGR ++ [32] ++ m.names.getD j [] ++ sp1 ++ grTagOf m q) sp2 hsp2
+              obtain ⟨e3, e4⟩ := chunk_lineOk c hcq
+              refine lineOk_app _ c ?_ e1 e3 e4
+              intro h
+              simp only [List.mem_append] at h
+              rcases h with ((((h | h) | h) | h) | h) | h
+              · revert h; decide
+              · simp at h
+              · exact hn.2.1 h
+              · exact (sp_lineOk [] sp1 hsp1).2 h
+              · exact ht10 h
+              · exact e2 h
+          unfold stoSeqL at hl
+          rcases List.mem_append.mp hl with hl | hl
+          · simp only [List.mem_singleton] at hl
+            subst hl
+            obtain ⟨sp, c, hline, hsp, hcq, _⟩ := sqline_shape abc cfg enc txt m W pos _ j hj' hw1 hw2
+            rw [hline]
+            obtain ⟨e1, e2⟩ := sp_lineOk (m.names.getD j []) sp hsp
+            obtain ⟨e3, e4⟩ := chunk_lineOk c hcq
+            refine lineOk_app _ c ?_ e1 e3 e4
+            intro h
+            rcases List.mem_append.mp h with h | h
+            · exact hn.2.1 h
+            · exact e2 h
+          · rcases List.mem_append.mp hl with hl | hl
+            · exact hgr 0 (by unfold nslots; omega) l hl
+            · rcases List.mem_append.mp hl with hl | hl
+              · exact hgr 1 (by unfold nslots; omega) l hl
+              · rcases List.mem_append.mp hl with hl | hl
+                · exact hgr 2 (by unfold nslots; omega) l hl
+                · unfold grOtherLines at hl
+                  obtain ⟨t, ht, hl⟩ := List.mem_flatMap.mp hl
+                  obtain ⟨k, hk, rfl⟩ := List.mem_iff_getElem.mp ht
+                  have := grSlotLines_other m pos (stoW m (stoCpl pfam m) pos) j k
+                  rw [getD_eq_getElem_of_lt _ hk] at this
+                  exact hgr (3 + k) (by unfold nslots; omega) l (by rw [this]; exact hl)
         · rcases List.mem_append.mp hl with hl | hl
           · exact hgc pos hlt 0 (by omega) l hl
           · rcases List.mem_append.mp hl with hl | hl
@@ -2116,10 +3902,26 @@ theorem stoLines_ok (pfam : Bool) (abc : Option Abc) (cfg : Cfg) (enc : UInt8 
               · exact hgc pos hlt 2 (by omega) l hl
               · rcases List.mem_append.mp hl with hl | hl
                 · exact hgc pos hlt 3 (by omega) l hl
-                · exact hgc pos hlt 4 (by omega) l hl
+                · rcases List.mem_append.mp hl with hl | hl
+                  · exact hgc pos hlt 4 (by omega) l hl
+                  · obtain ⟨t, ht, rfl⟩ := List.mem_map.mp hl
+                    have hw1 : 1 ≤ stoW m (stoCpl pfam m) pos := by unfold stoW; split <;> omega
+                    have hw2 : pos + stoW m (stoCpl pfam m) pos ≤ m.alen := by unfold stoW; split <;> omega
+                    obtain ⟨htag, hcol⟩ := hp.gc_ok t ht
+                    obtain ⟨sp, c, hline, hsp, hcq, _⟩ := gcline_shape' m t.1 t.2 hcol pos _ hw1 hw2
+                    rw [hline, ← List.append_assoc, ← List.append_assoc]
+                    obtain ⟨e1, e2⟩ := sp_lineOk (bGC ++ [32] ++ t.1) sp hsp
+                    obtain ⟨e3, e4⟩ := chunk_lineOk c hcq
+                    refine lineOk_app _ c ?_ e1 e3 e4
+                    intro h
+                    rcases List.mem_append.mp h with h | h
+                    · rcases List.mem_append.mp h with h | h
+                      · revert h; decide
+                      · exact htag.2.1 h
+                    · exact e2 h
   · simp at hl; subst hl; exact ⟨by decide, by decide⟩
 
-/-- **Stockholm / Pfam round trip on bytes** (names, rows, `#=GC` consensus lines, `#=GF ID/AC/DE/AU`) -/
+/-- **Stockholm / Pfam round trip on bytes** (everything `StoAnn` admits) -/
 theorem stoRead_write (pfam : Bool) (abc : Option Abc) (cfg : Cfg) (enc : UInt8 → UInt8) (txt : Nat → Bytes) (m : Msa)
     (W : StoWritable abc cfg enc txt m) :
     stockholmRead cfg (splitLines (stockholmWrite pfam abc m)) = (.ok (stoProject cfg m), []) := by
